@@ -56,7 +56,7 @@ CONSTANTS Threads,    \* set of scenario thread ids (strings)
           NCpu,       \* number of model CPUs (possible-CPU array length)
           Re,         \* [rcu_head node -> node its callback passes to call_rcu, or "-"]
           Spurious,   \* budget of spurious / EINTR returns of FUTEX_WAIT
-          Mut         \* model-level mutants (subset of {"nogp","nowake","nohandover","earlycount","nomutex","noref","norlock"})
+          Mut         \* model-level mutants (subset of {"nogp","gpfirst","nowake","nohandover","earlycount","nomutex","noref","norlock"})
 
 NULL == "NULL"
 RT == 1  STOP == 4  STOPPED == 8  PAUSE == 16  PAUSED == 32
@@ -78,7 +78,7 @@ AllOps == UNION {OpsOf(t) : t \in Threads}
 Nodes == {o.n : o \in {x \in AllOps : x.op = "call"}} \cup ({Re[n] : n \in DOMAIN Re} \ {"-"})
 Slots == {o.x : o \in {x \in AllOps : x.op = "create"}}
 KName(t, j) == "k" \o t \o "." \o ToString(j)
-Comps == {KName(t, j) : t \in Threads, j \in 1..8} \cap UNION {{KName(t, j) : j \in {i \in DOMAIN Prog[t] : Prog[t][i].op = "barrier"}} : t \in Threads}
+Comps == UNION {{KName(t, j) : j \in {i \in DOMAIN Prog[t] : Prog[t][i].op = "barrier"}} : t \in Threads}
 WName(k, c) == "w." \o k \o "." \o c
 Works == {WName(k, c) : k \in Comps, c \in Crdps}
 WComp == [w \in Works |-> CHOOSE k \in Comps : \E c \in Crdps : WName(k, c) = w]
@@ -112,6 +112,7 @@ FlOf == [f \in Flushers |-> CHOOSE t \in Procs : FlId(t) = f]
 NoOp == [op |-> "none", n |-> "-", x |-> "-", f |-> 0, c |-> 0]
 Without(s, x) == SelectSeq(s, LAMBDA y : y # x)
 NoSnap == [p \in Procs |-> 0]
+HasCpuOps == \E o \in AllOps : o.op = "setcpu"
 FName(n) == IF n \in Works THEN "barrier_complete" ELSE IF Re[n] = "-" THEN "cb" ELSE "re"
 
 (* --algorithm callrcu {
@@ -125,6 +126,7 @@ variables
   fsleep = {},                              \* processes blocked in FUTEX_WAIT
   wloc = [t \in Procs |-> "-"],             \* ... and the futex word each of them sleeps on
   spur = Spurious,
+  wkind = [t \in Procs |-> "WAKE"],         \* how the FUTEX_WAIT of t ends: "WAKE", or "SPURIOUS" / "EINTR" (environment)
   \* plain data (under call_rcu_mutex, thread-private, or environment)
   crlist = <<>>,                            \* call_rcu_data_list, newest first (cds_list_add)
   nhelp = 0,                                \* call_rcu_data structures created so far
@@ -162,6 +164,7 @@ variables
   en = [t \in Procs |-> NULL],              \* _call_rcu: head
   ec = [t \in Procs |-> NULL],              \* _call_rcu: crdp
   wc = [t \in Procs |-> NULL],              \* wake_call_rcu_thread: crdp
+  res = [t \in Procs |-> "-"],             \* result of the current API call
   gd = [t \in Procs |-> NULL],              \* get_default_call_rcu_data: result
   fc = [t \in Procs |-> NULL],              \* _call_rcu_data_free: crdp
   dc = [t \in Procs |-> NULL],              \* _call_rcu_data_free: default_call_rcu_data
@@ -180,12 +183,14 @@ define {
   Rd(t, loc) == IF LastIdx(t, loc) = 0 THEN mem[loc] ELSE sb[t][LastIdx(t, loc)][2]
   Drained(t) == sb[t] = <<>>
   Ev(t, op, var, a, b, r) == IF Tracing THEN [k |-> acc.k + 1, t |-> t, op |-> op, var |-> var, a |-> a, b |-> b, r |-> r] ELSE acc
-  Dead(loc) == alive[LocObj[loc]] = "freed"
+  Dead(loc) == LocObj[loc] # "static" /\ alive[LocObj[loc]] = "freed"
   StillOpen(s) == \E p \in Procs : s[p] # 0 /\ cs[p] = s[p]
   Sleepers(loc) == {p \in fsleep : wloc[p] = loc}
 }
 
 macro Ld(dst, loc)    { dst := Rd(self, loc); uaf := uaf \/ Dead(loc); acc := Ev(self, "ld", loc, "-", "-", Rd(self, loc)); }
+\* load whose value is only used by the test that follows in the same step (no temporary kept: dead afterwards)
+macro Ldx(loc)        { uaf := uaf \/ Dead(loc); acc := Ev(self, "ld", loc, "-", "-", Rd(self, loc)); }
 macro St(loc, v)      { if (TSO) { await Len(sb[self]) < SBMax; sb[self] := Append(sb[self], <<loc, v>>) } else { mem[loc] := v };
                         uaf := uaf \/ Dead(loc); acc := Ev(self, "st", loc, v, "-", "-"); }
 \* plain store (no event): buffered like any store under TSO when model checking; the executed runtime commits a plain
@@ -194,7 +199,8 @@ macro PlainSt(loc, v) { if (TSO /\ ~Tracing) { await Len(sb[self]) < SBMax; sb[s
                         else { await Drained(self); mem[loc] := v };
                         uaf := uaf \/ Dead(loc); }
 macro Xchg(dst, loc, v) { await Drained(self); dst := mem[loc]; mem[loc] := v; uaf := uaf \/ Dead(loc); acc := Ev(self, "xchg", loc, v, "-", dst); }
-macro Rmw(opn, loc, a, new) { await Drained(self); mem[loc] := new; uaf := uaf \/ Dead(loc); acc := Ev(self, opn, loc, a, "-", new); }
+\* locked read-modify-write; `new` is evaluated in the state before the step (acc is assigned first)
+macro Rmw(opn, loc, a, new) { await Drained(self); acc := Ev(self, opn, loc, a, "-", new); uaf := uaf \/ Dead(loc); mem[loc] := new; }
 macro Mb()            { await Drained(self); acc := Ev(self, "mb", "-", "-", "-", "-"); }
 macro Lock()          { await Drained(self) /\ lock = "free"; lock := self; acc := Ev(self, "lock", CM, "-", "-", "-"); }
 macro Unlock()        { await Drained(self); lock := "free"; acc := Ev(self, "unlock", CM, "-", "-", "-"); }
@@ -214,11 +220,11 @@ gp_e:   await ~StillOpen(gps[self]);
 
 \* ------------------------------------------------------------------ wake_call_rcu_thread(wc) -> call_rcu_wake_up
 procedure wake() {
-wk_fl:  Ld(iv[self], FlagsOf(wc[self]));                         \* if (!(uatomic_load(&crdp->flags) & URCU_CALL_RCU_RT))
-        if (Has(iv[self], RT) \/ "nowake" \in Mut) { return };
+wk_fl:  Ldx(FlagsOf(wc[self]));                         \* if (!(uatomic_load(&crdp->flags) & URCU_CALL_RCU_RT))
+        if (Has(Rd(self, FlagsOf(wc[self])), RT) \/ "nowake" \in Mut) { return };
 wk_mb:  Mb();                                                    \* cmm_smp_mb(): write to call_rcu list before reading/writing futex
-wk_ld:  Ld(iv[self], FutexOf(wc[self]));                         \* if (uatomic_load(&crdp->futex) == -1)
-        if (iv[self] # -1) { return };
+wk_ld:  Ldx(FutexOf(wc[self]));                         \* if (uatomic_load(&crdp->futex) == -1)
+        if (Rd(self, FutexOf(wc[self])) # -1) { return };
 wk_st:  St(FutexOf(wc[self]), 0);                                \*   uatomic_store(&crdp->futex, 0)
 wk_fw:  FWake(FutexOf(wc[self]));                                \*   futex_async(&crdp->futex, FUTEX_WAKE, 1, ...)
         return;
@@ -229,22 +235,25 @@ procedure enqueue() {
 e_mb:   Mb();                                                    \* cds_wfcq_enqueue: cmm_emit_legacy_smp_mb()
 e_xchg: Xchg(old[self], TailOf(ec[self]), en[self]);             \* old_tail = uatomic_xchg(&tail->p, new_tail)
 e_link: St(NextOf(old[self]), en[self]);                         \* uatomic_store(&old_tail->next, new_head, RELEASE)
+        old[self] := NULL;
 e_qlen: Rmw("inc", QlenOf(ec[self]), 1, mem[QlenOf(ec[self])] + 1);   \* uatomic_inc(&crdp->qlen)
         wc[self] := ec[self];
         call wake();                                             \* wake_call_rcu_thread(crdp)
-e_ret:  return;
+        return;
 }
 
 \* ------------------------------------------------------------------ call_rcu_data_init(crdpp, cifl, -1)  (call_rcu_mutex held)
 procedure data_init() {
-ci_new: newc[self] := CName(nhelp + 1);                          \* malloc, memset, cds_wfcq_init, qlen = futex = 0, flags, cds_list_add
+ci_new: await nhelp < NHelp;                                     \* (scenario bound)
+        newc[self] := CName(nhelp + 1);                          \* malloc, memset, cds_wfcq_init, qlen = futex = 0, flags, cds_list_add
         nhelp := nhelp + 1;
-        if (nhelp >= NHelp + 1) { Fail("NHelp too small for this scenario") };
         alive[newc[self]] := "yes";
         crlist := <<newc[self]>> \o crlist;
         PlainSt(FlagsOf(newc[self]), cifl[self]);
 ci_pub: if (cidef[self]) { St("dflt", newc[self]) };             \* rcu_set_pointer(crdpp, crdp)
-ci_spawn: await Drained(self);                                   \* pthread_create(&crdp->tid, NULL, call_rcu_thread, crdp)
+ci_spawn: await Drained(self) \/ Tracing;                        \* pthread_create(&crdp->tid, NULL, call_rcu_thread, crdp): a system call, the creator's
+                                                                 \* stores are visible to the new thread (the VSCHED runtime does not drain at
+                                                                 \* pthread_create: accepted when validating recorded executions, see c03.py)
         started[HOf[newc[self]]] := TRUE;
         acc := Ev(self, "spawn", HOf[newc[self]], "-", "-", "-");
         return;
@@ -255,7 +264,7 @@ procedure get_default() {
 gd_ld:  Ld(gd[self], "dflt");                                    \* crdp = rcu_dereference(default_call_rcu_data)
         if (gd[self] # NULL) { return };
 gd_lock: Lock();                                                 \* call_rcu_lock(&call_rcu_mutex)
-gd_chk: if (Rd(self, "dflt") = NULL) {                           \* if (default_call_rcu_data == NULL)
+        if (Rd(self, "dflt") = NULL) {                           \* if (default_call_rcu_data == NULL)
           cidef[self] := TRUE; cifl[self] := 0;
           call data_init();                                      \*   call_rcu_data_init(&default_call_rcu_data, 0, -1)
         };
@@ -269,23 +278,27 @@ procedure call_rcu() {
 cr_lock: if ("norlock" \notin Mut) {                             \* _rcu_read_lock()
           if (rnest[self] = 0) { cs[self] := ncs[self] + 1; ncs[self] := ncs[self] + 1 };
           rnest[self] := rnest[self] + 1;
-          acc := Ev(self, "rlock", "-", "-", "-", rnest[self] + 1);
+          acc := Ev(self, "rlock", "-", "-", "-", rnest[self]);
         };
-        if (tcrd[self] # NULL) { ec[self] := tcrd[self]; goto cr_enq };   \* get_call_rcu_data(): thread_call_rcu_data
+        if (tcrd[self] # NULL) { ec[self] := tcrd[self]; goto cr_enq }   \* get_call_rcu_data(): thread_call_rcu_data
+        else if (~HasCpuOps) { goto cr_def };                    \* (cpus_array_len is never written in this scenario)
 cr_len: if (cpulen = 0) { goto cr_def };                         \* if (cpus_array_len > 0)          (plain read, no mutex)
-cr_pc:  Ld(pa[self], "pcpu");                                    \* pcpu_crdp = rcu_dereference(per_cpu_call_rcu_data)
-        if (pa[self] = NULL) { goto cr_def };
-cr_pcs: Ld(pa[self], PSlot(mycpu[self]));                        \* rcu_dereference(pcpu_crdp[urcu_sched_getcpu()])
-        if (pa[self] # NULL) { ec[self] := pa[self]; goto cr_enq };
+cr_pc:  Ldx("pcpu");                                    \* pcpu_crdp = rcu_dereference(per_cpu_call_rcu_data)
+        if (Rd(self, "pcpu") = NULL) { goto cr_def };
+cr_pcs: Ldx(PSlot(mycpu[self]));                        \* rcu_dereference(pcpu_crdp[urcu_sched_getcpu()])
+        if (Rd(self, PSlot(mycpu[self])) # NULL) { ec[self] := Rd(self, PSlot(mycpu[self])); goto cr_enq };
 cr_def: call get_default();                                      \* get_default_call_rcu_data()
-cr_got: ec[self] := gd[self];
+cr_got: ec[self] := gd[self]; en[self] := cn[self];
+        func[cn[self]] := FName(cn[self]);
+        call enqueue();
+        goto cr_unl;
 cr_enq: en[self] := cn[self];                                    \* cds_wfcq_node_init(&head->next); head->func = func
         func[cn[self]] := FName(cn[self]);
         call enqueue();
 cr_unl: if ("norlock" \notin Mut) {                              \* _rcu_read_unlock()
           rnest[self] := rnest[self] - 1;
-          if (rnest[self] = 1) { cs[self] := 0 };
-          acc := Ev(self, "runlock", "-", "-", "-", rnest[self] - 1);
+          if (rnest[self] = 0) { cs[self] := 0 };
+          acc := Ev(self, "runlock", "-", "-", "-", rnest[self]);
         };
         return;
 }
@@ -306,36 +319,38 @@ sc_unl: Unlock();
 \* ------------------------------------------------------------------ _call_rcu_data_free(fc, CRDF_FLAG_JOIN_THREAD)
 procedure data_free() {
 f_chk:  if (fc[self] = NULL \/ fc[self] = Rd(self, "dflt")) { return };   \* crdp == NULL || crdp == default_call_rcu_data (plain read, no mutex)
-f_ld:   Ld(iv[self], FlagsOf(fc[self]));                         \* if ((uatomic_load(&crdp->flags) & URCU_CALL_RCU_STOPPED) == 0)
-        if (Has(iv[self], STOPPED)) { goto f_lock };
+f_ld:   Ldx(FlagsOf(fc[self]));                         \* if ((uatomic_load(&crdp->flags) & URCU_CALL_RCU_STOPPED) == 0)
+        if (Has(Rd(self, FlagsOf(fc[self])), STOPPED)) { goto f_lock };
 f_or:   Rmw("or", FlagsOf(fc[self]), STOP, SetB(mem[FlagsOf(fc[self])], STOP));   \* uatomic_or(&crdp->flags, URCU_CALL_RCU_STOP)
         wc[self] := fc[self];
         call wake();                                             \* wake_call_rcu_thread(crdp)
-f_wait: Ld(iv[self], FlagsOf(fc[self]));                         \* while ((uatomic_load(&crdp->flags) & URCU_CALL_RCU_STOPPED) == 0) poll(NULL, 0, 1)
-        if (~Has(iv[self], STOPPED)) { goto f_wait };
+f_wait: Ldx(FlagsOf(fc[self]));                         \* while ((uatomic_load(&crdp->flags) & URCU_CALL_RCU_STOPPED) == 0) poll(NULL, 0, 1)
+        if (~Has(Rd(self, FlagsOf(fc[self])), STOPPED)) { goto f_wait };
 f_lock: Lock();                                                  \* call_rcu_lock(&call_rcu_mutex)
-f_e1:   Ld(pa[self], NextOf(Hd(fc[self])));                      \* if (!cds_wfcq_empty(&crdp->cbs_head, &crdp->cbs_tail))
-        if (pa[self] # NULL) { goto f_unl1 };
-f_e2:   Ld(pa[self], TailOf(fc[self]));
-        if (pa[self] = Hd(fc[self]) \/ "nohandover" \in Mut) { goto f_unl2 };
+f_e1:   Ldx(NextOf(Hd(fc[self])));                      \* if (!cds_wfcq_empty(&crdp->cbs_head, &crdp->cbs_tail))
+        if (Rd(self, NextOf(Hd(fc[self]))) # NULL) { if ("nohandover" \in Mut) { goto f_unl2 } else { goto f_unl1 } };
+f_e2:   Ldx(TailOf(fc[self]));
+        if (Rd(self, TailOf(fc[self])) = Hd(fc[self]) \/ "nohandover" \in Mut) { goto f_unl2 };
 f_unl1: Unlock();                                                \* call_rcu_unlock(&call_rcu_mutex)
         call get_default();                                      \* (void) get_default_call_rcu_data()
 f_lock2: Lock();                                                 \* call_rcu_lock(&call_rcu_mutex)
         dc[self] := Rd(self, "dflt");
-fs_e1:  Ld(pa[self], NextOf(Hd(fc[self])));                      \* __cds_wfcq_splice_blocking(default, crdp): _cds_wfcq_empty(src)
-        if (pa[self] # NULL) { goto fs_xh };
-fs_e2:  Ld(pa[self], TailOf(fc[self]));
-        if (pa[self] = Hd(fc[self])) { goto f_ldq };
+fs_e1:  Ldx(NextOf(Hd(fc[self])));                      \* __cds_wfcq_splice_blocking(default, crdp): _cds_wfcq_empty(src)
+        if (Rd(self, NextOf(Hd(fc[self]))) # NULL) { goto fs_xh };
+fs_e2:  Ldx(TailOf(fc[self]));
+        if (Rd(self, TailOf(fc[self])) = Hd(fc[self])) { goto f_ldq };
 fs_xh:  Xchg(hd[self], NextOf(Hd(fc[self])), NULL);              \* head = uatomic_xchg(&src_q_head->node.next, NULL)
         if (hd[self] # NULL) { goto fs_mb };
-fs_lt:  Ld(pa[self], TailOf(fc[self]));                          \* if (uatomic_load(&src_q_tail->p) == &src_q_head->node) return SRC_EMPTY
-        if (pa[self] = Hd(fc[self])) { goto f_ldq } else { goto fs_xh };
+fs_lt:  Ldx(TailOf(fc[self]));                          \* if (uatomic_load(&src_q_tail->p) == &src_q_head->node) return SRC_EMPTY
+        if (Rd(self, TailOf(fc[self])) = Hd(fc[self])) { goto f_ldq } else { goto fs_xh };
 fs_mb:  Mb();                                                    \* cmm_emit_legacy_smp_mb()
 fs_xt:  Xchg(tl[self], TailOf(fc[self]), Hd(fc[self]));          \* tail = uatomic_xchg(&src_q_tail->p, &src_q_head->node)
 fs_ax:  Xchg(old[self], TailOf(dc[self]), tl[self]);             \* ___cds_wfcq_append(dest, head, tail): xchg(&dest_tail->p, tail)
 fs_al:  St(NextOf(old[self]), hd[self]);                         \*   uatomic_store(&old_tail->next, head, RELEASE)
+        old[self] := NULL; hd[self] := NULL; tl[self] := NULL;
 f_ldq:  Ld(iv[self], QlenOf(fc[self]));                          \* uatomic_add(&default->qlen, uatomic_load(&crdp->qlen))
 f_add:  Rmw("add", QlenOf(dc[self]), iv[self], mem[QlenOf(dc[self])] + iv[self]);
+        iv[self] := 0;
         wc[self] := dc[self];
         call wake();                                             \* wake_call_rcu_thread(default_call_rcu_data)
 f_unl2: crlist := Without(crlist, fc[self]);                     \* cds_list_del(&crdp->list); call_rcu_unlock(&call_rcu_mutex)
@@ -351,14 +366,14 @@ f_free: if (alive[fc[self]] # "yes") { Fail("call_rcu_data freed twice") };   \*
 \* ------------------------------------------------------------------ _rcu_barrier_complete(&work->head), work = cur, completion = bk
 procedure barrier_complete() {
 bc_sub: Rmw("addret", CountOf(bk[self]), -1, mem[CountOf(bk[self])] - 1);   \* if (!uatomic_sub_return(&completion->barrier_count, 1))
-        if (mem[CountOf(bk[self])] - 1 # 0) { goto bc_put };
+        if (mem[CountOf(bk[self])] # 0) { goto bc_put };
 bc_mb:  Mb();                                                    \* call_rcu_completion_wake_up: cmm_smp_mb()
-bc_ld:  Ld(iv[self], FutexOf(bk[self]));                         \* if (uatomic_load(&completion->futex) == -1)
-        if (iv[self] # -1) { goto bc_put };
+bc_ld:  Ldx(FutexOf(bk[self]));                         \* if (uatomic_load(&completion->futex) == -1)
+        if (Rd(self, FutexOf(bk[self])) # -1) { goto bc_put };
 bc_st:  St(FutexOf(bk[self]), 0);                                \*   uatomic_store(&completion->futex, 0)
 bc_fw:  FWake(FutexOf(bk[self]));                                \*   futex_async(&completion->futex, FUTEX_WAKE, 1, ...)
 bc_put: Rmw("addret", RefOf(bk[self]), -1, mem[RefOf(bk[self])] - 1);   \* urcu_ref_put(&completion->ref, free_completion)
-        if (mem[RefOf(bk[self])] - 1 # 0 /\ "noref" \notin Mut) { goto bc_frw };
+        if (mem[RefOf(bk[self])] # 0 /\ "noref" \notin Mut) { goto bc_frw };
 bc_frk: if (alive[bk[self]] # "yes") { Fail("completion freed twice") };   \* free_completion(): free(completion)
         alive[bk[self]] := "freed";
         acc := Ev(self, "free", bk[self], "-", "-", "-");
@@ -370,7 +385,7 @@ bc_frw: alive[cur[self]] := "freed";                             \* free(work)
 \* ------------------------------------------------------------------ rcu_barrier()
 procedure barrier() {
 b_lock: if ("nomutex" \notin Mut) { Lock() };                    \* call_rcu_lock(&call_rcu_mutex)
-b_count: regs[self] := crlist;                                   \* cds_list_for_each_entry(crdp, &call_rcu_data_list, list) count++
+        regs[self] := crlist;                                    \* cds_list_for_each_entry(crdp, &call_rcu_data_list, list) count++
         kk[self] := 1;
 b_ref:  St(RefOf(bk[self]), Len(regs[self]) + 1);                \* urcu_ref_set(&completion->ref, count + 1)
 b_cnt:  PlainSt(CountOf(bk[self]), IF "earlycount" \in Mut THEN 0 ELSE Len(regs[self]));   \* completion->barrier_count = count
@@ -385,22 +400,22 @@ b_loop: while (kk[self] <= Len(regs[self])) {                    \* cds_list_for
 b_unl:  if ("nomutex" \notin Mut) { Unlock() };                  \* call_rcu_unlock(&call_rcu_mutex)
 b_dec:  Rmw("dec", FutexOf(bk[self]), 1, mem[FutexOf(bk[self])] - 1);   \* for (;;) { uatomic_dec(&completion->futex)
 b_mb:   Mb();                                                    \*   cmm_smp_mb(): decrement futex before reading barrier_count
-b_ldc:  Ld(iv[self], CountOf(bk[self]));                         \*   if (!uatomic_load(&completion->barrier_count)) break
-        if (iv[self] = 0) { goto b_put };
+b_ldc:  Ldx(CountOf(bk[self]));                         \*   if (!uatomic_load(&completion->barrier_count)) break
+        if (Rd(self, CountOf(bk[self])) = 0) { goto b_put };
 cw_mb:  Mb();                                                    \*   call_rcu_completion_wait(): cmm_smp_mb()
-cw_ld:  Ld(iv[self], FutexOf(bk[self]));                         \*   while (uatomic_load(&completion->futex) == -1)
-        if (iv[self] # -1) { goto b_dec };
+cw_ld:  Ldx(FutexOf(bk[self]));                         \*   while (uatomic_load(&completion->futex) == -1)
+        if (Rd(self, FutexOf(bk[self])) # -1) { goto b_dec };
 cw_fwait: await Drained(self);                                   \*     futex_async(&completion->futex, FUTEX_WAIT, -1, ...)
         uaf := uaf \/ Dead(FutexOf(bk[self]));
         if (mem[FutexOf(bk[self])] = -1) { fsleep := fsleep \cup {self}; wloc[self] := FutexOf(bk[self]);
                                            acc := Ev(self, "fwait", FutexOf(bk[self]), -1, "-", "SLEEP") }
         else { acc := Ev(self, "fwait", FutexOf(bk[self]), -1, "-", "EAGAIN"); goto b_dec };
-cw_fwoke: either { await self \notin fsleep; acc := Ev(self, "fwoke", FutexOf(bk[self]), "-", "-", "WAKE") }
-        or { await self \in fsleep /\ spur > 0; spur := spur - 1; fsleep := fsleep \ {self};
-             with (k \in {"SPURIOUS", "EINTR"}) { acc := Ev(self, "fwoke", FutexOf(bk[self]), "-", "-", k) } };
+cw_fwoke: await self \notin fsleep;                              \*     woken by FUTEX_WAKE, or spuriously / by a signal (process spurw)
+        acc := Ev(self, "fwoke", FutexOf(bk[self]), "-", "-", wkind[self]);
+        wkind[self] := "WAKE";
         goto cw_ld;
 b_put:  Rmw("addret", RefOf(bk[self]), -1, mem[RefOf(bk[self])] - 1);   \* urcu_ref_put(&completion->ref, free_completion)
-        if (mem[RefOf(bk[self])] - 1 # 0 /\ "noref" \notin Mut) { return };
+        if (mem[RefOf(bk[self])] # 0 /\ "noref" \notin Mut) { return };
 b_free: if (alive[bk[self]] # "yes") { Fail("completion freed twice") };   \* free(completion)
         alive[bk[self]] := "freed";
         acc := Ev(self, "free", bk[self], "-", "-", "-");
@@ -419,21 +434,21 @@ bf_or:  while (kk[self] <= Len(regs[self])) {                    \* cds_list_for
         };
 bf_w0:  kk[self] := 1;
 bf_wait: while (kk[self] <= Len(regs[self])) {                   \* while ((uatomic_load(&crdp->flags) & URCU_CALL_RCU_PAUSED) == 0) poll(NULL, 0, 1)
-          Ld(iv[self], FlagsOf(regs[self][kk[self]]));
-          if (Has(iv[self], PAUSED)) { kk[self] := kk[self] + 1 };
+          Ldx(FlagsOf(regs[self][kk[self]]));
+          if (Has(Rd(self, FlagsOf(regs[self][kk[self]])), PAUSED)) { kk[self] := kk[self] + 1 };
         };
         return;
 }
 procedure after_fork_parent() {
 af_0:   regs[self] := crlist; kk[self] := 1;
 af_and: while (kk[self] <= Len(regs[self])) {                    \* uatomic_and(&crdp->flags, ~URCU_CALL_RCU_PAUSE)
-          Rmw("and", FlagsOf(regs[self][kk[self]]), -(PAUSE + 1), ClrB(mem[FlagsOf(regs[self][kk[self]])], PAUSE));
+          Rmw("and", FlagsOf(regs[self][kk[self]]), "xffffffef", ClrB(mem[FlagsOf(regs[self][kk[self]])], PAUSE));
           kk[self] := kk[self] + 1;
         };
 af_w0:  kk[self] := 1;
 af_wait: while (kk[self] <= Len(regs[self])) {                   \* while ((uatomic_load(&crdp->flags) & URCU_CALL_RCU_PAUSED) != 0) poll(NULL, 0, 1)
-          Ld(iv[self], FlagsOf(regs[self][kk[self]]));
-          if (~Has(iv[self], PAUSED)) { kk[self] := kk[self] + 1 };
+          Ldx(FlagsOf(regs[self][kk[self]]));
+          if (~Has(Rd(self, FlagsOf(regs[self][kk[self]])), PAUSED)) { kk[self] := kk[self] + 1 };
         };
 af_unl: Unlock();                                                \* call_rcu_unlock(&call_rcu_mutex)
         return;
@@ -448,50 +463,48 @@ fl: while (TRUE) {
     }
 }
 
+\* environment: FUTEX_WAIT returns 0 although nobody called FUTEX_WAKE, or fails with EINTR (budget Spurious)
+process (spurw \in {"W:env"}) {
+sw: while (TRUE) {
+      await spur > 0;
+      with (p \in fsleep) { with (k \in {"SPURIOUS", "EINTR"}) {
+        fsleep := fsleep \ {p}; wkind[p] := k; spur := spur - 1 } };
+    }
+}
+
 \* ------------------------------------------------------------------ call_rcu_thread(crdp), crdp = CrOf[self]
 fair process (helper \in Helpers) {
 h_idle: await started[self];
-h_flags: Ld(iv[self], FlagsOf(CrOf[self]));                      \* rt = !!(uatomic_load(&crdp->flags) & URCU_CALL_RCU_RT)
-        isrt[self] := Has(iv[self], RT);                         \* rcu_register_thread(); URCU_TLS(thread_call_rcu_data) = crdp
+h_flags: Ldx(FlagsOf(CrOf[self]));                               \* rt = !!(uatomic_load(&crdp->flags) & URCU_CALL_RCU_RT)
+        isrt[self] := Has(Rd(self, FlagsOf(CrOf[self])), RT);   \* rcu_register_thread(); URCU_TLS(thread_call_rcu_data) = crdp
         tcrd[self] := CrOf[self];
-        if (Has(iv[self], RT)) { goto h_top };
+        if (Has(Rd(self, FlagsOf(CrOf[self])), RT)) { goto h_top };
 h_dec0: Rmw("dec", FutexOf(CrOf[self]), 1, mem[FutexOf(CrOf[self])] - 1);   \* uatomic_dec(&crdp->futex)
 h_mb0:  Mb();                                                    \* cmm_smp_mb(): decrement futex before reading call_rcu list
-h_top:  Ld(iv[self], FlagsOf(CrOf[self]));                       \* for (;;) { if (uatomic_load(&crdp->flags) & URCU_CALL_RCU_PAUSE)
-        if (~Has(iv[self], PAUSE)) { goto s_e1 };
+h_top:  Ldx(FlagsOf(CrOf[self]));                       \* for (;;) { if (uatomic_load(&crdp->flags) & URCU_CALL_RCU_PAUSE)
+        if (~Has(Rd(self, FlagsOf(CrOf[self])), PAUSE)) { goto s_e1 };
 p_or:   Rmw("or", FlagsOf(CrOf[self]), PAUSED, SetB(mem[FlagsOf(CrOf[self])], PAUSED));   \* rcu_unregister_thread(); uatomic_or(&crdp->flags, URCU_CALL_RCU_PAUSED)
-p_wait: Ld(iv[self], FlagsOf(CrOf[self]));                       \* while ((uatomic_load(&crdp->flags) & URCU_CALL_RCU_PAUSE) != 0) poll(NULL, 0, 1)
-        if (Has(iv[self], PAUSE)) { goto p_wait };
-p_and:  Rmw("and", FlagsOf(CrOf[self]), -(PAUSED + 1), ClrB(mem[FlagsOf(CrOf[self])], PAUSED));   \* uatomic_and(&crdp->flags, ~URCU_CALL_RCU_PAUSED); rcu_register_thread()
-s_e1:   Ld(pa[self], NextOf(Hd(CrOf[self])));                    \* __cds_wfcq_splice_blocking(&cbs_tmp, &crdp->cbs): _cds_wfcq_empty(src)
-        if (pa[self] # NULL) { goto s_xh };
-s_e2:   Ld(pa[self], TailOf(CrOf[self]));
-        if (pa[self] = Hd(CrOf[self])) { goto h_stop };
+p_wait: Ldx(FlagsOf(CrOf[self]));                       \* while ((uatomic_load(&crdp->flags) & URCU_CALL_RCU_PAUSE) != 0) poll(NULL, 0, 1)
+        if (Has(Rd(self, FlagsOf(CrOf[self])), PAUSE)) { goto p_wait };
+p_and:  Rmw("and", FlagsOf(CrOf[self]), "xffffffdf", ClrB(mem[FlagsOf(CrOf[self])], PAUSED));   \* uatomic_and(&crdp->flags, ~URCU_CALL_RCU_PAUSED); rcu_register_thread()
+s_e1:   Ldx(NextOf(Hd(CrOf[self])));                    \* __cds_wfcq_splice_blocking(&cbs_tmp, &crdp->cbs): _cds_wfcq_empty(src)
+        if (Rd(self, NextOf(Hd(CrOf[self]))) # NULL) { if ("gpfirst" \in Mut) { goto m_gp } else { goto s_xh } };
+s_e2:   Ldx(TailOf(CrOf[self]));
+        if (Rd(self, TailOf(CrOf[self])) = Hd(CrOf[self])) { goto h_stop }
+        else if ("gpfirst" \notin Mut) { goto s_xh };
+m_gp:   call synchronize_rcu();                                  \* (mutant "gpfirst" only: grace period BEFORE the splice)
 s_xh:   Xchg(hd[self], NextOf(Hd(CrOf[self])), NULL);            \* head = uatomic_xchg(&src_q_head->node.next, NULL)
         if (hd[self] # NULL) { goto s_mb };
-s_lt:   Ld(pa[self], TailOf(CrOf[self]));                        \* if (uatomic_load(&src_q_tail->p) == &src_q_head->node) return SRC_EMPTY
-        if (pa[self] = Hd(CrOf[self])) { goto h_stop } else { goto s_xh };
+s_lt:   Ldx(TailOf(CrOf[self]));                        \* if (uatomic_load(&src_q_tail->p) == &src_q_head->node) return SRC_EMPTY
+        if (Rd(self, TailOf(CrOf[self])) = Hd(CrOf[self])) { goto h_stop } else { goto s_xh };
 s_mb:   Mb();                                                    \* cmm_emit_legacy_smp_mb()
 s_xt:   Xchg(tl[self], TailOf(CrOf[self]), Hd(CrOf[self]));      \* tail = uatomic_xchg(&src_q_tail->p, &src_q_head->node); append to the private cbs_tmp
-        if ("nogp" \in Mut) { goto it_0 };
-h_gp:   call synchronize_rcu();                                  \* synchronize_rcu()
-it_0:   cur[self] := hd[self]; cbc[self] := 0;                   \* __cds_wfcq_for_each_blocking_safe(&cbs_tmp_head, &cbs_tmp_tail, cbs, cbs_tmp_n)
+        cur[self] := hd[self]; cbc[self] := 0;
+        if ("nogp" \in Mut \/ "gpfirst" \in Mut) { goto it_ld };
+h_gp:   call synchronize_rcu();                                  \* synchronize_rcu(); __cds_wfcq_for_each_blocking_safe(&cbs_tmp_head, &cbs_tmp_tail, cbs, cbs_tmp_n)
 it_ld:  Ld(nx[self], NextOf(cur[self]));                         \* ___cds_wfcq_next(cbs): next = uatomic_load(&node->next); tail->p == node ? NULL : sync_next
-        if (nx[self] = NULL /\ cur[self] # tl[self]) { goto it_ld };
-it_inv: if (cur[self] \in Works) {                               \* rhp->func(rhp)
-          if (func[cur[self]] # "barrier_complete") { Fail("RightArg") };
-          bk[self] := WComp[cur[self]];
-          call barrier_complete();
-        } else {
-          cnt[cur[self]] := cnt[cur[self]] + 1;
-          if (cnt[cur[self]] >= 1) { Fail("AtMostOnce") };
-          if (StillOpen(snap[cur[self]])) { Fail("AfterGP") };
-          if (func[cur[self]] # FName(cur[self])) { Fail("RightArg") };
-          acc := Ev(self, "cb", cur[self], func[cur[self]], "-", "-");
-          if (Re[cur[self]] = "-") { goto it_end };
-        };
-it_re:  if (cur[self] \in Works) { goto it_nxt };
-        cn[self] := Re[cur[self]];                               \* the callback passes another rcu_head to call_rcu()
+        if (nx[self] = NULL /\ cur[self] # tl[self]) { goto it_ld } else { goto it_inv };
+it_re:  cn[self] := Re[cur[self]];                               \* the callback passes another rcu_head to call_rcu()
         snap[Re[cur[self]]] := cs;
         acc := Ev(self, "call", Re[cur[self]], "call", "-", "-");
         call call_rcu();
@@ -499,34 +512,48 @@ it_rr:  queued := queued \cup {cn[self]};
         acc := Ev(self, "ret", "-", "-", "-", "-");
 it_end: fin := fin \cup {cur[self]};                             \* the callback returns
         acc := Ev(self, "cbend", cur[self], "-", "-", "-");
+        cbc[self] := cbc[self] + 1;                              \* cbcount++
+        cur[self] := nx[self];
+        if (nx[self] # NULL) { goto it_ld } else { goto h_sub };
+it_inv: if (cur[self] \in Works) {                               \* rhp->func(rhp)
+          if (func[cur[self]] # "barrier_complete") { Fail("RightArg") };
+          bk[self] := WComp[cur[self]];
+          call barrier_complete();
+        } else {
+          if (cnt[cur[self]] >= 1) { Fail("AtMostOnce") }
+          else if (StillOpen(snap[cur[self]])) { Fail("AfterGP") }
+          else if (func[cur[self]] # FName(cur[self])) { Fail("RightArg") };
+          cnt[cur[self]] := cnt[cur[self]] + 1;
+          acc := Ev(self, "cb", cur[self], func[cur[self]], "-", "-");
+          if (Re[cur[self]] = "-") { goto it_end } else { goto it_re };
+        };
 it_nxt: cbc[self] := cbc[self] + 1;                              \* cbcount++
         cur[self] := nx[self];
         if (nx[self] # NULL) { goto it_ld };
 h_sub:  Rmw("add", QlenOf(CrOf[self]), -cbc[self], mem[QlenOf(CrOf[self])] - cbc[self]);   \* uatomic_sub(&crdp->qlen, cbcount)
-h_stop: Ld(iv[self], FlagsOf(CrOf[self]));                       \* if (uatomic_load(&crdp->flags) & URCU_CALL_RCU_STOP) break
+h_stop: Ldx(FlagsOf(CrOf[self]));                       \* if (uatomic_load(&crdp->flags) & URCU_CALL_RCU_STOP) break
         hd[self] := NULL; tl[self] := NULL; cur[self] := NULL; nx[self] := NULL; cbc[self] := 0;
-        if (Has(iv[self], STOP)) { goto h_out };
-h_rt:   if (isrt[self]) { goto h_top };                          \* rcu_thread_offline(); if (!rt) ... else poll(NULL, 0, 10); rcu_thread_online()
-h_e1:   Ld(pa[self], NextOf(Hd(CrOf[self])));                    \* if (cds_wfcq_empty(&crdp->cbs_head, &crdp->cbs_tail))
-        if (pa[self] # NULL) { goto h_top };                     \* else poll(NULL, 0, 10)
-h_e2:   Ld(pa[self], TailOf(CrOf[self]));
-        if (pa[self] # Hd(CrOf[self])) { goto h_top };
+        if (Has(Rd(self, FlagsOf(CrOf[self])), STOP)) { if (isrt[self]) { goto o_or } else { goto o_mb } }
+        else if (isrt[self]) { goto h_top };                     \* rcu_thread_offline(); if (!rt) ... else poll(NULL, 0, 10); rcu_thread_online()
+h_e1:   Ldx(NextOf(Hd(CrOf[self])));                    \* if (cds_wfcq_empty(&crdp->cbs_head, &crdp->cbs_tail))
+        if (Rd(self, NextOf(Hd(CrOf[self]))) # NULL) { goto h_top };                     \* else poll(NULL, 0, 10)
+h_e2:   Ldx(TailOf(CrOf[self]));
+        if (Rd(self, TailOf(CrOf[self])) # Hd(CrOf[self])) { goto h_top };
 w_mb:   Mb();                                                    \* call_rcu_wait(crdp): cmm_smp_mb(): read call_rcu list before read futex
-w_ld:   Ld(iv[self], FutexOf(CrOf[self]));                       \* while (uatomic_load(&crdp->futex) == -1)
-        if (iv[self] # -1) { goto w_dec };
+w_ld:   Ldx(FutexOf(CrOf[self]));                       \* while (uatomic_load(&crdp->futex) == -1)
+        if (Rd(self, FutexOf(CrOf[self])) # -1) { goto w_dec };
 w_fwait: await Drained(self);                                    \*   futex_async(&crdp->futex, FUTEX_WAIT, -1, ...)
         uaf := uaf \/ Dead(FutexOf(CrOf[self]));
         if (mem[FutexOf(CrOf[self])] = -1) { fsleep := fsleep \cup {self}; wloc[self] := FutexOf(CrOf[self]);
                                              acc := Ev(self, "fwait", FutexOf(CrOf[self]), -1, "-", "SLEEP") }
         else { acc := Ev(self, "fwait", FutexOf(CrOf[self]), -1, "-", "EAGAIN"); goto w_dec };   \* EAGAIN: value already changed
-w_fwoke: either { await self \notin fsleep; acc := Ev(self, "fwoke", FutexOf(CrOf[self]), "-", "-", "WAKE") }
-        or { await self \in fsleep /\ spur > 0; spur := spur - 1; fsleep := fsleep \ {self};
-             with (k \in {"SPURIOUS", "EINTR"}) { acc := Ev(self, "fwoke", FutexOf(CrOf[self]), "-", "-", k) } };
+w_fwoke: await self \notin fsleep;                               \*   woken by FUTEX_WAKE, or spuriously / by a signal (process spurw)
+        acc := Ev(self, "fwoke", FutexOf(CrOf[self]), "-", "-", wkind[self]);
+        wkind[self] := "WAKE";
         goto w_ld;                                               \* 0 / EINTR: check the value again
 w_dec:  Rmw("dec", FutexOf(CrOf[self]), 1, mem[FutexOf(CrOf[self])] - 1);   \* (poll(NULL, 0, 10)) uatomic_dec(&crdp->futex)
 w_mb2:  Mb();                                                    \* cmm_smp_mb(): decrement futex before reading call_rcu list
         goto h_top;
-h_out:  if (isrt[self]) { goto o_or };
 o_mb:   Mb();                                                    \* cmm_smp_mb(): read call_rcu list before write futex
 o_st:   St(FutexOf(CrOf[self]), 0);                              \* uatomic_store(&crdp->futex, 0)
 o_or:   Rmw("or", FlagsOf(CrOf[self]), STOPPED, SetB(mem[FlagsOf(CrOf[self])], STOPPED));   \* uatomic_or(&crdp->flags, URCU_CALL_RCU_STOPPED)
@@ -541,12 +568,12 @@ t_top:  while (pci[self] <= Len(Prog[self])) {
           if (opx[self].op = "rlock") {
             if (rnest[self] = 0) { cs[self] := ncs[self] + 1; ncs[self] := ncs[self] + 1 };
             rnest[self] := rnest[self] + 1; pci[self] := pci[self] + 1;
-            acc := Ev(self, "rlock", "-", "-", "-", rnest[self] + 1);
+            acc := Ev(self, "rlock", "-", "-", "-", rnest[self]);
             goto t_top
           } else if (opx[self].op = "runlock") {
             rnest[self] := rnest[self] - 1; pci[self] := pci[self] + 1;
-            if (rnest[self] = 1) { cs[self] := 0 };
-            acc := Ev(self, "runlock", "-", "-", "-", rnest[self] - 1);
+            if (rnest[self] = 0) { cs[self] := 0 };
+            acc := Ev(self, "runlock", "-", "-", "-", rnest[self]);
             goto t_top
           } else if (opx[self].op = "cpu") {
             mycpu[self] := opx[self].c; pci[self] := pci[self] + 1;
@@ -561,17 +588,17 @@ t_top:  while (pci[self] <= Len(Prog[self])) {
             res[self] := "-";
             acc := Ev(self, "call", IF opx[self].op = "call" THEN opx[self].n ELSE IF opx[self].op \in {"free", "setcpu", "setthr"} /\ opx[self].x # NULL THEN slot[opx[self].x] ELSE "-",
                       opx[self].op, "-", "-");
+            if (opx[self].op = "call") { call call_rcu() }
+            else if (opx[self].op = "sync") { call synchronize_rcu() }
+            else if (opx[self].op = "getdef") { call get_default() }
+            else if (opx[self].op = "create") { goto t_crl }
+            else if (opx[self].op = "setthr") { tcrd[self] := IF opx[self].x = NULL THEN NULL ELSE slot[opx[self].x]; goto t_ret }
+            else if (opx[self].op = "setcpu") { call set_cpu() }
+            else if (opx[self].op = "free") { call data_free() }
+            else if (opx[self].op = "barrier") { call barrier() }
+            else if (opx[self].op = "pause") { call before_fork() }
+            else { call after_fork_parent() };
           };
-t_disp:   if (opx[self].op = "call") { call call_rcu() }
-          else if (opx[self].op = "sync") { call synchronize_rcu() }
-          else if (opx[self].op = "getdef") { call get_default() }
-          else if (opx[self].op = "create") { goto t_crl }
-          else if (opx[self].op = "setthr") { tcrd[self] := IF opx[self].x = NULL THEN NULL ELSE slot[opx[self].x] }
-          else if (opx[self].op = "setcpu") { call set_cpu() }
-          else if (opx[self].op = "free") { call data_free() }
-          else if (opx[self].op = "barrier") { call barrier() }
-          else if (opx[self].op = "pause") { call before_fork() }
-          else { call after_fork_parent() };
 t_ret:    if (opx[self].op = "call") { queued := queued \cup {opx[self].n} }
           else if (opx[self].op = "barrier") {
             if (bsnap[self] \ fin # {}) { Fail("BarrierComplete") } };
@@ -589,6 +616,2245 @@ t_exit: await Drained(self);
 }
 } *)
 \* BEGIN TRANSLATION
+VARIABLES pc, mem, sb, lock, acc, fsleep, wloc, spur, wkind, crlist, nhelp, 
+          started, cpulen, tcrd, mycpu, slot, func, rnest, cs, ncs, cnt, snap, 
+          queued, fin, bsnap, alive, uaf, errs, pci, opx, iv, pa, hd, tl, old, 
+          cur, nx, cbc, isrt, en, ec, wc, res, gd, fc, dc, newc, cidef, cifl, 
+          cn, bk, regs, kk, gps, stack
+
+(* define statement *)
+LastIdx(t, loc) == LET S == {i \in DOMAIN sb[t] : sb[t][i][1] = loc} IN
+                   IF S = {} THEN 0 ELSE CHOOSE i \in S : \A j \in S : j <= i
+Rd(t, loc) == IF LastIdx(t, loc) = 0 THEN mem[loc] ELSE sb[t][LastIdx(t, loc)][2]
+Drained(t) == sb[t] = <<>>
+Ev(t, op, var, a, b, r) == IF Tracing THEN [k |-> acc.k + 1, t |-> t, op |-> op, var |-> var, a |-> a, b |-> b, r |-> r] ELSE acc
+Dead(loc) == LocObj[loc] # "static" /\ alive[LocObj[loc]] = "freed"
+StillOpen(s) == \E p \in Procs : s[p] # 0 /\ cs[p] = s[p]
+Sleepers(loc) == {p \in fsleep : wloc[p] = loc}
+
+
+vars == << pc, mem, sb, lock, acc, fsleep, wloc, spur, wkind, crlist, nhelp, 
+           started, cpulen, tcrd, mycpu, slot, func, rnest, cs, ncs, cnt, 
+           snap, queued, fin, bsnap, alive, uaf, errs, pci, opx, iv, pa, hd, 
+           tl, old, cur, nx, cbc, isrt, en, ec, wc, res, gd, fc, dc, newc, 
+           cidef, cifl, cn, bk, regs, kk, gps, stack >>
+
+ProcSet == (Flushers) \cup ({"W:env"}) \cup (Helpers) \cup (Threads)
+
+Init == (* Global variables *)
+        /\ mem = [l \in Locs |-> IF l \in IntLocs THEN 0
+                                 ELSE IF \E c \in Crdps : l = TailOf(c) THEN Hd(CHOOSE c \in Crdps : l = TailOf(c))
+                                 ELSE NULL]
+        /\ sb = [t \in Procs |-> <<>>]
+        /\ lock = "free"
+        /\ acc = [k |-> 0]
+        /\ fsleep = {}
+        /\ wloc = [t \in Procs |-> "-"]
+        /\ spur = Spurious
+        /\ wkind = [t \in Procs |-> "WAKE"]
+        /\ crlist = <<>>
+        /\ nhelp = 0
+        /\ started = [h \in Helpers |-> FALSE]
+        /\ cpulen = 0
+        /\ tcrd = [t \in Procs |-> NULL]
+        /\ mycpu = [t \in Procs |-> 0]
+        /\ slot = [s \in Slots |-> NULL]
+        /\ func = [n \in Nodes \cup Works |-> "-"]
+        /\ rnest = [t \in Procs |-> 0]
+        /\ cs = [t \in Procs |-> 0]
+        /\ ncs = [t \in Procs |-> 0]
+        /\ cnt = [n \in Nodes |-> 0]
+        /\ snap = [n \in Nodes |-> NoSnap]
+        /\ queued = {}
+        /\ fin = {}
+        /\ bsnap = [t \in Threads |-> {}]
+        /\ alive = [o \in Objs |-> "no"]
+        /\ uaf = FALSE
+        /\ errs = {}
+        /\ pci = [t \in Threads |-> 1]
+        /\ opx = [t \in Threads |-> NoOp]
+        /\ iv = [t \in Procs |-> 0]
+        /\ pa = [t \in Procs |-> NULL]
+        /\ hd = [t \in Procs |-> NULL]
+        /\ tl = [t \in Procs |-> NULL]
+        /\ old = [t \in Procs |-> NULL]
+        /\ cur = [t \in Procs |-> NULL]
+        /\ nx = [t \in Procs |-> NULL]
+        /\ cbc = [t \in Procs |-> 0]
+        /\ isrt = [t \in Procs |-> FALSE]
+        /\ en = [t \in Procs |-> NULL]
+        /\ ec = [t \in Procs |-> NULL]
+        /\ wc = [t \in Procs |-> NULL]
+        /\ res = [t \in Procs |-> "-"]
+        /\ gd = [t \in Procs |-> NULL]
+        /\ fc = [t \in Procs |-> NULL]
+        /\ dc = [t \in Procs |-> NULL]
+        /\ newc = [t \in Procs |-> NULL]
+        /\ cidef = [t \in Procs |-> FALSE]
+        /\ cifl = [t \in Procs |-> 0]
+        /\ cn = [t \in Procs |-> NULL]
+        /\ bk = [t \in Procs |-> NULL]
+        /\ regs = [t \in Procs |-> <<>>]
+        /\ kk = [t \in Procs |-> 1]
+        /\ gps = [t \in Procs |-> NoSnap]
+        /\ stack = [self \in ProcSet |-> << >>]
+        /\ pc = [self \in ProcSet |-> CASE self \in Flushers -> "fl"
+                                        [] self \in {"W:env"} -> "sw"
+                                        [] self \in Helpers -> "h_idle"
+                                        [] self \in Threads -> "t_top"]
+
+gp_b(self) == /\ pc[self] = "gp_b"
+              /\ Drained(self)
+              /\ gps' = [gps EXCEPT ![self] = [p \in Procs |-> IF p = self THEN 0 ELSE cs[p]]]
+              /\ acc' = Ev(self, "gp_begin", "-", "-", "-", "-")
+              /\ pc' = [pc EXCEPT ![self] = "gp_e"]
+              /\ UNCHANGED << mem, sb, lock, fsleep, wloc, spur, wkind, crlist, 
+                              nhelp, started, cpulen, tcrd, mycpu, slot, func, 
+                              rnest, cs, ncs, cnt, snap, queued, fin, bsnap, 
+                              alive, uaf, errs, pci, opx, iv, pa, hd, tl, old, 
+                              cur, nx, cbc, isrt, en, ec, wc, res, gd, fc, dc, 
+                              newc, cidef, cifl, cn, bk, regs, kk, stack >>
+
+gp_e(self) == /\ pc[self] = "gp_e"
+              /\ ~StillOpen(gps[self])
+              /\ acc' = Ev(self, "gp_end", "-", "-", "-", "-")
+              /\ pc' = [pc EXCEPT ![self] = Head(stack[self]).pc]
+              /\ stack' = [stack EXCEPT ![self] = Tail(stack[self])]
+              /\ UNCHANGED << mem, sb, lock, fsleep, wloc, spur, wkind, crlist, 
+                              nhelp, started, cpulen, tcrd, mycpu, slot, func, 
+                              rnest, cs, ncs, cnt, snap, queued, fin, bsnap, 
+                              alive, uaf, errs, pci, opx, iv, pa, hd, tl, old, 
+                              cur, nx, cbc, isrt, en, ec, wc, res, gd, fc, dc, 
+                              newc, cidef, cifl, cn, bk, regs, kk, gps >>
+
+synchronize_rcu(self) == gp_b(self) \/ gp_e(self)
+
+wk_fl(self) == /\ pc[self] = "wk_fl"
+               /\ uaf' = (uaf \/ Dead((FlagsOf(wc[self]))))
+               /\ acc' = Ev(self, "ld", (FlagsOf(wc[self])), "-", "-", Rd(self, (FlagsOf(wc[self]))))
+               /\ IF Has(Rd(self, FlagsOf(wc[self])), RT) \/ "nowake" \in Mut
+                     THEN /\ pc' = [pc EXCEPT ![self] = Head(stack[self]).pc]
+                          /\ stack' = [stack EXCEPT ![self] = Tail(stack[self])]
+                     ELSE /\ pc' = [pc EXCEPT ![self] = "wk_mb"]
+                          /\ stack' = stack
+               /\ UNCHANGED << mem, sb, lock, fsleep, wloc, spur, wkind, 
+                               crlist, nhelp, started, cpulen, tcrd, mycpu, 
+                               slot, func, rnest, cs, ncs, cnt, snap, queued, 
+                               fin, bsnap, alive, errs, pci, opx, iv, pa, hd, 
+                               tl, old, cur, nx, cbc, isrt, en, ec, wc, res, 
+                               gd, fc, dc, newc, cidef, cifl, cn, bk, regs, kk, 
+                               gps >>
+
+wk_mb(self) == /\ pc[self] = "wk_mb"
+               /\ Drained(self)
+               /\ acc' = Ev(self, "mb", "-", "-", "-", "-")
+               /\ pc' = [pc EXCEPT ![self] = "wk_ld"]
+               /\ UNCHANGED << mem, sb, lock, fsleep, wloc, spur, wkind, 
+                               crlist, nhelp, started, cpulen, tcrd, mycpu, 
+                               slot, func, rnest, cs, ncs, cnt, snap, queued, 
+                               fin, bsnap, alive, uaf, errs, pci, opx, iv, pa, 
+                               hd, tl, old, cur, nx, cbc, isrt, en, ec, wc, 
+                               res, gd, fc, dc, newc, cidef, cifl, cn, bk, 
+                               regs, kk, gps, stack >>
+
+wk_ld(self) == /\ pc[self] = "wk_ld"
+               /\ uaf' = (uaf \/ Dead((FutexOf(wc[self]))))
+               /\ acc' = Ev(self, "ld", (FutexOf(wc[self])), "-", "-", Rd(self, (FutexOf(wc[self]))))
+               /\ IF Rd(self, FutexOf(wc[self])) # -1
+                     THEN /\ pc' = [pc EXCEPT ![self] = Head(stack[self]).pc]
+                          /\ stack' = [stack EXCEPT ![self] = Tail(stack[self])]
+                     ELSE /\ pc' = [pc EXCEPT ![self] = "wk_st"]
+                          /\ stack' = stack
+               /\ UNCHANGED << mem, sb, lock, fsleep, wloc, spur, wkind, 
+                               crlist, nhelp, started, cpulen, tcrd, mycpu, 
+                               slot, func, rnest, cs, ncs, cnt, snap, queued, 
+                               fin, bsnap, alive, errs, pci, opx, iv, pa, hd, 
+                               tl, old, cur, nx, cbc, isrt, en, ec, wc, res, 
+                               gd, fc, dc, newc, cidef, cifl, cn, bk, regs, kk, 
+                               gps >>
+
+wk_st(self) == /\ pc[self] = "wk_st"
+               /\ IF TSO
+                     THEN /\ Len(sb[self]) < SBMax
+                          /\ sb' = [sb EXCEPT ![self] = Append(sb[self], <<(FutexOf(wc[self])), 0>>)]
+                          /\ mem' = mem
+                     ELSE /\ mem' = [mem EXCEPT ![(FutexOf(wc[self]))] = 0]
+                          /\ sb' = sb
+               /\ uaf' = (uaf \/ Dead((FutexOf(wc[self]))))
+               /\ acc' = Ev(self, "st", (FutexOf(wc[self])), 0, "-", "-")
+               /\ pc' = [pc EXCEPT ![self] = "wk_fw"]
+               /\ UNCHANGED << lock, fsleep, wloc, spur, wkind, crlist, nhelp, 
+                               started, cpulen, tcrd, mycpu, slot, func, rnest, 
+                               cs, ncs, cnt, snap, queued, fin, bsnap, alive, 
+                               errs, pci, opx, iv, pa, hd, tl, old, cur, nx, 
+                               cbc, isrt, en, ec, wc, res, gd, fc, dc, newc, 
+                               cidef, cifl, cn, bk, regs, kk, gps, stack >>
+
+wk_fw(self) == /\ pc[self] = "wk_fw"
+               /\ Drained(self)
+               /\ uaf' = (uaf \/ Dead((FutexOf(wc[self]))))
+               /\ acc' = Ev(self, "fwake", (FutexOf(wc[self])), "-", "-", Cardinality(Sleepers((FutexOf(wc[self])))))
+               /\ fsleep' = fsleep \ Sleepers((FutexOf(wc[self])))
+               /\ pc' = [pc EXCEPT ![self] = Head(stack[self]).pc]
+               /\ stack' = [stack EXCEPT ![self] = Tail(stack[self])]
+               /\ UNCHANGED << mem, sb, lock, wloc, spur, wkind, crlist, nhelp, 
+                               started, cpulen, tcrd, mycpu, slot, func, rnest, 
+                               cs, ncs, cnt, snap, queued, fin, bsnap, alive, 
+                               errs, pci, opx, iv, pa, hd, tl, old, cur, nx, 
+                               cbc, isrt, en, ec, wc, res, gd, fc, dc, newc, 
+                               cidef, cifl, cn, bk, regs, kk, gps >>
+
+wake(self) == wk_fl(self) \/ wk_mb(self) \/ wk_ld(self) \/ wk_st(self)
+                 \/ wk_fw(self)
+
+e_mb(self) == /\ pc[self] = "e_mb"
+              /\ Drained(self)
+              /\ acc' = Ev(self, "mb", "-", "-", "-", "-")
+              /\ pc' = [pc EXCEPT ![self] = "e_xchg"]
+              /\ UNCHANGED << mem, sb, lock, fsleep, wloc, spur, wkind, crlist, 
+                              nhelp, started, cpulen, tcrd, mycpu, slot, func, 
+                              rnest, cs, ncs, cnt, snap, queued, fin, bsnap, 
+                              alive, uaf, errs, pci, opx, iv, pa, hd, tl, old, 
+                              cur, nx, cbc, isrt, en, ec, wc, res, gd, fc, dc, 
+                              newc, cidef, cifl, cn, bk, regs, kk, gps, stack >>
+
+e_xchg(self) == /\ pc[self] = "e_xchg"
+                /\ Drained(self)
+                /\ old' = [old EXCEPT ![self] = mem[(TailOf(ec[self]))]]
+                /\ mem' = [mem EXCEPT ![(TailOf(ec[self]))] = en[self]]
+                /\ uaf' = (uaf \/ Dead((TailOf(ec[self]))))
+                /\ acc' = Ev(self, "xchg", (TailOf(ec[self])), (en[self]), "-", (old'[self]))
+                /\ pc' = [pc EXCEPT ![self] = "e_link"]
+                /\ UNCHANGED << sb, lock, fsleep, wloc, spur, wkind, crlist, 
+                                nhelp, started, cpulen, tcrd, mycpu, slot, 
+                                func, rnest, cs, ncs, cnt, snap, queued, fin, 
+                                bsnap, alive, errs, pci, opx, iv, pa, hd, tl, 
+                                cur, nx, cbc, isrt, en, ec, wc, res, gd, fc, 
+                                dc, newc, cidef, cifl, cn, bk, regs, kk, gps, 
+                                stack >>
+
+e_link(self) == /\ pc[self] = "e_link"
+                /\ IF TSO
+                      THEN /\ Len(sb[self]) < SBMax
+                           /\ sb' = [sb EXCEPT ![self] = Append(sb[self], <<(NextOf(old[self])), (en[self])>>)]
+                           /\ mem' = mem
+                      ELSE /\ mem' = [mem EXCEPT ![(NextOf(old[self]))] = en[self]]
+                           /\ sb' = sb
+                /\ uaf' = (uaf \/ Dead((NextOf(old[self]))))
+                /\ acc' = Ev(self, "st", (NextOf(old[self])), (en[self]), "-", "-")
+                /\ old' = [old EXCEPT ![self] = NULL]
+                /\ pc' = [pc EXCEPT ![self] = "e_qlen"]
+                /\ UNCHANGED << lock, fsleep, wloc, spur, wkind, crlist, nhelp, 
+                                started, cpulen, tcrd, mycpu, slot, func, 
+                                rnest, cs, ncs, cnt, snap, queued, fin, bsnap, 
+                                alive, errs, pci, opx, iv, pa, hd, tl, cur, nx, 
+                                cbc, isrt, en, ec, wc, res, gd, fc, dc, newc, 
+                                cidef, cifl, cn, bk, regs, kk, gps, stack >>
+
+e_qlen(self) == /\ pc[self] = "e_qlen"
+                /\ Drained(self)
+                /\ acc' = Ev(self, "inc", (QlenOf(ec[self])), 1, "-", (mem[QlenOf(ec[self])] + 1))
+                /\ uaf' = (uaf \/ Dead((QlenOf(ec[self]))))
+                /\ mem' = [mem EXCEPT ![(QlenOf(ec[self]))] = mem[QlenOf(ec[self])] + 1]
+                /\ wc' = [wc EXCEPT ![self] = ec[self]]
+                /\ stack' = [stack EXCEPT ![self] = << [ procedure |->  "wake",
+                                                         pc        |->  Head(stack[self]).pc ] >>
+                                                     \o Tail(stack[self])]
+                /\ pc' = [pc EXCEPT ![self] = "wk_fl"]
+                /\ UNCHANGED << sb, lock, fsleep, wloc, spur, wkind, crlist, 
+                                nhelp, started, cpulen, tcrd, mycpu, slot, 
+                                func, rnest, cs, ncs, cnt, snap, queued, fin, 
+                                bsnap, alive, errs, pci, opx, iv, pa, hd, tl, 
+                                old, cur, nx, cbc, isrt, en, ec, res, gd, fc, 
+                                dc, newc, cidef, cifl, cn, bk, regs, kk, gps >>
+
+enqueue(self) == e_mb(self) \/ e_xchg(self) \/ e_link(self) \/ e_qlen(self)
+
+ci_new(self) == /\ pc[self] = "ci_new"
+                /\ nhelp < NHelp
+                /\ newc' = [newc EXCEPT ![self] = CName(nhelp + 1)]
+                /\ nhelp' = nhelp + 1
+                /\ alive' = [alive EXCEPT ![newc'[self]] = "yes"]
+                /\ crlist' = <<newc'[self]>> \o crlist
+                /\ IF TSO /\ ~Tracing
+                      THEN /\ Len(sb[self]) < SBMax
+                           /\ sb' = [sb EXCEPT ![self] = Append(sb[self], <<(FlagsOf(newc'[self])), (cifl[self])>>)]
+                           /\ mem' = mem
+                      ELSE /\ Drained(self)
+                           /\ mem' = [mem EXCEPT ![(FlagsOf(newc'[self]))] = cifl[self]]
+                           /\ sb' = sb
+                /\ uaf' = (uaf \/ Dead((FlagsOf(newc'[self]))))
+                /\ pc' = [pc EXCEPT ![self] = "ci_pub"]
+                /\ UNCHANGED << lock, acc, fsleep, wloc, spur, wkind, started, 
+                                cpulen, tcrd, mycpu, slot, func, rnest, cs, 
+                                ncs, cnt, snap, queued, fin, bsnap, errs, pci, 
+                                opx, iv, pa, hd, tl, old, cur, nx, cbc, isrt, 
+                                en, ec, wc, res, gd, fc, dc, cidef, cifl, cn, 
+                                bk, regs, kk, gps, stack >>
+
+ci_pub(self) == /\ pc[self] = "ci_pub"
+                /\ IF cidef[self]
+                      THEN /\ IF TSO
+                                 THEN /\ Len(sb[self]) < SBMax
+                                      /\ sb' = [sb EXCEPT ![self] = Append(sb[self], <<"dflt", (newc[self])>>)]
+                                      /\ mem' = mem
+                                 ELSE /\ mem' = [mem EXCEPT !["dflt"] = newc[self]]
+                                      /\ sb' = sb
+                           /\ uaf' = (uaf \/ Dead("dflt"))
+                           /\ acc' = Ev(self, "st", "dflt", (newc[self]), "-", "-")
+                      ELSE /\ TRUE
+                           /\ UNCHANGED << mem, sb, acc, uaf >>
+                /\ pc' = [pc EXCEPT ![self] = "ci_spawn"]
+                /\ UNCHANGED << lock, fsleep, wloc, spur, wkind, crlist, nhelp, 
+                                started, cpulen, tcrd, mycpu, slot, func, 
+                                rnest, cs, ncs, cnt, snap, queued, fin, bsnap, 
+                                alive, errs, pci, opx, iv, pa, hd, tl, old, 
+                                cur, nx, cbc, isrt, en, ec, wc, res, gd, fc, 
+                                dc, newc, cidef, cifl, cn, bk, regs, kk, gps, 
+                                stack >>
+
+ci_spawn(self) == /\ pc[self] = "ci_spawn"
+                  /\ Drained(self) \/ Tracing
+                  /\ started' = [started EXCEPT ![HOf[newc[self]]] = TRUE]
+                  /\ acc' = Ev(self, "spawn", HOf[newc[self]], "-", "-", "-")
+                  /\ pc' = [pc EXCEPT ![self] = Head(stack[self]).pc]
+                  /\ stack' = [stack EXCEPT ![self] = Tail(stack[self])]
+                  /\ UNCHANGED << mem, sb, lock, fsleep, wloc, spur, wkind, 
+                                  crlist, nhelp, cpulen, tcrd, mycpu, slot, 
+                                  func, rnest, cs, ncs, cnt, snap, queued, fin, 
+                                  bsnap, alive, uaf, errs, pci, opx, iv, pa, 
+                                  hd, tl, old, cur, nx, cbc, isrt, en, ec, wc, 
+                                  res, gd, fc, dc, newc, cidef, cifl, cn, bk, 
+                                  regs, kk, gps >>
+
+data_init(self) == ci_new(self) \/ ci_pub(self) \/ ci_spawn(self)
+
+gd_ld(self) == /\ pc[self] = "gd_ld"
+               /\ gd' = [gd EXCEPT ![self] = Rd(self, "dflt")]
+               /\ uaf' = (uaf \/ Dead("dflt"))
+               /\ acc' = Ev(self, "ld", "dflt", "-", "-", Rd(self, "dflt"))
+               /\ IF gd'[self] # NULL
+                     THEN /\ pc' = [pc EXCEPT ![self] = Head(stack[self]).pc]
+                          /\ stack' = [stack EXCEPT ![self] = Tail(stack[self])]
+                     ELSE /\ pc' = [pc EXCEPT ![self] = "gd_lock"]
+                          /\ stack' = stack
+               /\ UNCHANGED << mem, sb, lock, fsleep, wloc, spur, wkind, 
+                               crlist, nhelp, started, cpulen, tcrd, mycpu, 
+                               slot, func, rnest, cs, ncs, cnt, snap, queued, 
+                               fin, bsnap, alive, errs, pci, opx, iv, pa, hd, 
+                               tl, old, cur, nx, cbc, isrt, en, ec, wc, res, 
+                               fc, dc, newc, cidef, cifl, cn, bk, regs, kk, 
+                               gps >>
+
+gd_lock(self) == /\ pc[self] = "gd_lock"
+                 /\ Drained(self) /\ lock = "free"
+                 /\ lock' = self
+                 /\ acc' = Ev(self, "lock", CM, "-", "-", "-")
+                 /\ IF Rd(self, "dflt") = NULL
+                       THEN /\ cidef' = [cidef EXCEPT ![self] = TRUE]
+                            /\ cifl' = [cifl EXCEPT ![self] = 0]
+                            /\ stack' = [stack EXCEPT ![self] = << [ procedure |->  "data_init",
+                                                                     pc        |->  "gd_unl" ] >>
+                                                                 \o stack[self]]
+                            /\ pc' = [pc EXCEPT ![self] = "ci_new"]
+                       ELSE /\ pc' = [pc EXCEPT ![self] = "gd_unl"]
+                            /\ UNCHANGED << cidef, cifl, stack >>
+                 /\ UNCHANGED << mem, sb, fsleep, wloc, spur, wkind, crlist, 
+                                 nhelp, started, cpulen, tcrd, mycpu, slot, 
+                                 func, rnest, cs, ncs, cnt, snap, queued, fin, 
+                                 bsnap, alive, uaf, errs, pci, opx, iv, pa, hd, 
+                                 tl, old, cur, nx, cbc, isrt, en, ec, wc, res, 
+                                 gd, fc, dc, newc, cn, bk, regs, kk, gps >>
+
+gd_unl(self) == /\ pc[self] = "gd_unl"
+                /\ gd' = [gd EXCEPT ![self] = Rd(self, "dflt")]
+                /\ Drained(self)
+                /\ lock' = "free"
+                /\ acc' = Ev(self, "unlock", CM, "-", "-", "-")
+                /\ pc' = [pc EXCEPT ![self] = Head(stack[self]).pc]
+                /\ stack' = [stack EXCEPT ![self] = Tail(stack[self])]
+                /\ UNCHANGED << mem, sb, fsleep, wloc, spur, wkind, crlist, 
+                                nhelp, started, cpulen, tcrd, mycpu, slot, 
+                                func, rnest, cs, ncs, cnt, snap, queued, fin, 
+                                bsnap, alive, uaf, errs, pci, opx, iv, pa, hd, 
+                                tl, old, cur, nx, cbc, isrt, en, ec, wc, res, 
+                                fc, dc, newc, cidef, cifl, cn, bk, regs, kk, 
+                                gps >>
+
+get_default(self) == gd_ld(self) \/ gd_lock(self) \/ gd_unl(self)
+
+cr_lock(self) == /\ pc[self] = "cr_lock"
+                 /\ IF "norlock" \notin Mut
+                       THEN /\ IF rnest[self] = 0
+                                  THEN /\ cs' = [cs EXCEPT ![self] = ncs[self] + 1]
+                                       /\ ncs' = [ncs EXCEPT ![self] = ncs[self] + 1]
+                                  ELSE /\ TRUE
+                                       /\ UNCHANGED << cs, ncs >>
+                            /\ rnest' = [rnest EXCEPT ![self] = rnest[self] + 1]
+                            /\ acc' = Ev(self, "rlock", "-", "-", "-", rnest'[self])
+                       ELSE /\ TRUE
+                            /\ UNCHANGED << acc, rnest, cs, ncs >>
+                 /\ IF tcrd[self] # NULL
+                       THEN /\ ec' = [ec EXCEPT ![self] = tcrd[self]]
+                            /\ pc' = [pc EXCEPT ![self] = "cr_enq"]
+                       ELSE /\ IF ~HasCpuOps
+                                  THEN /\ pc' = [pc EXCEPT ![self] = "cr_def"]
+                                  ELSE /\ pc' = [pc EXCEPT ![self] = "cr_len"]
+                            /\ ec' = ec
+                 /\ UNCHANGED << mem, sb, lock, fsleep, wloc, spur, wkind, 
+                                 crlist, nhelp, started, cpulen, tcrd, mycpu, 
+                                 slot, func, cnt, snap, queued, fin, bsnap, 
+                                 alive, uaf, errs, pci, opx, iv, pa, hd, tl, 
+                                 old, cur, nx, cbc, isrt, en, wc, res, gd, fc, 
+                                 dc, newc, cidef, cifl, cn, bk, regs, kk, gps, 
+                                 stack >>
+
+cr_len(self) == /\ pc[self] = "cr_len"
+                /\ IF cpulen = 0
+                      THEN /\ pc' = [pc EXCEPT ![self] = "cr_def"]
+                      ELSE /\ pc' = [pc EXCEPT ![self] = "cr_pc"]
+                /\ UNCHANGED << mem, sb, lock, acc, fsleep, wloc, spur, wkind, 
+                                crlist, nhelp, started, cpulen, tcrd, mycpu, 
+                                slot, func, rnest, cs, ncs, cnt, snap, queued, 
+                                fin, bsnap, alive, uaf, errs, pci, opx, iv, pa, 
+                                hd, tl, old, cur, nx, cbc, isrt, en, ec, wc, 
+                                res, gd, fc, dc, newc, cidef, cifl, cn, bk, 
+                                regs, kk, gps, stack >>
+
+cr_pc(self) == /\ pc[self] = "cr_pc"
+               /\ uaf' = (uaf \/ Dead("pcpu"))
+               /\ acc' = Ev(self, "ld", "pcpu", "-", "-", Rd(self, "pcpu"))
+               /\ IF Rd(self, "pcpu") = NULL
+                     THEN /\ pc' = [pc EXCEPT ![self] = "cr_def"]
+                     ELSE /\ pc' = [pc EXCEPT ![self] = "cr_pcs"]
+               /\ UNCHANGED << mem, sb, lock, fsleep, wloc, spur, wkind, 
+                               crlist, nhelp, started, cpulen, tcrd, mycpu, 
+                               slot, func, rnest, cs, ncs, cnt, snap, queued, 
+                               fin, bsnap, alive, errs, pci, opx, iv, pa, hd, 
+                               tl, old, cur, nx, cbc, isrt, en, ec, wc, res, 
+                               gd, fc, dc, newc, cidef, cifl, cn, bk, regs, kk, 
+                               gps, stack >>
+
+cr_pcs(self) == /\ pc[self] = "cr_pcs"
+                /\ uaf' = (uaf \/ Dead((PSlot(mycpu[self]))))
+                /\ acc' = Ev(self, "ld", (PSlot(mycpu[self])), "-", "-", Rd(self, (PSlot(mycpu[self]))))
+                /\ IF Rd(self, PSlot(mycpu[self])) # NULL
+                      THEN /\ ec' = [ec EXCEPT ![self] = Rd(self, PSlot(mycpu[self]))]
+                           /\ pc' = [pc EXCEPT ![self] = "cr_enq"]
+                      ELSE /\ pc' = [pc EXCEPT ![self] = "cr_def"]
+                           /\ ec' = ec
+                /\ UNCHANGED << mem, sb, lock, fsleep, wloc, spur, wkind, 
+                                crlist, nhelp, started, cpulen, tcrd, mycpu, 
+                                slot, func, rnest, cs, ncs, cnt, snap, queued, 
+                                fin, bsnap, alive, errs, pci, opx, iv, pa, hd, 
+                                tl, old, cur, nx, cbc, isrt, en, wc, res, gd, 
+                                fc, dc, newc, cidef, cifl, cn, bk, regs, kk, 
+                                gps, stack >>
+
+cr_def(self) == /\ pc[self] = "cr_def"
+                /\ stack' = [stack EXCEPT ![self] = << [ procedure |->  "get_default",
+                                                         pc        |->  "cr_got" ] >>
+                                                     \o stack[self]]
+                /\ pc' = [pc EXCEPT ![self] = "gd_ld"]
+                /\ UNCHANGED << mem, sb, lock, acc, fsleep, wloc, spur, wkind, 
+                                crlist, nhelp, started, cpulen, tcrd, mycpu, 
+                                slot, func, rnest, cs, ncs, cnt, snap, queued, 
+                                fin, bsnap, alive, uaf, errs, pci, opx, iv, pa, 
+                                hd, tl, old, cur, nx, cbc, isrt, en, ec, wc, 
+                                res, gd, fc, dc, newc, cidef, cifl, cn, bk, 
+                                regs, kk, gps >>
+
+cr_got(self) == /\ pc[self] = "cr_got"
+                /\ ec' = [ec EXCEPT ![self] = gd[self]]
+                /\ en' = [en EXCEPT ![self] = cn[self]]
+                /\ func' = [func EXCEPT ![cn[self]] = FName(cn[self])]
+                /\ stack' = [stack EXCEPT ![self] = << [ procedure |->  "enqueue",
+                                                         pc        |->  "cr_unl" ] >>
+                                                     \o stack[self]]
+                /\ pc' = [pc EXCEPT ![self] = "e_mb"]
+                /\ UNCHANGED << mem, sb, lock, acc, fsleep, wloc, spur, wkind, 
+                                crlist, nhelp, started, cpulen, tcrd, mycpu, 
+                                slot, rnest, cs, ncs, cnt, snap, queued, fin, 
+                                bsnap, alive, uaf, errs, pci, opx, iv, pa, hd, 
+                                tl, old, cur, nx, cbc, isrt, wc, res, gd, fc, 
+                                dc, newc, cidef, cifl, cn, bk, regs, kk, gps >>
+
+cr_enq(self) == /\ pc[self] = "cr_enq"
+                /\ en' = [en EXCEPT ![self] = cn[self]]
+                /\ func' = [func EXCEPT ![cn[self]] = FName(cn[self])]
+                /\ stack' = [stack EXCEPT ![self] = << [ procedure |->  "enqueue",
+                                                         pc        |->  "cr_unl" ] >>
+                                                     \o stack[self]]
+                /\ pc' = [pc EXCEPT ![self] = "e_mb"]
+                /\ UNCHANGED << mem, sb, lock, acc, fsleep, wloc, spur, wkind, 
+                                crlist, nhelp, started, cpulen, tcrd, mycpu, 
+                                slot, rnest, cs, ncs, cnt, snap, queued, fin, 
+                                bsnap, alive, uaf, errs, pci, opx, iv, pa, hd, 
+                                tl, old, cur, nx, cbc, isrt, ec, wc, res, gd, 
+                                fc, dc, newc, cidef, cifl, cn, bk, regs, kk, 
+                                gps >>
+
+cr_unl(self) == /\ pc[self] = "cr_unl"
+                /\ IF "norlock" \notin Mut
+                      THEN /\ rnest' = [rnest EXCEPT ![self] = rnest[self] - 1]
+                           /\ IF rnest'[self] = 0
+                                 THEN /\ cs' = [cs EXCEPT ![self] = 0]
+                                 ELSE /\ TRUE
+                                      /\ cs' = cs
+                           /\ acc' = Ev(self, "runlock", "-", "-", "-", rnest'[self])
+                      ELSE /\ TRUE
+                           /\ UNCHANGED << acc, rnest, cs >>
+                /\ pc' = [pc EXCEPT ![self] = Head(stack[self]).pc]
+                /\ stack' = [stack EXCEPT ![self] = Tail(stack[self])]
+                /\ UNCHANGED << mem, sb, lock, fsleep, wloc, spur, wkind, 
+                                crlist, nhelp, started, cpulen, tcrd, mycpu, 
+                                slot, func, ncs, cnt, snap, queued, fin, bsnap, 
+                                alive, uaf, errs, pci, opx, iv, pa, hd, tl, 
+                                old, cur, nx, cbc, isrt, en, ec, wc, res, gd, 
+                                fc, dc, newc, cidef, cifl, cn, bk, regs, kk, 
+                                gps >>
+
+call_rcu(self) == cr_lock(self) \/ cr_len(self) \/ cr_pc(self)
+                     \/ cr_pcs(self) \/ cr_def(self) \/ cr_got(self)
+                     \/ cr_enq(self) \/ cr_unl(self)
+
+sc_lock(self) == /\ pc[self] = "sc_lock"
+                 /\ Drained(self) /\ lock = "free"
+                 /\ lock' = self
+                 /\ acc' = Ev(self, "lock", CM, "-", "-", "-")
+                 /\ IF cpulen # 0
+                       THEN /\ pc' = [pc EXCEPT ![self] = "sc_chk"]
+                       ELSE /\ pc' = [pc EXCEPT ![self] = "sc_len"]
+                 /\ UNCHANGED << mem, sb, fsleep, wloc, spur, wkind, crlist, 
+                                 nhelp, started, cpulen, tcrd, mycpu, slot, 
+                                 func, rnest, cs, ncs, cnt, snap, queued, fin, 
+                                 bsnap, alive, uaf, errs, pci, opx, iv, pa, hd, 
+                                 tl, old, cur, nx, cbc, isrt, en, ec, wc, res, 
+                                 gd, fc, dc, newc, cidef, cifl, cn, bk, regs, 
+                                 kk, gps, stack >>
+
+sc_len(self) == /\ pc[self] = "sc_len"
+                /\ cpulen' = NCpu
+                /\ pc' = [pc EXCEPT ![self] = "sc_arr"]
+                /\ UNCHANGED << mem, sb, lock, acc, fsleep, wloc, spur, wkind, 
+                                crlist, nhelp, started, tcrd, mycpu, slot, 
+                                func, rnest, cs, ncs, cnt, snap, queued, fin, 
+                                bsnap, alive, uaf, errs, pci, opx, iv, pa, hd, 
+                                tl, old, cur, nx, cbc, isrt, en, ec, wc, res, 
+                                gd, fc, dc, newc, cidef, cifl, cn, bk, regs, 
+                                kk, gps, stack >>
+
+sc_arr(self) == /\ pc[self] = "sc_arr"
+                /\ IF TSO
+                      THEN /\ Len(sb[self]) < SBMax
+                           /\ sb' = [sb EXCEPT ![self] = Append(sb[self], <<"pcpu", "ARR">>)]
+                           /\ mem' = mem
+                      ELSE /\ mem' = [mem EXCEPT !["pcpu"] = "ARR"]
+                           /\ sb' = sb
+                /\ uaf' = (uaf \/ Dead("pcpu"))
+                /\ acc' = Ev(self, "st", "pcpu", "ARR", "-", "-")
+                /\ pc' = [pc EXCEPT ![self] = "sc_chk"]
+                /\ UNCHANGED << lock, fsleep, wloc, spur, wkind, crlist, nhelp, 
+                                started, cpulen, tcrd, mycpu, slot, func, 
+                                rnest, cs, ncs, cnt, snap, queued, fin, bsnap, 
+                                alive, errs, pci, opx, iv, pa, hd, tl, old, 
+                                cur, nx, cbc, isrt, en, ec, wc, res, gd, fc, 
+                                dc, newc, cidef, cifl, cn, bk, regs, kk, gps, 
+                                stack >>
+
+sc_chk(self) == /\ pc[self] = "sc_chk"
+                /\ IF Rd(self, PSlot(opx[self].c)) # NULL /\ en[self] # NULL
+                      THEN /\ res' = [res EXCEPT ![self] = "EEXIST"]
+                           /\ pc' = [pc EXCEPT ![self] = "sc_unl"]
+                      ELSE /\ pc' = [pc EXCEPT ![self] = "sc_st"]
+                           /\ res' = res
+                /\ UNCHANGED << mem, sb, lock, acc, fsleep, wloc, spur, wkind, 
+                                crlist, nhelp, started, cpulen, tcrd, mycpu, 
+                                slot, func, rnest, cs, ncs, cnt, snap, queued, 
+                                fin, bsnap, alive, uaf, errs, pci, opx, iv, pa, 
+                                hd, tl, old, cur, nx, cbc, isrt, en, ec, wc, 
+                                gd, fc, dc, newc, cidef, cifl, cn, bk, regs, 
+                                kk, gps, stack >>
+
+sc_st(self) == /\ pc[self] = "sc_st"
+               /\ IF TSO
+                     THEN /\ Len(sb[self]) < SBMax
+                          /\ sb' = [sb EXCEPT ![self] = Append(sb[self], <<(PSlot(opx[self].c)), (en[self])>>)]
+                          /\ mem' = mem
+                     ELSE /\ mem' = [mem EXCEPT ![(PSlot(opx[self].c))] = en[self]]
+                          /\ sb' = sb
+               /\ uaf' = (uaf \/ Dead((PSlot(opx[self].c))))
+               /\ acc' = Ev(self, "st", (PSlot(opx[self].c)), (en[self]), "-", "-")
+               /\ res' = [res EXCEPT ![self] = "0"]
+               /\ pc' = [pc EXCEPT ![self] = "sc_unl"]
+               /\ UNCHANGED << lock, fsleep, wloc, spur, wkind, crlist, nhelp, 
+                               started, cpulen, tcrd, mycpu, slot, func, rnest, 
+                               cs, ncs, cnt, snap, queued, fin, bsnap, alive, 
+                               errs, pci, opx, iv, pa, hd, tl, old, cur, nx, 
+                               cbc, isrt, en, ec, wc, gd, fc, dc, newc, cidef, 
+                               cifl, cn, bk, regs, kk, gps, stack >>
+
+sc_unl(self) == /\ pc[self] = "sc_unl"
+                /\ Drained(self)
+                /\ lock' = "free"
+                /\ acc' = Ev(self, "unlock", CM, "-", "-", "-")
+                /\ pc' = [pc EXCEPT ![self] = Head(stack[self]).pc]
+                /\ stack' = [stack EXCEPT ![self] = Tail(stack[self])]
+                /\ UNCHANGED << mem, sb, fsleep, wloc, spur, wkind, crlist, 
+                                nhelp, started, cpulen, tcrd, mycpu, slot, 
+                                func, rnest, cs, ncs, cnt, snap, queued, fin, 
+                                bsnap, alive, uaf, errs, pci, opx, iv, pa, hd, 
+                                tl, old, cur, nx, cbc, isrt, en, ec, wc, res, 
+                                gd, fc, dc, newc, cidef, cifl, cn, bk, regs, 
+                                kk, gps >>
+
+set_cpu(self) == sc_lock(self) \/ sc_len(self) \/ sc_arr(self)
+                    \/ sc_chk(self) \/ sc_st(self) \/ sc_unl(self)
+
+f_chk(self) == /\ pc[self] = "f_chk"
+               /\ IF fc[self] = NULL \/ fc[self] = Rd(self, "dflt")
+                     THEN /\ pc' = [pc EXCEPT ![self] = Head(stack[self]).pc]
+                          /\ stack' = [stack EXCEPT ![self] = Tail(stack[self])]
+                     ELSE /\ pc' = [pc EXCEPT ![self] = "f_ld"]
+                          /\ stack' = stack
+               /\ UNCHANGED << mem, sb, lock, acc, fsleep, wloc, spur, wkind, 
+                               crlist, nhelp, started, cpulen, tcrd, mycpu, 
+                               slot, func, rnest, cs, ncs, cnt, snap, queued, 
+                               fin, bsnap, alive, uaf, errs, pci, opx, iv, pa, 
+                               hd, tl, old, cur, nx, cbc, isrt, en, ec, wc, 
+                               res, gd, fc, dc, newc, cidef, cifl, cn, bk, 
+                               regs, kk, gps >>
+
+f_ld(self) == /\ pc[self] = "f_ld"
+              /\ uaf' = (uaf \/ Dead((FlagsOf(fc[self]))))
+              /\ acc' = Ev(self, "ld", (FlagsOf(fc[self])), "-", "-", Rd(self, (FlagsOf(fc[self]))))
+              /\ IF Has(Rd(self, FlagsOf(fc[self])), STOPPED)
+                    THEN /\ pc' = [pc EXCEPT ![self] = "f_lock"]
+                    ELSE /\ pc' = [pc EXCEPT ![self] = "f_or"]
+              /\ UNCHANGED << mem, sb, lock, fsleep, wloc, spur, wkind, crlist, 
+                              nhelp, started, cpulen, tcrd, mycpu, slot, func, 
+                              rnest, cs, ncs, cnt, snap, queued, fin, bsnap, 
+                              alive, errs, pci, opx, iv, pa, hd, tl, old, cur, 
+                              nx, cbc, isrt, en, ec, wc, res, gd, fc, dc, newc, 
+                              cidef, cifl, cn, bk, regs, kk, gps, stack >>
+
+f_or(self) == /\ pc[self] = "f_or"
+              /\ Drained(self)
+              /\ acc' = Ev(self, "or", (FlagsOf(fc[self])), STOP, "-", (SetB(mem[FlagsOf(fc[self])], STOP)))
+              /\ uaf' = (uaf \/ Dead((FlagsOf(fc[self]))))
+              /\ mem' = [mem EXCEPT ![(FlagsOf(fc[self]))] = SetB(mem[FlagsOf(fc[self])], STOP)]
+              /\ wc' = [wc EXCEPT ![self] = fc[self]]
+              /\ stack' = [stack EXCEPT ![self] = << [ procedure |->  "wake",
+                                                       pc        |->  "f_wait" ] >>
+                                                   \o stack[self]]
+              /\ pc' = [pc EXCEPT ![self] = "wk_fl"]
+              /\ UNCHANGED << sb, lock, fsleep, wloc, spur, wkind, crlist, 
+                              nhelp, started, cpulen, tcrd, mycpu, slot, func, 
+                              rnest, cs, ncs, cnt, snap, queued, fin, bsnap, 
+                              alive, errs, pci, opx, iv, pa, hd, tl, old, cur, 
+                              nx, cbc, isrt, en, ec, res, gd, fc, dc, newc, 
+                              cidef, cifl, cn, bk, regs, kk, gps >>
+
+f_wait(self) == /\ pc[self] = "f_wait"
+                /\ uaf' = (uaf \/ Dead((FlagsOf(fc[self]))))
+                /\ acc' = Ev(self, "ld", (FlagsOf(fc[self])), "-", "-", Rd(self, (FlagsOf(fc[self]))))
+                /\ IF ~Has(Rd(self, FlagsOf(fc[self])), STOPPED)
+                      THEN /\ pc' = [pc EXCEPT ![self] = "f_wait"]
+                      ELSE /\ pc' = [pc EXCEPT ![self] = "f_lock"]
+                /\ UNCHANGED << mem, sb, lock, fsleep, wloc, spur, wkind, 
+                                crlist, nhelp, started, cpulen, tcrd, mycpu, 
+                                slot, func, rnest, cs, ncs, cnt, snap, queued, 
+                                fin, bsnap, alive, errs, pci, opx, iv, pa, hd, 
+                                tl, old, cur, nx, cbc, isrt, en, ec, wc, res, 
+                                gd, fc, dc, newc, cidef, cifl, cn, bk, regs, 
+                                kk, gps, stack >>
+
+f_lock(self) == /\ pc[self] = "f_lock"
+                /\ Drained(self) /\ lock = "free"
+                /\ lock' = self
+                /\ acc' = Ev(self, "lock", CM, "-", "-", "-")
+                /\ pc' = [pc EXCEPT ![self] = "f_e1"]
+                /\ UNCHANGED << mem, sb, fsleep, wloc, spur, wkind, crlist, 
+                                nhelp, started, cpulen, tcrd, mycpu, slot, 
+                                func, rnest, cs, ncs, cnt, snap, queued, fin, 
+                                bsnap, alive, uaf, errs, pci, opx, iv, pa, hd, 
+                                tl, old, cur, nx, cbc, isrt, en, ec, wc, res, 
+                                gd, fc, dc, newc, cidef, cifl, cn, bk, regs, 
+                                kk, gps, stack >>
+
+f_e1(self) == /\ pc[self] = "f_e1"
+              /\ uaf' = (uaf \/ Dead((NextOf(Hd(fc[self])))))
+              /\ acc' = Ev(self, "ld", (NextOf(Hd(fc[self]))), "-", "-", Rd(self, (NextOf(Hd(fc[self])))))
+              /\ IF Rd(self, NextOf(Hd(fc[self]))) # NULL
+                    THEN /\ IF "nohandover" \in Mut
+                               THEN /\ pc' = [pc EXCEPT ![self] = "f_unl2"]
+                               ELSE /\ pc' = [pc EXCEPT ![self] = "f_unl1"]
+                    ELSE /\ pc' = [pc EXCEPT ![self] = "f_e2"]
+              /\ UNCHANGED << mem, sb, lock, fsleep, wloc, spur, wkind, crlist, 
+                              nhelp, started, cpulen, tcrd, mycpu, slot, func, 
+                              rnest, cs, ncs, cnt, snap, queued, fin, bsnap, 
+                              alive, errs, pci, opx, iv, pa, hd, tl, old, cur, 
+                              nx, cbc, isrt, en, ec, wc, res, gd, fc, dc, newc, 
+                              cidef, cifl, cn, bk, regs, kk, gps, stack >>
+
+f_e2(self) == /\ pc[self] = "f_e2"
+              /\ uaf' = (uaf \/ Dead((TailOf(fc[self]))))
+              /\ acc' = Ev(self, "ld", (TailOf(fc[self])), "-", "-", Rd(self, (TailOf(fc[self]))))
+              /\ IF Rd(self, TailOf(fc[self])) = Hd(fc[self]) \/ "nohandover" \in Mut
+                    THEN /\ pc' = [pc EXCEPT ![self] = "f_unl2"]
+                    ELSE /\ pc' = [pc EXCEPT ![self] = "f_unl1"]
+              /\ UNCHANGED << mem, sb, lock, fsleep, wloc, spur, wkind, crlist, 
+                              nhelp, started, cpulen, tcrd, mycpu, slot, func, 
+                              rnest, cs, ncs, cnt, snap, queued, fin, bsnap, 
+                              alive, errs, pci, opx, iv, pa, hd, tl, old, cur, 
+                              nx, cbc, isrt, en, ec, wc, res, gd, fc, dc, newc, 
+                              cidef, cifl, cn, bk, regs, kk, gps, stack >>
+
+f_unl1(self) == /\ pc[self] = "f_unl1"
+                /\ Drained(self)
+                /\ lock' = "free"
+                /\ acc' = Ev(self, "unlock", CM, "-", "-", "-")
+                /\ stack' = [stack EXCEPT ![self] = << [ procedure |->  "get_default",
+                                                         pc        |->  "f_lock2" ] >>
+                                                     \o stack[self]]
+                /\ pc' = [pc EXCEPT ![self] = "gd_ld"]
+                /\ UNCHANGED << mem, sb, fsleep, wloc, spur, wkind, crlist, 
+                                nhelp, started, cpulen, tcrd, mycpu, slot, 
+                                func, rnest, cs, ncs, cnt, snap, queued, fin, 
+                                bsnap, alive, uaf, errs, pci, opx, iv, pa, hd, 
+                                tl, old, cur, nx, cbc, isrt, en, ec, wc, res, 
+                                gd, fc, dc, newc, cidef, cifl, cn, bk, regs, 
+                                kk, gps >>
+
+f_lock2(self) == /\ pc[self] = "f_lock2"
+                 /\ Drained(self) /\ lock = "free"
+                 /\ lock' = self
+                 /\ acc' = Ev(self, "lock", CM, "-", "-", "-")
+                 /\ dc' = [dc EXCEPT ![self] = Rd(self, "dflt")]
+                 /\ pc' = [pc EXCEPT ![self] = "fs_e1"]
+                 /\ UNCHANGED << mem, sb, fsleep, wloc, spur, wkind, crlist, 
+                                 nhelp, started, cpulen, tcrd, mycpu, slot, 
+                                 func, rnest, cs, ncs, cnt, snap, queued, fin, 
+                                 bsnap, alive, uaf, errs, pci, opx, iv, pa, hd, 
+                                 tl, old, cur, nx, cbc, isrt, en, ec, wc, res, 
+                                 gd, fc, newc, cidef, cifl, cn, bk, regs, kk, 
+                                 gps, stack >>
+
+fs_e1(self) == /\ pc[self] = "fs_e1"
+               /\ uaf' = (uaf \/ Dead((NextOf(Hd(fc[self])))))
+               /\ acc' = Ev(self, "ld", (NextOf(Hd(fc[self]))), "-", "-", Rd(self, (NextOf(Hd(fc[self])))))
+               /\ IF Rd(self, NextOf(Hd(fc[self]))) # NULL
+                     THEN /\ pc' = [pc EXCEPT ![self] = "fs_xh"]
+                     ELSE /\ pc' = [pc EXCEPT ![self] = "fs_e2"]
+               /\ UNCHANGED << mem, sb, lock, fsleep, wloc, spur, wkind, 
+                               crlist, nhelp, started, cpulen, tcrd, mycpu, 
+                               slot, func, rnest, cs, ncs, cnt, snap, queued, 
+                               fin, bsnap, alive, errs, pci, opx, iv, pa, hd, 
+                               tl, old, cur, nx, cbc, isrt, en, ec, wc, res, 
+                               gd, fc, dc, newc, cidef, cifl, cn, bk, regs, kk, 
+                               gps, stack >>
+
+fs_e2(self) == /\ pc[self] = "fs_e2"
+               /\ uaf' = (uaf \/ Dead((TailOf(fc[self]))))
+               /\ acc' = Ev(self, "ld", (TailOf(fc[self])), "-", "-", Rd(self, (TailOf(fc[self]))))
+               /\ IF Rd(self, TailOf(fc[self])) = Hd(fc[self])
+                     THEN /\ pc' = [pc EXCEPT ![self] = "f_ldq"]
+                     ELSE /\ pc' = [pc EXCEPT ![self] = "fs_xh"]
+               /\ UNCHANGED << mem, sb, lock, fsleep, wloc, spur, wkind, 
+                               crlist, nhelp, started, cpulen, tcrd, mycpu, 
+                               slot, func, rnest, cs, ncs, cnt, snap, queued, 
+                               fin, bsnap, alive, errs, pci, opx, iv, pa, hd, 
+                               tl, old, cur, nx, cbc, isrt, en, ec, wc, res, 
+                               gd, fc, dc, newc, cidef, cifl, cn, bk, regs, kk, 
+                               gps, stack >>
+
+fs_xh(self) == /\ pc[self] = "fs_xh"
+               /\ Drained(self)
+               /\ hd' = [hd EXCEPT ![self] = mem[(NextOf(Hd(fc[self])))]]
+               /\ mem' = [mem EXCEPT ![(NextOf(Hd(fc[self])))] = NULL]
+               /\ uaf' = (uaf \/ Dead((NextOf(Hd(fc[self])))))
+               /\ acc' = Ev(self, "xchg", (NextOf(Hd(fc[self]))), NULL, "-", (hd'[self]))
+               /\ IF hd'[self] # NULL
+                     THEN /\ pc' = [pc EXCEPT ![self] = "fs_mb"]
+                     ELSE /\ pc' = [pc EXCEPT ![self] = "fs_lt"]
+               /\ UNCHANGED << sb, lock, fsleep, wloc, spur, wkind, crlist, 
+                               nhelp, started, cpulen, tcrd, mycpu, slot, func, 
+                               rnest, cs, ncs, cnt, snap, queued, fin, bsnap, 
+                               alive, errs, pci, opx, iv, pa, tl, old, cur, nx, 
+                               cbc, isrt, en, ec, wc, res, gd, fc, dc, newc, 
+                               cidef, cifl, cn, bk, regs, kk, gps, stack >>
+
+fs_lt(self) == /\ pc[self] = "fs_lt"
+               /\ uaf' = (uaf \/ Dead((TailOf(fc[self]))))
+               /\ acc' = Ev(self, "ld", (TailOf(fc[self])), "-", "-", Rd(self, (TailOf(fc[self]))))
+               /\ IF Rd(self, TailOf(fc[self])) = Hd(fc[self])
+                     THEN /\ pc' = [pc EXCEPT ![self] = "f_ldq"]
+                     ELSE /\ pc' = [pc EXCEPT ![self] = "fs_xh"]
+               /\ UNCHANGED << mem, sb, lock, fsleep, wloc, spur, wkind, 
+                               crlist, nhelp, started, cpulen, tcrd, mycpu, 
+                               slot, func, rnest, cs, ncs, cnt, snap, queued, 
+                               fin, bsnap, alive, errs, pci, opx, iv, pa, hd, 
+                               tl, old, cur, nx, cbc, isrt, en, ec, wc, res, 
+                               gd, fc, dc, newc, cidef, cifl, cn, bk, regs, kk, 
+                               gps, stack >>
+
+fs_mb(self) == /\ pc[self] = "fs_mb"
+               /\ Drained(self)
+               /\ acc' = Ev(self, "mb", "-", "-", "-", "-")
+               /\ pc' = [pc EXCEPT ![self] = "fs_xt"]
+               /\ UNCHANGED << mem, sb, lock, fsleep, wloc, spur, wkind, 
+                               crlist, nhelp, started, cpulen, tcrd, mycpu, 
+                               slot, func, rnest, cs, ncs, cnt, snap, queued, 
+                               fin, bsnap, alive, uaf, errs, pci, opx, iv, pa, 
+                               hd, tl, old, cur, nx, cbc, isrt, en, ec, wc, 
+                               res, gd, fc, dc, newc, cidef, cifl, cn, bk, 
+                               regs, kk, gps, stack >>
+
+fs_xt(self) == /\ pc[self] = "fs_xt"
+               /\ Drained(self)
+               /\ tl' = [tl EXCEPT ![self] = mem[(TailOf(fc[self]))]]
+               /\ mem' = [mem EXCEPT ![(TailOf(fc[self]))] = Hd(fc[self])]
+               /\ uaf' = (uaf \/ Dead((TailOf(fc[self]))))
+               /\ acc' = Ev(self, "xchg", (TailOf(fc[self])), (Hd(fc[self])), "-", (tl'[self]))
+               /\ pc' = [pc EXCEPT ![self] = "fs_ax"]
+               /\ UNCHANGED << sb, lock, fsleep, wloc, spur, wkind, crlist, 
+                               nhelp, started, cpulen, tcrd, mycpu, slot, func, 
+                               rnest, cs, ncs, cnt, snap, queued, fin, bsnap, 
+                               alive, errs, pci, opx, iv, pa, hd, old, cur, nx, 
+                               cbc, isrt, en, ec, wc, res, gd, fc, dc, newc, 
+                               cidef, cifl, cn, bk, regs, kk, gps, stack >>
+
+fs_ax(self) == /\ pc[self] = "fs_ax"
+               /\ Drained(self)
+               /\ old' = [old EXCEPT ![self] = mem[(TailOf(dc[self]))]]
+               /\ mem' = [mem EXCEPT ![(TailOf(dc[self]))] = tl[self]]
+               /\ uaf' = (uaf \/ Dead((TailOf(dc[self]))))
+               /\ acc' = Ev(self, "xchg", (TailOf(dc[self])), (tl[self]), "-", (old'[self]))
+               /\ pc' = [pc EXCEPT ![self] = "fs_al"]
+               /\ UNCHANGED << sb, lock, fsleep, wloc, spur, wkind, crlist, 
+                               nhelp, started, cpulen, tcrd, mycpu, slot, func, 
+                               rnest, cs, ncs, cnt, snap, queued, fin, bsnap, 
+                               alive, errs, pci, opx, iv, pa, hd, tl, cur, nx, 
+                               cbc, isrt, en, ec, wc, res, gd, fc, dc, newc, 
+                               cidef, cifl, cn, bk, regs, kk, gps, stack >>
+
+fs_al(self) == /\ pc[self] = "fs_al"
+               /\ IF TSO
+                     THEN /\ Len(sb[self]) < SBMax
+                          /\ sb' = [sb EXCEPT ![self] = Append(sb[self], <<(NextOf(old[self])), (hd[self])>>)]
+                          /\ mem' = mem
+                     ELSE /\ mem' = [mem EXCEPT ![(NextOf(old[self]))] = hd[self]]
+                          /\ sb' = sb
+               /\ uaf' = (uaf \/ Dead((NextOf(old[self]))))
+               /\ acc' = Ev(self, "st", (NextOf(old[self])), (hd[self]), "-", "-")
+               /\ old' = [old EXCEPT ![self] = NULL]
+               /\ hd' = [hd EXCEPT ![self] = NULL]
+               /\ tl' = [tl EXCEPT ![self] = NULL]
+               /\ pc' = [pc EXCEPT ![self] = "f_ldq"]
+               /\ UNCHANGED << lock, fsleep, wloc, spur, wkind, crlist, nhelp, 
+                               started, cpulen, tcrd, mycpu, slot, func, rnest, 
+                               cs, ncs, cnt, snap, queued, fin, bsnap, alive, 
+                               errs, pci, opx, iv, pa, cur, nx, cbc, isrt, en, 
+                               ec, wc, res, gd, fc, dc, newc, cidef, cifl, cn, 
+                               bk, regs, kk, gps, stack >>
+
+f_ldq(self) == /\ pc[self] = "f_ldq"
+               /\ iv' = [iv EXCEPT ![self] = Rd(self, (QlenOf(fc[self])))]
+               /\ uaf' = (uaf \/ Dead((QlenOf(fc[self]))))
+               /\ acc' = Ev(self, "ld", (QlenOf(fc[self])), "-", "-", Rd(self, (QlenOf(fc[self]))))
+               /\ pc' = [pc EXCEPT ![self] = "f_add"]
+               /\ UNCHANGED << mem, sb, lock, fsleep, wloc, spur, wkind, 
+                               crlist, nhelp, started, cpulen, tcrd, mycpu, 
+                               slot, func, rnest, cs, ncs, cnt, snap, queued, 
+                               fin, bsnap, alive, errs, pci, opx, pa, hd, tl, 
+                               old, cur, nx, cbc, isrt, en, ec, wc, res, gd, 
+                               fc, dc, newc, cidef, cifl, cn, bk, regs, kk, 
+                               gps, stack >>
+
+f_add(self) == /\ pc[self] = "f_add"
+               /\ Drained(self)
+               /\ acc' = Ev(self, "add", (QlenOf(dc[self])), (iv[self]), "-", (mem[QlenOf(dc[self])] + iv[self]))
+               /\ uaf' = (uaf \/ Dead((QlenOf(dc[self]))))
+               /\ mem' = [mem EXCEPT ![(QlenOf(dc[self]))] = mem[QlenOf(dc[self])] + iv[self]]
+               /\ iv' = [iv EXCEPT ![self] = 0]
+               /\ wc' = [wc EXCEPT ![self] = dc[self]]
+               /\ stack' = [stack EXCEPT ![self] = << [ procedure |->  "wake",
+                                                        pc        |->  "f_unl2" ] >>
+                                                    \o stack[self]]
+               /\ pc' = [pc EXCEPT ![self] = "wk_fl"]
+               /\ UNCHANGED << sb, lock, fsleep, wloc, spur, wkind, crlist, 
+                               nhelp, started, cpulen, tcrd, mycpu, slot, func, 
+                               rnest, cs, ncs, cnt, snap, queued, fin, bsnap, 
+                               alive, errs, pci, opx, pa, hd, tl, old, cur, nx, 
+                               cbc, isrt, en, ec, res, gd, fc, dc, newc, cidef, 
+                               cifl, cn, bk, regs, kk, gps >>
+
+f_unl2(self) == /\ pc[self] = "f_unl2"
+                /\ crlist' = Without(crlist, fc[self])
+                /\ Drained(self)
+                /\ lock' = "free"
+                /\ acc' = Ev(self, "unlock", CM, "-", "-", "-")
+                /\ pc' = [pc EXCEPT ![self] = "f_join"]
+                /\ UNCHANGED << mem, sb, fsleep, wloc, spur, wkind, nhelp, 
+                                started, cpulen, tcrd, mycpu, slot, func, 
+                                rnest, cs, ncs, cnt, snap, queued, fin, bsnap, 
+                                alive, uaf, errs, pci, opx, iv, pa, hd, tl, 
+                                old, cur, nx, cbc, isrt, en, ec, wc, res, gd, 
+                                fc, dc, newc, cidef, cifl, cn, bk, regs, kk, 
+                                gps, stack >>
+
+f_join(self) == /\ pc[self] = "f_join"
+                /\ pc[HOf[fc[self]]] = "Done"
+                /\ acc' = Ev(self, "join", HOf[fc[self]], "-", "-", "-")
+                /\ pc' = [pc EXCEPT ![self] = "f_free"]
+                /\ UNCHANGED << mem, sb, lock, fsleep, wloc, spur, wkind, 
+                                crlist, nhelp, started, cpulen, tcrd, mycpu, 
+                                slot, func, rnest, cs, ncs, cnt, snap, queued, 
+                                fin, bsnap, alive, uaf, errs, pci, opx, iv, pa, 
+                                hd, tl, old, cur, nx, cbc, isrt, en, ec, wc, 
+                                res, gd, fc, dc, newc, cidef, cifl, cn, bk, 
+                                regs, kk, gps, stack >>
+
+f_free(self) == /\ pc[self] = "f_free"
+                /\ IF alive[fc[self]] # "yes"
+                      THEN /\ errs' = (errs \cup {"call_rcu_data freed twice"})
+                      ELSE /\ TRUE
+                           /\ errs' = errs
+                /\ alive' = [alive EXCEPT ![fc[self]] = "freed"]
+                /\ acc' = Ev(self, "free", fc[self], "-", "-", "-")
+                /\ pc' = [pc EXCEPT ![self] = Head(stack[self]).pc]
+                /\ stack' = [stack EXCEPT ![self] = Tail(stack[self])]
+                /\ UNCHANGED << mem, sb, lock, fsleep, wloc, spur, wkind, 
+                                crlist, nhelp, started, cpulen, tcrd, mycpu, 
+                                slot, func, rnest, cs, ncs, cnt, snap, queued, 
+                                fin, bsnap, uaf, pci, opx, iv, pa, hd, tl, old, 
+                                cur, nx, cbc, isrt, en, ec, wc, res, gd, fc, 
+                                dc, newc, cidef, cifl, cn, bk, regs, kk, gps >>
+
+data_free(self) == f_chk(self) \/ f_ld(self) \/ f_or(self) \/ f_wait(self)
+                      \/ f_lock(self) \/ f_e1(self) \/ f_e2(self)
+                      \/ f_unl1(self) \/ f_lock2(self) \/ fs_e1(self)
+                      \/ fs_e2(self) \/ fs_xh(self) \/ fs_lt(self)
+                      \/ fs_mb(self) \/ fs_xt(self) \/ fs_ax(self)
+                      \/ fs_al(self) \/ f_ldq(self) \/ f_add(self)
+                      \/ f_unl2(self) \/ f_join(self) \/ f_free(self)
+
+bc_sub(self) == /\ pc[self] = "bc_sub"
+                /\ Drained(self)
+                /\ acc' = Ev(self, "addret", (CountOf(bk[self])), (-1), "-", (mem[CountOf(bk[self])] - 1))
+                /\ uaf' = (uaf \/ Dead((CountOf(bk[self]))))
+                /\ mem' = [mem EXCEPT ![(CountOf(bk[self]))] = mem[CountOf(bk[self])] - 1]
+                /\ IF mem'[CountOf(bk[self])] # 0
+                      THEN /\ pc' = [pc EXCEPT ![self] = "bc_put"]
+                      ELSE /\ pc' = [pc EXCEPT ![self] = "bc_mb"]
+                /\ UNCHANGED << sb, lock, fsleep, wloc, spur, wkind, crlist, 
+                                nhelp, started, cpulen, tcrd, mycpu, slot, 
+                                func, rnest, cs, ncs, cnt, snap, queued, fin, 
+                                bsnap, alive, errs, pci, opx, iv, pa, hd, tl, 
+                                old, cur, nx, cbc, isrt, en, ec, wc, res, gd, 
+                                fc, dc, newc, cidef, cifl, cn, bk, regs, kk, 
+                                gps, stack >>
+
+bc_mb(self) == /\ pc[self] = "bc_mb"
+               /\ Drained(self)
+               /\ acc' = Ev(self, "mb", "-", "-", "-", "-")
+               /\ pc' = [pc EXCEPT ![self] = "bc_ld"]
+               /\ UNCHANGED << mem, sb, lock, fsleep, wloc, spur, wkind, 
+                               crlist, nhelp, started, cpulen, tcrd, mycpu, 
+                               slot, func, rnest, cs, ncs, cnt, snap, queued, 
+                               fin, bsnap, alive, uaf, errs, pci, opx, iv, pa, 
+                               hd, tl, old, cur, nx, cbc, isrt, en, ec, wc, 
+                               res, gd, fc, dc, newc, cidef, cifl, cn, bk, 
+                               regs, kk, gps, stack >>
+
+bc_ld(self) == /\ pc[self] = "bc_ld"
+               /\ uaf' = (uaf \/ Dead((FutexOf(bk[self]))))
+               /\ acc' = Ev(self, "ld", (FutexOf(bk[self])), "-", "-", Rd(self, (FutexOf(bk[self]))))
+               /\ IF Rd(self, FutexOf(bk[self])) # -1
+                     THEN /\ pc' = [pc EXCEPT ![self] = "bc_put"]
+                     ELSE /\ pc' = [pc EXCEPT ![self] = "bc_st"]
+               /\ UNCHANGED << mem, sb, lock, fsleep, wloc, spur, wkind, 
+                               crlist, nhelp, started, cpulen, tcrd, mycpu, 
+                               slot, func, rnest, cs, ncs, cnt, snap, queued, 
+                               fin, bsnap, alive, errs, pci, opx, iv, pa, hd, 
+                               tl, old, cur, nx, cbc, isrt, en, ec, wc, res, 
+                               gd, fc, dc, newc, cidef, cifl, cn, bk, regs, kk, 
+                               gps, stack >>
+
+bc_st(self) == /\ pc[self] = "bc_st"
+               /\ IF TSO
+                     THEN /\ Len(sb[self]) < SBMax
+                          /\ sb' = [sb EXCEPT ![self] = Append(sb[self], <<(FutexOf(bk[self])), 0>>)]
+                          /\ mem' = mem
+                     ELSE /\ mem' = [mem EXCEPT ![(FutexOf(bk[self]))] = 0]
+                          /\ sb' = sb
+               /\ uaf' = (uaf \/ Dead((FutexOf(bk[self]))))
+               /\ acc' = Ev(self, "st", (FutexOf(bk[self])), 0, "-", "-")
+               /\ pc' = [pc EXCEPT ![self] = "bc_fw"]
+               /\ UNCHANGED << lock, fsleep, wloc, spur, wkind, crlist, nhelp, 
+                               started, cpulen, tcrd, mycpu, slot, func, rnest, 
+                               cs, ncs, cnt, snap, queued, fin, bsnap, alive, 
+                               errs, pci, opx, iv, pa, hd, tl, old, cur, nx, 
+                               cbc, isrt, en, ec, wc, res, gd, fc, dc, newc, 
+                               cidef, cifl, cn, bk, regs, kk, gps, stack >>
+
+bc_fw(self) == /\ pc[self] = "bc_fw"
+               /\ Drained(self)
+               /\ uaf' = (uaf \/ Dead((FutexOf(bk[self]))))
+               /\ acc' = Ev(self, "fwake", (FutexOf(bk[self])), "-", "-", Cardinality(Sleepers((FutexOf(bk[self])))))
+               /\ fsleep' = fsleep \ Sleepers((FutexOf(bk[self])))
+               /\ pc' = [pc EXCEPT ![self] = "bc_put"]
+               /\ UNCHANGED << mem, sb, lock, wloc, spur, wkind, crlist, nhelp, 
+                               started, cpulen, tcrd, mycpu, slot, func, rnest, 
+                               cs, ncs, cnt, snap, queued, fin, bsnap, alive, 
+                               errs, pci, opx, iv, pa, hd, tl, old, cur, nx, 
+                               cbc, isrt, en, ec, wc, res, gd, fc, dc, newc, 
+                               cidef, cifl, cn, bk, regs, kk, gps, stack >>
+
+bc_put(self) == /\ pc[self] = "bc_put"
+                /\ Drained(self)
+                /\ acc' = Ev(self, "addret", (RefOf(bk[self])), (-1), "-", (mem[RefOf(bk[self])] - 1))
+                /\ uaf' = (uaf \/ Dead((RefOf(bk[self]))))
+                /\ mem' = [mem EXCEPT ![(RefOf(bk[self]))] = mem[RefOf(bk[self])] - 1]
+                /\ IF mem'[RefOf(bk[self])] # 0 /\ "noref" \notin Mut
+                      THEN /\ pc' = [pc EXCEPT ![self] = "bc_frw"]
+                      ELSE /\ pc' = [pc EXCEPT ![self] = "bc_frk"]
+                /\ UNCHANGED << sb, lock, fsleep, wloc, spur, wkind, crlist, 
+                                nhelp, started, cpulen, tcrd, mycpu, slot, 
+                                func, rnest, cs, ncs, cnt, snap, queued, fin, 
+                                bsnap, alive, errs, pci, opx, iv, pa, hd, tl, 
+                                old, cur, nx, cbc, isrt, en, ec, wc, res, gd, 
+                                fc, dc, newc, cidef, cifl, cn, bk, regs, kk, 
+                                gps, stack >>
+
+bc_frk(self) == /\ pc[self] = "bc_frk"
+                /\ IF alive[bk[self]] # "yes"
+                      THEN /\ errs' = (errs \cup {"completion freed twice"})
+                      ELSE /\ TRUE
+                           /\ errs' = errs
+                /\ alive' = [alive EXCEPT ![bk[self]] = "freed"]
+                /\ acc' = Ev(self, "free", bk[self], "-", "-", "-")
+                /\ pc' = [pc EXCEPT ![self] = "bc_frw"]
+                /\ UNCHANGED << mem, sb, lock, fsleep, wloc, spur, wkind, 
+                                crlist, nhelp, started, cpulen, tcrd, mycpu, 
+                                slot, func, rnest, cs, ncs, cnt, snap, queued, 
+                                fin, bsnap, uaf, pci, opx, iv, pa, hd, tl, old, 
+                                cur, nx, cbc, isrt, en, ec, wc, res, gd, fc, 
+                                dc, newc, cidef, cifl, cn, bk, regs, kk, gps, 
+                                stack >>
+
+bc_frw(self) == /\ pc[self] = "bc_frw"
+                /\ alive' = [alive EXCEPT ![cur[self]] = "freed"]
+                /\ acc' = Ev(self, "free", cur[self], "-", "-", "-")
+                /\ pc' = [pc EXCEPT ![self] = Head(stack[self]).pc]
+                /\ stack' = [stack EXCEPT ![self] = Tail(stack[self])]
+                /\ UNCHANGED << mem, sb, lock, fsleep, wloc, spur, wkind, 
+                                crlist, nhelp, started, cpulen, tcrd, mycpu, 
+                                slot, func, rnest, cs, ncs, cnt, snap, queued, 
+                                fin, bsnap, uaf, errs, pci, opx, iv, pa, hd, 
+                                tl, old, cur, nx, cbc, isrt, en, ec, wc, res, 
+                                gd, fc, dc, newc, cidef, cifl, cn, bk, regs, 
+                                kk, gps >>
+
+barrier_complete(self) == bc_sub(self) \/ bc_mb(self) \/ bc_ld(self)
+                             \/ bc_st(self) \/ bc_fw(self) \/ bc_put(self)
+                             \/ bc_frk(self) \/ bc_frw(self)
+
+b_lock(self) == /\ pc[self] = "b_lock"
+                /\ IF "nomutex" \notin Mut
+                      THEN /\ Drained(self) /\ lock = "free"
+                           /\ lock' = self
+                           /\ acc' = Ev(self, "lock", CM, "-", "-", "-")
+                      ELSE /\ TRUE
+                           /\ UNCHANGED << lock, acc >>
+                /\ regs' = [regs EXCEPT ![self] = crlist]
+                /\ kk' = [kk EXCEPT ![self] = 1]
+                /\ pc' = [pc EXCEPT ![self] = "b_ref"]
+                /\ UNCHANGED << mem, sb, fsleep, wloc, spur, wkind, crlist, 
+                                nhelp, started, cpulen, tcrd, mycpu, slot, 
+                                func, rnest, cs, ncs, cnt, snap, queued, fin, 
+                                bsnap, alive, uaf, errs, pci, opx, iv, pa, hd, 
+                                tl, old, cur, nx, cbc, isrt, en, ec, wc, res, 
+                                gd, fc, dc, newc, cidef, cifl, cn, bk, gps, 
+                                stack >>
+
+b_ref(self) == /\ pc[self] = "b_ref"
+               /\ IF TSO
+                     THEN /\ Len(sb[self]) < SBMax
+                          /\ sb' = [sb EXCEPT ![self] = Append(sb[self], <<(RefOf(bk[self])), (Len(regs[self]) + 1)>>)]
+                          /\ mem' = mem
+                     ELSE /\ mem' = [mem EXCEPT ![(RefOf(bk[self]))] = Len(regs[self]) + 1]
+                          /\ sb' = sb
+               /\ uaf' = (uaf \/ Dead((RefOf(bk[self]))))
+               /\ acc' = Ev(self, "st", (RefOf(bk[self])), (Len(regs[self]) + 1), "-", "-")
+               /\ pc' = [pc EXCEPT ![self] = "b_cnt"]
+               /\ UNCHANGED << lock, fsleep, wloc, spur, wkind, crlist, nhelp, 
+                               started, cpulen, tcrd, mycpu, slot, func, rnest, 
+                               cs, ncs, cnt, snap, queued, fin, bsnap, alive, 
+                               errs, pci, opx, iv, pa, hd, tl, old, cur, nx, 
+                               cbc, isrt, en, ec, wc, res, gd, fc, dc, newc, 
+                               cidef, cifl, cn, bk, regs, kk, gps, stack >>
+
+b_cnt(self) == /\ pc[self] = "b_cnt"
+               /\ IF TSO /\ ~Tracing
+                     THEN /\ Len(sb[self]) < SBMax
+                          /\ sb' = [sb EXCEPT ![self] = Append(sb[self], <<(CountOf(bk[self])), (IF "earlycount" \in Mut THEN 0 ELSE Len(regs[self]))>>)]
+                          /\ mem' = mem
+                     ELSE /\ Drained(self)
+                          /\ mem' = [mem EXCEPT ![(CountOf(bk[self]))] = IF "earlycount" \in Mut THEN 0 ELSE Len(regs[self])]
+                          /\ sb' = sb
+               /\ uaf' = (uaf \/ Dead((CountOf(bk[self]))))
+               /\ pc' = [pc EXCEPT ![self] = "b_loop"]
+               /\ UNCHANGED << lock, acc, fsleep, wloc, spur, wkind, crlist, 
+                               nhelp, started, cpulen, tcrd, mycpu, slot, func, 
+                               rnest, cs, ncs, cnt, snap, queued, fin, bsnap, 
+                               alive, errs, pci, opx, iv, pa, hd, tl, old, cur, 
+                               nx, cbc, isrt, en, ec, wc, res, gd, fc, dc, 
+                               newc, cidef, cifl, cn, bk, regs, kk, gps, stack >>
+
+b_loop(self) == /\ pc[self] = "b_loop"
+                /\ IF kk[self] <= Len(regs[self])
+                      THEN /\ en' = [en EXCEPT ![self] = WName(bk[self], regs[self][kk[self]])]
+                           /\ ec' = [ec EXCEPT ![self] = regs[self][kk[self]]]
+                           /\ alive' = [alive EXCEPT ![WName(bk[self], regs[self][kk[self]])] = "yes"]
+                           /\ func' = [func EXCEPT ![WName(bk[self], regs[self][kk[self]])] = "barrier_complete"]
+                           /\ kk' = [kk EXCEPT ![self] = kk[self] + 1]
+                           /\ stack' = [stack EXCEPT ![self] = << [ procedure |->  "enqueue",
+                                                                    pc        |->  "b_loop" ] >>
+                                                                \o stack[self]]
+                           /\ pc' = [pc EXCEPT ![self] = "e_mb"]
+                      ELSE /\ pc' = [pc EXCEPT ![self] = "b_unl"]
+                           /\ UNCHANGED << func, alive, en, ec, kk, stack >>
+                /\ UNCHANGED << mem, sb, lock, acc, fsleep, wloc, spur, wkind, 
+                                crlist, nhelp, started, cpulen, tcrd, mycpu, 
+                                slot, rnest, cs, ncs, cnt, snap, queued, fin, 
+                                bsnap, uaf, errs, pci, opx, iv, pa, hd, tl, 
+                                old, cur, nx, cbc, isrt, wc, res, gd, fc, dc, 
+                                newc, cidef, cifl, cn, bk, regs, gps >>
+
+b_unl(self) == /\ pc[self] = "b_unl"
+               /\ IF "nomutex" \notin Mut
+                     THEN /\ Drained(self)
+                          /\ lock' = "free"
+                          /\ acc' = Ev(self, "unlock", CM, "-", "-", "-")
+                     ELSE /\ TRUE
+                          /\ UNCHANGED << lock, acc >>
+               /\ pc' = [pc EXCEPT ![self] = "b_dec"]
+               /\ UNCHANGED << mem, sb, fsleep, wloc, spur, wkind, crlist, 
+                               nhelp, started, cpulen, tcrd, mycpu, slot, func, 
+                               rnest, cs, ncs, cnt, snap, queued, fin, bsnap, 
+                               alive, uaf, errs, pci, opx, iv, pa, hd, tl, old, 
+                               cur, nx, cbc, isrt, en, ec, wc, res, gd, fc, dc, 
+                               newc, cidef, cifl, cn, bk, regs, kk, gps, stack >>
+
+b_dec(self) == /\ pc[self] = "b_dec"
+               /\ Drained(self)
+               /\ acc' = Ev(self, "dec", (FutexOf(bk[self])), 1, "-", (mem[FutexOf(bk[self])] - 1))
+               /\ uaf' = (uaf \/ Dead((FutexOf(bk[self]))))
+               /\ mem' = [mem EXCEPT ![(FutexOf(bk[self]))] = mem[FutexOf(bk[self])] - 1]
+               /\ pc' = [pc EXCEPT ![self] = "b_mb"]
+               /\ UNCHANGED << sb, lock, fsleep, wloc, spur, wkind, crlist, 
+                               nhelp, started, cpulen, tcrd, mycpu, slot, func, 
+                               rnest, cs, ncs, cnt, snap, queued, fin, bsnap, 
+                               alive, errs, pci, opx, iv, pa, hd, tl, old, cur, 
+                               nx, cbc, isrt, en, ec, wc, res, gd, fc, dc, 
+                               newc, cidef, cifl, cn, bk, regs, kk, gps, stack >>
+
+b_mb(self) == /\ pc[self] = "b_mb"
+              /\ Drained(self)
+              /\ acc' = Ev(self, "mb", "-", "-", "-", "-")
+              /\ pc' = [pc EXCEPT ![self] = "b_ldc"]
+              /\ UNCHANGED << mem, sb, lock, fsleep, wloc, spur, wkind, crlist, 
+                              nhelp, started, cpulen, tcrd, mycpu, slot, func, 
+                              rnest, cs, ncs, cnt, snap, queued, fin, bsnap, 
+                              alive, uaf, errs, pci, opx, iv, pa, hd, tl, old, 
+                              cur, nx, cbc, isrt, en, ec, wc, res, gd, fc, dc, 
+                              newc, cidef, cifl, cn, bk, regs, kk, gps, stack >>
+
+b_ldc(self) == /\ pc[self] = "b_ldc"
+               /\ uaf' = (uaf \/ Dead((CountOf(bk[self]))))
+               /\ acc' = Ev(self, "ld", (CountOf(bk[self])), "-", "-", Rd(self, (CountOf(bk[self]))))
+               /\ IF Rd(self, CountOf(bk[self])) = 0
+                     THEN /\ pc' = [pc EXCEPT ![self] = "b_put"]
+                     ELSE /\ pc' = [pc EXCEPT ![self] = "cw_mb"]
+               /\ UNCHANGED << mem, sb, lock, fsleep, wloc, spur, wkind, 
+                               crlist, nhelp, started, cpulen, tcrd, mycpu, 
+                               slot, func, rnest, cs, ncs, cnt, snap, queued, 
+                               fin, bsnap, alive, errs, pci, opx, iv, pa, hd, 
+                               tl, old, cur, nx, cbc, isrt, en, ec, wc, res, 
+                               gd, fc, dc, newc, cidef, cifl, cn, bk, regs, kk, 
+                               gps, stack >>
+
+cw_mb(self) == /\ pc[self] = "cw_mb"
+               /\ Drained(self)
+               /\ acc' = Ev(self, "mb", "-", "-", "-", "-")
+               /\ pc' = [pc EXCEPT ![self] = "cw_ld"]
+               /\ UNCHANGED << mem, sb, lock, fsleep, wloc, spur, wkind, 
+                               crlist, nhelp, started, cpulen, tcrd, mycpu, 
+                               slot, func, rnest, cs, ncs, cnt, snap, queued, 
+                               fin, bsnap, alive, uaf, errs, pci, opx, iv, pa, 
+                               hd, tl, old, cur, nx, cbc, isrt, en, ec, wc, 
+                               res, gd, fc, dc, newc, cidef, cifl, cn, bk, 
+                               regs, kk, gps, stack >>
+
+cw_ld(self) == /\ pc[self] = "cw_ld"
+               /\ uaf' = (uaf \/ Dead((FutexOf(bk[self]))))
+               /\ acc' = Ev(self, "ld", (FutexOf(bk[self])), "-", "-", Rd(self, (FutexOf(bk[self]))))
+               /\ IF Rd(self, FutexOf(bk[self])) # -1
+                     THEN /\ pc' = [pc EXCEPT ![self] = "b_dec"]
+                     ELSE /\ pc' = [pc EXCEPT ![self] = "cw_fwait"]
+               /\ UNCHANGED << mem, sb, lock, fsleep, wloc, spur, wkind, 
+                               crlist, nhelp, started, cpulen, tcrd, mycpu, 
+                               slot, func, rnest, cs, ncs, cnt, snap, queued, 
+                               fin, bsnap, alive, errs, pci, opx, iv, pa, hd, 
+                               tl, old, cur, nx, cbc, isrt, en, ec, wc, res, 
+                               gd, fc, dc, newc, cidef, cifl, cn, bk, regs, kk, 
+                               gps, stack >>
+
+cw_fwait(self) == /\ pc[self] = "cw_fwait"
+                  /\ Drained(self)
+                  /\ uaf' = (uaf \/ Dead(FutexOf(bk[self])))
+                  /\ IF mem[FutexOf(bk[self])] = -1
+                        THEN /\ fsleep' = (fsleep \cup {self})
+                             /\ wloc' = [wloc EXCEPT ![self] = FutexOf(bk[self])]
+                             /\ acc' = Ev(self, "fwait", FutexOf(bk[self]), -1, "-", "SLEEP")
+                             /\ pc' = [pc EXCEPT ![self] = "cw_fwoke"]
+                        ELSE /\ acc' = Ev(self, "fwait", FutexOf(bk[self]), -1, "-", "EAGAIN")
+                             /\ pc' = [pc EXCEPT ![self] = "b_dec"]
+                             /\ UNCHANGED << fsleep, wloc >>
+                  /\ UNCHANGED << mem, sb, lock, spur, wkind, crlist, nhelp, 
+                                  started, cpulen, tcrd, mycpu, slot, func, 
+                                  rnest, cs, ncs, cnt, snap, queued, fin, 
+                                  bsnap, alive, errs, pci, opx, iv, pa, hd, tl, 
+                                  old, cur, nx, cbc, isrt, en, ec, wc, res, gd, 
+                                  fc, dc, newc, cidef, cifl, cn, bk, regs, kk, 
+                                  gps, stack >>
+
+cw_fwoke(self) == /\ pc[self] = "cw_fwoke"
+                  /\ self \notin fsleep
+                  /\ acc' = Ev(self, "fwoke", FutexOf(bk[self]), "-", "-", wkind[self])
+                  /\ wkind' = [wkind EXCEPT ![self] = "WAKE"]
+                  /\ pc' = [pc EXCEPT ![self] = "cw_ld"]
+                  /\ UNCHANGED << mem, sb, lock, fsleep, wloc, spur, crlist, 
+                                  nhelp, started, cpulen, tcrd, mycpu, slot, 
+                                  func, rnest, cs, ncs, cnt, snap, queued, fin, 
+                                  bsnap, alive, uaf, errs, pci, opx, iv, pa, 
+                                  hd, tl, old, cur, nx, cbc, isrt, en, ec, wc, 
+                                  res, gd, fc, dc, newc, cidef, cifl, cn, bk, 
+                                  regs, kk, gps, stack >>
+
+b_put(self) == /\ pc[self] = "b_put"
+               /\ Drained(self)
+               /\ acc' = Ev(self, "addret", (RefOf(bk[self])), (-1), "-", (mem[RefOf(bk[self])] - 1))
+               /\ uaf' = (uaf \/ Dead((RefOf(bk[self]))))
+               /\ mem' = [mem EXCEPT ![(RefOf(bk[self]))] = mem[RefOf(bk[self])] - 1]
+               /\ IF mem'[RefOf(bk[self])] # 0 /\ "noref" \notin Mut
+                     THEN /\ pc' = [pc EXCEPT ![self] = Head(stack[self]).pc]
+                          /\ stack' = [stack EXCEPT ![self] = Tail(stack[self])]
+                     ELSE /\ pc' = [pc EXCEPT ![self] = "b_free"]
+                          /\ stack' = stack
+               /\ UNCHANGED << sb, lock, fsleep, wloc, spur, wkind, crlist, 
+                               nhelp, started, cpulen, tcrd, mycpu, slot, func, 
+                               rnest, cs, ncs, cnt, snap, queued, fin, bsnap, 
+                               alive, errs, pci, opx, iv, pa, hd, tl, old, cur, 
+                               nx, cbc, isrt, en, ec, wc, res, gd, fc, dc, 
+                               newc, cidef, cifl, cn, bk, regs, kk, gps >>
+
+b_free(self) == /\ pc[self] = "b_free"
+                /\ IF alive[bk[self]] # "yes"
+                      THEN /\ errs' = (errs \cup {"completion freed twice"})
+                      ELSE /\ TRUE
+                           /\ errs' = errs
+                /\ alive' = [alive EXCEPT ![bk[self]] = "freed"]
+                /\ acc' = Ev(self, "free", bk[self], "-", "-", "-")
+                /\ pc' = [pc EXCEPT ![self] = Head(stack[self]).pc]
+                /\ stack' = [stack EXCEPT ![self] = Tail(stack[self])]
+                /\ UNCHANGED << mem, sb, lock, fsleep, wloc, spur, wkind, 
+                                crlist, nhelp, started, cpulen, tcrd, mycpu, 
+                                slot, func, rnest, cs, ncs, cnt, snap, queued, 
+                                fin, bsnap, uaf, pci, opx, iv, pa, hd, tl, old, 
+                                cur, nx, cbc, isrt, en, ec, wc, res, gd, fc, 
+                                dc, newc, cidef, cifl, cn, bk, regs, kk, gps >>
+
+barrier(self) == b_lock(self) \/ b_ref(self) \/ b_cnt(self) \/ b_loop(self)
+                    \/ b_unl(self) \/ b_dec(self) \/ b_mb(self)
+                    \/ b_ldc(self) \/ cw_mb(self) \/ cw_ld(self)
+                    \/ cw_fwait(self) \/ cw_fwoke(self) \/ b_put(self)
+                    \/ b_free(self)
+
+bf_lock(self) == /\ pc[self] = "bf_lock"
+                 /\ Drained(self) /\ lock = "free"
+                 /\ lock' = self
+                 /\ acc' = Ev(self, "lock", CM, "-", "-", "-")
+                 /\ regs' = [regs EXCEPT ![self] = crlist]
+                 /\ kk' = [kk EXCEPT ![self] = 1]
+                 /\ pc' = [pc EXCEPT ![self] = "bf_or"]
+                 /\ UNCHANGED << mem, sb, fsleep, wloc, spur, wkind, crlist, 
+                                 nhelp, started, cpulen, tcrd, mycpu, slot, 
+                                 func, rnest, cs, ncs, cnt, snap, queued, fin, 
+                                 bsnap, alive, uaf, errs, pci, opx, iv, pa, hd, 
+                                 tl, old, cur, nx, cbc, isrt, en, ec, wc, res, 
+                                 gd, fc, dc, newc, cidef, cifl, cn, bk, gps, 
+                                 stack >>
+
+bf_or(self) == /\ pc[self] = "bf_or"
+               /\ IF kk[self] <= Len(regs[self])
+                     THEN /\ Drained(self)
+                          /\ acc' = Ev(self, "or", (FlagsOf(regs[self][kk[self]])), PAUSE, "-", (SetB(mem[FlagsOf(regs[self][kk[self]])], PAUSE)))
+                          /\ uaf' = (uaf \/ Dead((FlagsOf(regs[self][kk[self]]))))
+                          /\ mem' = [mem EXCEPT ![(FlagsOf(regs[self][kk[self]]))] = SetB(mem[FlagsOf(regs[self][kk[self]])], PAUSE)]
+                          /\ wc' = [wc EXCEPT ![self] = regs[self][kk[self]]]
+                          /\ kk' = [kk EXCEPT ![self] = kk[self] + 1]
+                          /\ stack' = [stack EXCEPT ![self] = << [ procedure |->  "wake",
+                                                                   pc        |->  "bf_or" ] >>
+                                                               \o stack[self]]
+                          /\ pc' = [pc EXCEPT ![self] = "wk_fl"]
+                     ELSE /\ pc' = [pc EXCEPT ![self] = "bf_w0"]
+                          /\ UNCHANGED << mem, acc, uaf, wc, kk, stack >>
+               /\ UNCHANGED << sb, lock, fsleep, wloc, spur, wkind, crlist, 
+                               nhelp, started, cpulen, tcrd, mycpu, slot, func, 
+                               rnest, cs, ncs, cnt, snap, queued, fin, bsnap, 
+                               alive, errs, pci, opx, iv, pa, hd, tl, old, cur, 
+                               nx, cbc, isrt, en, ec, res, gd, fc, dc, newc, 
+                               cidef, cifl, cn, bk, regs, gps >>
+
+bf_w0(self) == /\ pc[self] = "bf_w0"
+               /\ kk' = [kk EXCEPT ![self] = 1]
+               /\ pc' = [pc EXCEPT ![self] = "bf_wait"]
+               /\ UNCHANGED << mem, sb, lock, acc, fsleep, wloc, spur, wkind, 
+                               crlist, nhelp, started, cpulen, tcrd, mycpu, 
+                               slot, func, rnest, cs, ncs, cnt, snap, queued, 
+                               fin, bsnap, alive, uaf, errs, pci, opx, iv, pa, 
+                               hd, tl, old, cur, nx, cbc, isrt, en, ec, wc, 
+                               res, gd, fc, dc, newc, cidef, cifl, cn, bk, 
+                               regs, gps, stack >>
+
+bf_wait(self) == /\ pc[self] = "bf_wait"
+                 /\ IF kk[self] <= Len(regs[self])
+                       THEN /\ uaf' = (uaf \/ Dead((FlagsOf(regs[self][kk[self]]))))
+                            /\ acc' = Ev(self, "ld", (FlagsOf(regs[self][kk[self]])), "-", "-", Rd(self, (FlagsOf(regs[self][kk[self]]))))
+                            /\ IF Has(Rd(self, FlagsOf(regs[self][kk[self]])), PAUSED)
+                                  THEN /\ kk' = [kk EXCEPT ![self] = kk[self] + 1]
+                                  ELSE /\ TRUE
+                                       /\ kk' = kk
+                            /\ pc' = [pc EXCEPT ![self] = "bf_wait"]
+                            /\ stack' = stack
+                       ELSE /\ pc' = [pc EXCEPT ![self] = Head(stack[self]).pc]
+                            /\ stack' = [stack EXCEPT ![self] = Tail(stack[self])]
+                            /\ UNCHANGED << acc, uaf, kk >>
+                 /\ UNCHANGED << mem, sb, lock, fsleep, wloc, spur, wkind, 
+                                 crlist, nhelp, started, cpulen, tcrd, mycpu, 
+                                 slot, func, rnest, cs, ncs, cnt, snap, queued, 
+                                 fin, bsnap, alive, errs, pci, opx, iv, pa, hd, 
+                                 tl, old, cur, nx, cbc, isrt, en, ec, wc, res, 
+                                 gd, fc, dc, newc, cidef, cifl, cn, bk, regs, 
+                                 gps >>
+
+before_fork(self) == bf_lock(self) \/ bf_or(self) \/ bf_w0(self)
+                        \/ bf_wait(self)
+
+af_0(self) == /\ pc[self] = "af_0"
+              /\ regs' = [regs EXCEPT ![self] = crlist]
+              /\ kk' = [kk EXCEPT ![self] = 1]
+              /\ pc' = [pc EXCEPT ![self] = "af_and"]
+              /\ UNCHANGED << mem, sb, lock, acc, fsleep, wloc, spur, wkind, 
+                              crlist, nhelp, started, cpulen, tcrd, mycpu, 
+                              slot, func, rnest, cs, ncs, cnt, snap, queued, 
+                              fin, bsnap, alive, uaf, errs, pci, opx, iv, pa, 
+                              hd, tl, old, cur, nx, cbc, isrt, en, ec, wc, res, 
+                              gd, fc, dc, newc, cidef, cifl, cn, bk, gps, 
+                              stack >>
+
+af_and(self) == /\ pc[self] = "af_and"
+                /\ IF kk[self] <= Len(regs[self])
+                      THEN /\ Drained(self)
+                           /\ acc' = Ev(self, "and", (FlagsOf(regs[self][kk[self]])), "xffffffef", "-", (ClrB(mem[FlagsOf(regs[self][kk[self]])], PAUSE)))
+                           /\ uaf' = (uaf \/ Dead((FlagsOf(regs[self][kk[self]]))))
+                           /\ mem' = [mem EXCEPT ![(FlagsOf(regs[self][kk[self]]))] = ClrB(mem[FlagsOf(regs[self][kk[self]])], PAUSE)]
+                           /\ kk' = [kk EXCEPT ![self] = kk[self] + 1]
+                           /\ pc' = [pc EXCEPT ![self] = "af_and"]
+                      ELSE /\ pc' = [pc EXCEPT ![self] = "af_w0"]
+                           /\ UNCHANGED << mem, acc, uaf, kk >>
+                /\ UNCHANGED << sb, lock, fsleep, wloc, spur, wkind, crlist, 
+                                nhelp, started, cpulen, tcrd, mycpu, slot, 
+                                func, rnest, cs, ncs, cnt, snap, queued, fin, 
+                                bsnap, alive, errs, pci, opx, iv, pa, hd, tl, 
+                                old, cur, nx, cbc, isrt, en, ec, wc, res, gd, 
+                                fc, dc, newc, cidef, cifl, cn, bk, regs, gps, 
+                                stack >>
+
+af_w0(self) == /\ pc[self] = "af_w0"
+               /\ kk' = [kk EXCEPT ![self] = 1]
+               /\ pc' = [pc EXCEPT ![self] = "af_wait"]
+               /\ UNCHANGED << mem, sb, lock, acc, fsleep, wloc, spur, wkind, 
+                               crlist, nhelp, started, cpulen, tcrd, mycpu, 
+                               slot, func, rnest, cs, ncs, cnt, snap, queued, 
+                               fin, bsnap, alive, uaf, errs, pci, opx, iv, pa, 
+                               hd, tl, old, cur, nx, cbc, isrt, en, ec, wc, 
+                               res, gd, fc, dc, newc, cidef, cifl, cn, bk, 
+                               regs, gps, stack >>
+
+af_wait(self) == /\ pc[self] = "af_wait"
+                 /\ IF kk[self] <= Len(regs[self])
+                       THEN /\ uaf' = (uaf \/ Dead((FlagsOf(regs[self][kk[self]]))))
+                            /\ acc' = Ev(self, "ld", (FlagsOf(regs[self][kk[self]])), "-", "-", Rd(self, (FlagsOf(regs[self][kk[self]]))))
+                            /\ IF ~Has(Rd(self, FlagsOf(regs[self][kk[self]])), PAUSED)
+                                  THEN /\ kk' = [kk EXCEPT ![self] = kk[self] + 1]
+                                  ELSE /\ TRUE
+                                       /\ kk' = kk
+                            /\ pc' = [pc EXCEPT ![self] = "af_wait"]
+                       ELSE /\ pc' = [pc EXCEPT ![self] = "af_unl"]
+                            /\ UNCHANGED << acc, uaf, kk >>
+                 /\ UNCHANGED << mem, sb, lock, fsleep, wloc, spur, wkind, 
+                                 crlist, nhelp, started, cpulen, tcrd, mycpu, 
+                                 slot, func, rnest, cs, ncs, cnt, snap, queued, 
+                                 fin, bsnap, alive, errs, pci, opx, iv, pa, hd, 
+                                 tl, old, cur, nx, cbc, isrt, en, ec, wc, res, 
+                                 gd, fc, dc, newc, cidef, cifl, cn, bk, regs, 
+                                 gps, stack >>
+
+af_unl(self) == /\ pc[self] = "af_unl"
+                /\ Drained(self)
+                /\ lock' = "free"
+                /\ acc' = Ev(self, "unlock", CM, "-", "-", "-")
+                /\ pc' = [pc EXCEPT ![self] = Head(stack[self]).pc]
+                /\ stack' = [stack EXCEPT ![self] = Tail(stack[self])]
+                /\ UNCHANGED << mem, sb, fsleep, wloc, spur, wkind, crlist, 
+                                nhelp, started, cpulen, tcrd, mycpu, slot, 
+                                func, rnest, cs, ncs, cnt, snap, queued, fin, 
+                                bsnap, alive, uaf, errs, pci, opx, iv, pa, hd, 
+                                tl, old, cur, nx, cbc, isrt, en, ec, wc, res, 
+                                gd, fc, dc, newc, cidef, cifl, cn, bk, regs, 
+                                kk, gps >>
+
+after_fork_parent(self) == af_0(self) \/ af_and(self) \/ af_w0(self)
+                              \/ af_wait(self) \/ af_unl(self)
+
+fl(self) == /\ pc[self] = "fl"
+            /\ sb[FlOf[self]] # <<>>
+            /\ /\ acc' = IF Tracing THEN [k |-> acc.k + 1, t |-> FlOf[self], op |-> "flush", var |-> Head(sb[FlOf[self]])[1],
+                                        a |-> Head(sb[FlOf[self]])[2], b |-> "-", r |-> "-"] ELSE acc
+               /\ mem' = [mem EXCEPT ![Head(sb[FlOf[self]])[1]] = Head(sb[FlOf[self]])[2]]
+               /\ sb' = [sb EXCEPT ![FlOf[self]] = Tail(sb[FlOf[self]])]
+            /\ pc' = [pc EXCEPT ![self] = "fl"]
+            /\ UNCHANGED << lock, fsleep, wloc, spur, wkind, crlist, nhelp, 
+                            started, cpulen, tcrd, mycpu, slot, func, rnest, 
+                            cs, ncs, cnt, snap, queued, fin, bsnap, alive, uaf, 
+                            errs, pci, opx, iv, pa, hd, tl, old, cur, nx, cbc, 
+                            isrt, en, ec, wc, res, gd, fc, dc, newc, cidef, 
+                            cifl, cn, bk, regs, kk, gps, stack >>
+
+flusher(self) == fl(self)
+
+sw(self) == /\ pc[self] = "sw"
+            /\ spur > 0
+            /\ \E p \in fsleep:
+                 \E k \in {"SPURIOUS", "EINTR"}:
+                   /\ fsleep' = fsleep \ {p}
+                   /\ wkind' = [wkind EXCEPT ![p] = k]
+                   /\ spur' = spur - 1
+            /\ pc' = [pc EXCEPT ![self] = "sw"]
+            /\ UNCHANGED << mem, sb, lock, acc, wloc, crlist, nhelp, started, 
+                            cpulen, tcrd, mycpu, slot, func, rnest, cs, ncs, 
+                            cnt, snap, queued, fin, bsnap, alive, uaf, errs, 
+                            pci, opx, iv, pa, hd, tl, old, cur, nx, cbc, isrt, 
+                            en, ec, wc, res, gd, fc, dc, newc, cidef, cifl, cn, 
+                            bk, regs, kk, gps, stack >>
+
+spurw(self) == sw(self)
+
+h_idle(self) == /\ pc[self] = "h_idle"
+                /\ started[self]
+                /\ pc' = [pc EXCEPT ![self] = "h_flags"]
+                /\ UNCHANGED << mem, sb, lock, acc, fsleep, wloc, spur, wkind, 
+                                crlist, nhelp, started, cpulen, tcrd, mycpu, 
+                                slot, func, rnest, cs, ncs, cnt, snap, queued, 
+                                fin, bsnap, alive, uaf, errs, pci, opx, iv, pa, 
+                                hd, tl, old, cur, nx, cbc, isrt, en, ec, wc, 
+                                res, gd, fc, dc, newc, cidef, cifl, cn, bk, 
+                                regs, kk, gps, stack >>
+
+h_flags(self) == /\ pc[self] = "h_flags"
+                 /\ uaf' = (uaf \/ Dead((FlagsOf(CrOf[self]))))
+                 /\ acc' = Ev(self, "ld", (FlagsOf(CrOf[self])), "-", "-", Rd(self, (FlagsOf(CrOf[self]))))
+                 /\ isrt' = [isrt EXCEPT ![self] = Has(Rd(self, FlagsOf(CrOf[self])), RT)]
+                 /\ tcrd' = [tcrd EXCEPT ![self] = CrOf[self]]
+                 /\ IF Has(Rd(self, FlagsOf(CrOf[self])), RT)
+                       THEN /\ pc' = [pc EXCEPT ![self] = "h_top"]
+                       ELSE /\ pc' = [pc EXCEPT ![self] = "h_dec0"]
+                 /\ UNCHANGED << mem, sb, lock, fsleep, wloc, spur, wkind, 
+                                 crlist, nhelp, started, cpulen, mycpu, slot, 
+                                 func, rnest, cs, ncs, cnt, snap, queued, fin, 
+                                 bsnap, alive, errs, pci, opx, iv, pa, hd, tl, 
+                                 old, cur, nx, cbc, en, ec, wc, res, gd, fc, 
+                                 dc, newc, cidef, cifl, cn, bk, regs, kk, gps, 
+                                 stack >>
+
+h_dec0(self) == /\ pc[self] = "h_dec0"
+                /\ Drained(self)
+                /\ acc' = Ev(self, "dec", (FutexOf(CrOf[self])), 1, "-", (mem[FutexOf(CrOf[self])] - 1))
+                /\ uaf' = (uaf \/ Dead((FutexOf(CrOf[self]))))
+                /\ mem' = [mem EXCEPT ![(FutexOf(CrOf[self]))] = mem[FutexOf(CrOf[self])] - 1]
+                /\ pc' = [pc EXCEPT ![self] = "h_mb0"]
+                /\ UNCHANGED << sb, lock, fsleep, wloc, spur, wkind, crlist, 
+                                nhelp, started, cpulen, tcrd, mycpu, slot, 
+                                func, rnest, cs, ncs, cnt, snap, queued, fin, 
+                                bsnap, alive, errs, pci, opx, iv, pa, hd, tl, 
+                                old, cur, nx, cbc, isrt, en, ec, wc, res, gd, 
+                                fc, dc, newc, cidef, cifl, cn, bk, regs, kk, 
+                                gps, stack >>
+
+h_mb0(self) == /\ pc[self] = "h_mb0"
+               /\ Drained(self)
+               /\ acc' = Ev(self, "mb", "-", "-", "-", "-")
+               /\ pc' = [pc EXCEPT ![self] = "h_top"]
+               /\ UNCHANGED << mem, sb, lock, fsleep, wloc, spur, wkind, 
+                               crlist, nhelp, started, cpulen, tcrd, mycpu, 
+                               slot, func, rnest, cs, ncs, cnt, snap, queued, 
+                               fin, bsnap, alive, uaf, errs, pci, opx, iv, pa, 
+                               hd, tl, old, cur, nx, cbc, isrt, en, ec, wc, 
+                               res, gd, fc, dc, newc, cidef, cifl, cn, bk, 
+                               regs, kk, gps, stack >>
+
+h_top(self) == /\ pc[self] = "h_top"
+               /\ uaf' = (uaf \/ Dead((FlagsOf(CrOf[self]))))
+               /\ acc' = Ev(self, "ld", (FlagsOf(CrOf[self])), "-", "-", Rd(self, (FlagsOf(CrOf[self]))))
+               /\ IF ~Has(Rd(self, FlagsOf(CrOf[self])), PAUSE)
+                     THEN /\ pc' = [pc EXCEPT ![self] = "s_e1"]
+                     ELSE /\ pc' = [pc EXCEPT ![self] = "p_or"]
+               /\ UNCHANGED << mem, sb, lock, fsleep, wloc, spur, wkind, 
+                               crlist, nhelp, started, cpulen, tcrd, mycpu, 
+                               slot, func, rnest, cs, ncs, cnt, snap, queued, 
+                               fin, bsnap, alive, errs, pci, opx, iv, pa, hd, 
+                               tl, old, cur, nx, cbc, isrt, en, ec, wc, res, 
+                               gd, fc, dc, newc, cidef, cifl, cn, bk, regs, kk, 
+                               gps, stack >>
+
+p_or(self) == /\ pc[self] = "p_or"
+              /\ Drained(self)
+              /\ acc' = Ev(self, "or", (FlagsOf(CrOf[self])), PAUSED, "-", (SetB(mem[FlagsOf(CrOf[self])], PAUSED)))
+              /\ uaf' = (uaf \/ Dead((FlagsOf(CrOf[self]))))
+              /\ mem' = [mem EXCEPT ![(FlagsOf(CrOf[self]))] = SetB(mem[FlagsOf(CrOf[self])], PAUSED)]
+              /\ pc' = [pc EXCEPT ![self] = "p_wait"]
+              /\ UNCHANGED << sb, lock, fsleep, wloc, spur, wkind, crlist, 
+                              nhelp, started, cpulen, tcrd, mycpu, slot, func, 
+                              rnest, cs, ncs, cnt, snap, queued, fin, bsnap, 
+                              alive, errs, pci, opx, iv, pa, hd, tl, old, cur, 
+                              nx, cbc, isrt, en, ec, wc, res, gd, fc, dc, newc, 
+                              cidef, cifl, cn, bk, regs, kk, gps, stack >>
+
+p_wait(self) == /\ pc[self] = "p_wait"
+                /\ uaf' = (uaf \/ Dead((FlagsOf(CrOf[self]))))
+                /\ acc' = Ev(self, "ld", (FlagsOf(CrOf[self])), "-", "-", Rd(self, (FlagsOf(CrOf[self]))))
+                /\ IF Has(Rd(self, FlagsOf(CrOf[self])), PAUSE)
+                      THEN /\ pc' = [pc EXCEPT ![self] = "p_wait"]
+                      ELSE /\ pc' = [pc EXCEPT ![self] = "p_and"]
+                /\ UNCHANGED << mem, sb, lock, fsleep, wloc, spur, wkind, 
+                                crlist, nhelp, started, cpulen, tcrd, mycpu, 
+                                slot, func, rnest, cs, ncs, cnt, snap, queued, 
+                                fin, bsnap, alive, errs, pci, opx, iv, pa, hd, 
+                                tl, old, cur, nx, cbc, isrt, en, ec, wc, res, 
+                                gd, fc, dc, newc, cidef, cifl, cn, bk, regs, 
+                                kk, gps, stack >>
+
+p_and(self) == /\ pc[self] = "p_and"
+               /\ Drained(self)
+               /\ acc' = Ev(self, "and", (FlagsOf(CrOf[self])), "xffffffdf", "-", (ClrB(mem[FlagsOf(CrOf[self])], PAUSED)))
+               /\ uaf' = (uaf \/ Dead((FlagsOf(CrOf[self]))))
+               /\ mem' = [mem EXCEPT ![(FlagsOf(CrOf[self]))] = ClrB(mem[FlagsOf(CrOf[self])], PAUSED)]
+               /\ pc' = [pc EXCEPT ![self] = "s_e1"]
+               /\ UNCHANGED << sb, lock, fsleep, wloc, spur, wkind, crlist, 
+                               nhelp, started, cpulen, tcrd, mycpu, slot, func, 
+                               rnest, cs, ncs, cnt, snap, queued, fin, bsnap, 
+                               alive, errs, pci, opx, iv, pa, hd, tl, old, cur, 
+                               nx, cbc, isrt, en, ec, wc, res, gd, fc, dc, 
+                               newc, cidef, cifl, cn, bk, regs, kk, gps, stack >>
+
+s_e1(self) == /\ pc[self] = "s_e1"
+              /\ uaf' = (uaf \/ Dead((NextOf(Hd(CrOf[self])))))
+              /\ acc' = Ev(self, "ld", (NextOf(Hd(CrOf[self]))), "-", "-", Rd(self, (NextOf(Hd(CrOf[self])))))
+              /\ IF Rd(self, NextOf(Hd(CrOf[self]))) # NULL
+                    THEN /\ IF "gpfirst" \in Mut
+                               THEN /\ pc' = [pc EXCEPT ![self] = "m_gp"]
+                               ELSE /\ pc' = [pc EXCEPT ![self] = "s_xh"]
+                    ELSE /\ pc' = [pc EXCEPT ![self] = "s_e2"]
+              /\ UNCHANGED << mem, sb, lock, fsleep, wloc, spur, wkind, crlist, 
+                              nhelp, started, cpulen, tcrd, mycpu, slot, func, 
+                              rnest, cs, ncs, cnt, snap, queued, fin, bsnap, 
+                              alive, errs, pci, opx, iv, pa, hd, tl, old, cur, 
+                              nx, cbc, isrt, en, ec, wc, res, gd, fc, dc, newc, 
+                              cidef, cifl, cn, bk, regs, kk, gps, stack >>
+
+s_e2(self) == /\ pc[self] = "s_e2"
+              /\ uaf' = (uaf \/ Dead((TailOf(CrOf[self]))))
+              /\ acc' = Ev(self, "ld", (TailOf(CrOf[self])), "-", "-", Rd(self, (TailOf(CrOf[self]))))
+              /\ IF Rd(self, TailOf(CrOf[self])) = Hd(CrOf[self])
+                    THEN /\ pc' = [pc EXCEPT ![self] = "h_stop"]
+                    ELSE /\ IF "gpfirst" \notin Mut
+                               THEN /\ pc' = [pc EXCEPT ![self] = "s_xh"]
+                               ELSE /\ pc' = [pc EXCEPT ![self] = "m_gp"]
+              /\ UNCHANGED << mem, sb, lock, fsleep, wloc, spur, wkind, crlist, 
+                              nhelp, started, cpulen, tcrd, mycpu, slot, func, 
+                              rnest, cs, ncs, cnt, snap, queued, fin, bsnap, 
+                              alive, errs, pci, opx, iv, pa, hd, tl, old, cur, 
+                              nx, cbc, isrt, en, ec, wc, res, gd, fc, dc, newc, 
+                              cidef, cifl, cn, bk, regs, kk, gps, stack >>
+
+m_gp(self) == /\ pc[self] = "m_gp"
+              /\ stack' = [stack EXCEPT ![self] = << [ procedure |->  "synchronize_rcu",
+                                                       pc        |->  "s_xh" ] >>
+                                                   \o stack[self]]
+              /\ pc' = [pc EXCEPT ![self] = "gp_b"]
+              /\ UNCHANGED << mem, sb, lock, acc, fsleep, wloc, spur, wkind, 
+                              crlist, nhelp, started, cpulen, tcrd, mycpu, 
+                              slot, func, rnest, cs, ncs, cnt, snap, queued, 
+                              fin, bsnap, alive, uaf, errs, pci, opx, iv, pa, 
+                              hd, tl, old, cur, nx, cbc, isrt, en, ec, wc, res, 
+                              gd, fc, dc, newc, cidef, cifl, cn, bk, regs, kk, 
+                              gps >>
+
+s_xh(self) == /\ pc[self] = "s_xh"
+              /\ Drained(self)
+              /\ hd' = [hd EXCEPT ![self] = mem[(NextOf(Hd(CrOf[self])))]]
+              /\ mem' = [mem EXCEPT ![(NextOf(Hd(CrOf[self])))] = NULL]
+              /\ uaf' = (uaf \/ Dead((NextOf(Hd(CrOf[self])))))
+              /\ acc' = Ev(self, "xchg", (NextOf(Hd(CrOf[self]))), NULL, "-", (hd'[self]))
+              /\ IF hd'[self] # NULL
+                    THEN /\ pc' = [pc EXCEPT ![self] = "s_mb"]
+                    ELSE /\ pc' = [pc EXCEPT ![self] = "s_lt"]
+              /\ UNCHANGED << sb, lock, fsleep, wloc, spur, wkind, crlist, 
+                              nhelp, started, cpulen, tcrd, mycpu, slot, func, 
+                              rnest, cs, ncs, cnt, snap, queued, fin, bsnap, 
+                              alive, errs, pci, opx, iv, pa, tl, old, cur, nx, 
+                              cbc, isrt, en, ec, wc, res, gd, fc, dc, newc, 
+                              cidef, cifl, cn, bk, regs, kk, gps, stack >>
+
+s_lt(self) == /\ pc[self] = "s_lt"
+              /\ uaf' = (uaf \/ Dead((TailOf(CrOf[self]))))
+              /\ acc' = Ev(self, "ld", (TailOf(CrOf[self])), "-", "-", Rd(self, (TailOf(CrOf[self]))))
+              /\ IF Rd(self, TailOf(CrOf[self])) = Hd(CrOf[self])
+                    THEN /\ pc' = [pc EXCEPT ![self] = "h_stop"]
+                    ELSE /\ pc' = [pc EXCEPT ![self] = "s_xh"]
+              /\ UNCHANGED << mem, sb, lock, fsleep, wloc, spur, wkind, crlist, 
+                              nhelp, started, cpulen, tcrd, mycpu, slot, func, 
+                              rnest, cs, ncs, cnt, snap, queued, fin, bsnap, 
+                              alive, errs, pci, opx, iv, pa, hd, tl, old, cur, 
+                              nx, cbc, isrt, en, ec, wc, res, gd, fc, dc, newc, 
+                              cidef, cifl, cn, bk, regs, kk, gps, stack >>
+
+s_mb(self) == /\ pc[self] = "s_mb"
+              /\ Drained(self)
+              /\ acc' = Ev(self, "mb", "-", "-", "-", "-")
+              /\ pc' = [pc EXCEPT ![self] = "s_xt"]
+              /\ UNCHANGED << mem, sb, lock, fsleep, wloc, spur, wkind, crlist, 
+                              nhelp, started, cpulen, tcrd, mycpu, slot, func, 
+                              rnest, cs, ncs, cnt, snap, queued, fin, bsnap, 
+                              alive, uaf, errs, pci, opx, iv, pa, hd, tl, old, 
+                              cur, nx, cbc, isrt, en, ec, wc, res, gd, fc, dc, 
+                              newc, cidef, cifl, cn, bk, regs, kk, gps, stack >>
+
+s_xt(self) == /\ pc[self] = "s_xt"
+              /\ Drained(self)
+              /\ tl' = [tl EXCEPT ![self] = mem[(TailOf(CrOf[self]))]]
+              /\ mem' = [mem EXCEPT ![(TailOf(CrOf[self]))] = Hd(CrOf[self])]
+              /\ uaf' = (uaf \/ Dead((TailOf(CrOf[self]))))
+              /\ acc' = Ev(self, "xchg", (TailOf(CrOf[self])), (Hd(CrOf[self])), "-", (tl'[self]))
+              /\ cur' = [cur EXCEPT ![self] = hd[self]]
+              /\ cbc' = [cbc EXCEPT ![self] = 0]
+              /\ IF "nogp" \in Mut \/ "gpfirst" \in Mut
+                    THEN /\ pc' = [pc EXCEPT ![self] = "it_ld"]
+                    ELSE /\ pc' = [pc EXCEPT ![self] = "h_gp"]
+              /\ UNCHANGED << sb, lock, fsleep, wloc, spur, wkind, crlist, 
+                              nhelp, started, cpulen, tcrd, mycpu, slot, func, 
+                              rnest, cs, ncs, cnt, snap, queued, fin, bsnap, 
+                              alive, errs, pci, opx, iv, pa, hd, old, nx, isrt, 
+                              en, ec, wc, res, gd, fc, dc, newc, cidef, cifl, 
+                              cn, bk, regs, kk, gps, stack >>
+
+h_gp(self) == /\ pc[self] = "h_gp"
+              /\ stack' = [stack EXCEPT ![self] = << [ procedure |->  "synchronize_rcu",
+                                                       pc        |->  "it_ld" ] >>
+                                                   \o stack[self]]
+              /\ pc' = [pc EXCEPT ![self] = "gp_b"]
+              /\ UNCHANGED << mem, sb, lock, acc, fsleep, wloc, spur, wkind, 
+                              crlist, nhelp, started, cpulen, tcrd, mycpu, 
+                              slot, func, rnest, cs, ncs, cnt, snap, queued, 
+                              fin, bsnap, alive, uaf, errs, pci, opx, iv, pa, 
+                              hd, tl, old, cur, nx, cbc, isrt, en, ec, wc, res, 
+                              gd, fc, dc, newc, cidef, cifl, cn, bk, regs, kk, 
+                              gps >>
+
+it_ld(self) == /\ pc[self] = "it_ld"
+               /\ nx' = [nx EXCEPT ![self] = Rd(self, (NextOf(cur[self])))]
+               /\ uaf' = (uaf \/ Dead((NextOf(cur[self]))))
+               /\ acc' = Ev(self, "ld", (NextOf(cur[self])), "-", "-", Rd(self, (NextOf(cur[self]))))
+               /\ IF nx'[self] = NULL /\ cur[self] # tl[self]
+                     THEN /\ pc' = [pc EXCEPT ![self] = "it_ld"]
+                     ELSE /\ pc' = [pc EXCEPT ![self] = "it_inv"]
+               /\ UNCHANGED << mem, sb, lock, fsleep, wloc, spur, wkind, 
+                               crlist, nhelp, started, cpulen, tcrd, mycpu, 
+                               slot, func, rnest, cs, ncs, cnt, snap, queued, 
+                               fin, bsnap, alive, errs, pci, opx, iv, pa, hd, 
+                               tl, old, cur, cbc, isrt, en, ec, wc, res, gd, 
+                               fc, dc, newc, cidef, cifl, cn, bk, regs, kk, 
+                               gps, stack >>
+
+it_re(self) == /\ pc[self] = "it_re"
+               /\ cn' = [cn EXCEPT ![self] = Re[cur[self]]]
+               /\ snap' = [snap EXCEPT ![Re[cur[self]]] = cs]
+               /\ acc' = Ev(self, "call", Re[cur[self]], "call", "-", "-")
+               /\ stack' = [stack EXCEPT ![self] = << [ procedure |->  "call_rcu",
+                                                        pc        |->  "it_rr" ] >>
+                                                    \o stack[self]]
+               /\ pc' = [pc EXCEPT ![self] = "cr_lock"]
+               /\ UNCHANGED << mem, sb, lock, fsleep, wloc, spur, wkind, 
+                               crlist, nhelp, started, cpulen, tcrd, mycpu, 
+                               slot, func, rnest, cs, ncs, cnt, queued, fin, 
+                               bsnap, alive, uaf, errs, pci, opx, iv, pa, hd, 
+                               tl, old, cur, nx, cbc, isrt, en, ec, wc, res, 
+                               gd, fc, dc, newc, cidef, cifl, bk, regs, kk, 
+                               gps >>
+
+it_rr(self) == /\ pc[self] = "it_rr"
+               /\ queued' = (queued \cup {cn[self]})
+               /\ acc' = Ev(self, "ret", "-", "-", "-", "-")
+               /\ pc' = [pc EXCEPT ![self] = "it_end"]
+               /\ UNCHANGED << mem, sb, lock, fsleep, wloc, spur, wkind, 
+                               crlist, nhelp, started, cpulen, tcrd, mycpu, 
+                               slot, func, rnest, cs, ncs, cnt, snap, fin, 
+                               bsnap, alive, uaf, errs, pci, opx, iv, pa, hd, 
+                               tl, old, cur, nx, cbc, isrt, en, ec, wc, res, 
+                               gd, fc, dc, newc, cidef, cifl, cn, bk, regs, kk, 
+                               gps, stack >>
+
+it_end(self) == /\ pc[self] = "it_end"
+                /\ fin' = (fin \cup {cur[self]})
+                /\ acc' = Ev(self, "cbend", cur[self], "-", "-", "-")
+                /\ cbc' = [cbc EXCEPT ![self] = cbc[self] + 1]
+                /\ cur' = [cur EXCEPT ![self] = nx[self]]
+                /\ IF nx[self] # NULL
+                      THEN /\ pc' = [pc EXCEPT ![self] = "it_ld"]
+                      ELSE /\ pc' = [pc EXCEPT ![self] = "h_sub"]
+                /\ UNCHANGED << mem, sb, lock, fsleep, wloc, spur, wkind, 
+                                crlist, nhelp, started, cpulen, tcrd, mycpu, 
+                                slot, func, rnest, cs, ncs, cnt, snap, queued, 
+                                bsnap, alive, uaf, errs, pci, opx, iv, pa, hd, 
+                                tl, old, nx, isrt, en, ec, wc, res, gd, fc, dc, 
+                                newc, cidef, cifl, cn, bk, regs, kk, gps, 
+                                stack >>
+
+it_inv(self) == /\ pc[self] = "it_inv"
+                /\ IF cur[self] \in Works
+                      THEN /\ IF func[cur[self]] # "barrier_complete"
+                                 THEN /\ errs' = (errs \cup {"RightArg"})
+                                 ELSE /\ TRUE
+                                      /\ errs' = errs
+                           /\ bk' = [bk EXCEPT ![self] = WComp[cur[self]]]
+                           /\ stack' = [stack EXCEPT ![self] = << [ procedure |->  "barrier_complete",
+                                                                    pc        |->  "it_nxt" ] >>
+                                                                \o stack[self]]
+                           /\ pc' = [pc EXCEPT ![self] = "bc_sub"]
+                           /\ UNCHANGED << acc, cnt >>
+                      ELSE /\ IF cnt[cur[self]] >= 1
+                                 THEN /\ errs' = (errs \cup {"AtMostOnce"})
+                                 ELSE /\ IF StillOpen(snap[cur[self]])
+                                            THEN /\ errs' = (errs \cup {"AfterGP"})
+                                            ELSE /\ IF func[cur[self]] # FName(cur[self])
+                                                       THEN /\ errs' = (errs \cup {"RightArg"})
+                                                       ELSE /\ TRUE
+                                                            /\ errs' = errs
+                           /\ cnt' = [cnt EXCEPT ![cur[self]] = cnt[cur[self]] + 1]
+                           /\ acc' = Ev(self, "cb", cur[self], func[cur[self]], "-", "-")
+                           /\ IF Re[cur[self]] = "-"
+                                 THEN /\ pc' = [pc EXCEPT ![self] = "it_end"]
+                                 ELSE /\ pc' = [pc EXCEPT ![self] = "it_re"]
+                           /\ UNCHANGED << bk, stack >>
+                /\ UNCHANGED << mem, sb, lock, fsleep, wloc, spur, wkind, 
+                                crlist, nhelp, started, cpulen, tcrd, mycpu, 
+                                slot, func, rnest, cs, ncs, snap, queued, fin, 
+                                bsnap, alive, uaf, pci, opx, iv, pa, hd, tl, 
+                                old, cur, nx, cbc, isrt, en, ec, wc, res, gd, 
+                                fc, dc, newc, cidef, cifl, cn, regs, kk, gps >>
+
+it_nxt(self) == /\ pc[self] = "it_nxt"
+                /\ cbc' = [cbc EXCEPT ![self] = cbc[self] + 1]
+                /\ cur' = [cur EXCEPT ![self] = nx[self]]
+                /\ IF nx[self] # NULL
+                      THEN /\ pc' = [pc EXCEPT ![self] = "it_ld"]
+                      ELSE /\ pc' = [pc EXCEPT ![self] = "h_sub"]
+                /\ UNCHANGED << mem, sb, lock, acc, fsleep, wloc, spur, wkind, 
+                                crlist, nhelp, started, cpulen, tcrd, mycpu, 
+                                slot, func, rnest, cs, ncs, cnt, snap, queued, 
+                                fin, bsnap, alive, uaf, errs, pci, opx, iv, pa, 
+                                hd, tl, old, nx, isrt, en, ec, wc, res, gd, fc, 
+                                dc, newc, cidef, cifl, cn, bk, regs, kk, gps, 
+                                stack >>
+
+h_sub(self) == /\ pc[self] = "h_sub"
+               /\ Drained(self)
+               /\ acc' = Ev(self, "add", (QlenOf(CrOf[self])), (-cbc[self]), "-", (mem[QlenOf(CrOf[self])] - cbc[self]))
+               /\ uaf' = (uaf \/ Dead((QlenOf(CrOf[self]))))
+               /\ mem' = [mem EXCEPT ![(QlenOf(CrOf[self]))] = mem[QlenOf(CrOf[self])] - cbc[self]]
+               /\ pc' = [pc EXCEPT ![self] = "h_stop"]
+               /\ UNCHANGED << sb, lock, fsleep, wloc, spur, wkind, crlist, 
+                               nhelp, started, cpulen, tcrd, mycpu, slot, func, 
+                               rnest, cs, ncs, cnt, snap, queued, fin, bsnap, 
+                               alive, errs, pci, opx, iv, pa, hd, tl, old, cur, 
+                               nx, cbc, isrt, en, ec, wc, res, gd, fc, dc, 
+                               newc, cidef, cifl, cn, bk, regs, kk, gps, stack >>
+
+h_stop(self) == /\ pc[self] = "h_stop"
+                /\ uaf' = (uaf \/ Dead((FlagsOf(CrOf[self]))))
+                /\ acc' = Ev(self, "ld", (FlagsOf(CrOf[self])), "-", "-", Rd(self, (FlagsOf(CrOf[self]))))
+                /\ hd' = [hd EXCEPT ![self] = NULL]
+                /\ tl' = [tl EXCEPT ![self] = NULL]
+                /\ cur' = [cur EXCEPT ![self] = NULL]
+                /\ nx' = [nx EXCEPT ![self] = NULL]
+                /\ cbc' = [cbc EXCEPT ![self] = 0]
+                /\ IF Has(Rd(self, FlagsOf(CrOf[self])), STOP)
+                      THEN /\ IF isrt[self]
+                                 THEN /\ pc' = [pc EXCEPT ![self] = "o_or"]
+                                 ELSE /\ pc' = [pc EXCEPT ![self] = "o_mb"]
+                      ELSE /\ IF isrt[self]
+                                 THEN /\ pc' = [pc EXCEPT ![self] = "h_top"]
+                                 ELSE /\ pc' = [pc EXCEPT ![self] = "h_e1"]
+                /\ UNCHANGED << mem, sb, lock, fsleep, wloc, spur, wkind, 
+                                crlist, nhelp, started, cpulen, tcrd, mycpu, 
+                                slot, func, rnest, cs, ncs, cnt, snap, queued, 
+                                fin, bsnap, alive, errs, pci, opx, iv, pa, old, 
+                                isrt, en, ec, wc, res, gd, fc, dc, newc, cidef, 
+                                cifl, cn, bk, regs, kk, gps, stack >>
+
+h_e1(self) == /\ pc[self] = "h_e1"
+              /\ uaf' = (uaf \/ Dead((NextOf(Hd(CrOf[self])))))
+              /\ acc' = Ev(self, "ld", (NextOf(Hd(CrOf[self]))), "-", "-", Rd(self, (NextOf(Hd(CrOf[self])))))
+              /\ IF Rd(self, NextOf(Hd(CrOf[self]))) # NULL
+                    THEN /\ pc' = [pc EXCEPT ![self] = "h_top"]
+                    ELSE /\ pc' = [pc EXCEPT ![self] = "h_e2"]
+              /\ UNCHANGED << mem, sb, lock, fsleep, wloc, spur, wkind, crlist, 
+                              nhelp, started, cpulen, tcrd, mycpu, slot, func, 
+                              rnest, cs, ncs, cnt, snap, queued, fin, bsnap, 
+                              alive, errs, pci, opx, iv, pa, hd, tl, old, cur, 
+                              nx, cbc, isrt, en, ec, wc, res, gd, fc, dc, newc, 
+                              cidef, cifl, cn, bk, regs, kk, gps, stack >>
+
+h_e2(self) == /\ pc[self] = "h_e2"
+              /\ uaf' = (uaf \/ Dead((TailOf(CrOf[self]))))
+              /\ acc' = Ev(self, "ld", (TailOf(CrOf[self])), "-", "-", Rd(self, (TailOf(CrOf[self]))))
+              /\ IF Rd(self, TailOf(CrOf[self])) # Hd(CrOf[self])
+                    THEN /\ pc' = [pc EXCEPT ![self] = "h_top"]
+                    ELSE /\ pc' = [pc EXCEPT ![self] = "w_mb"]
+              /\ UNCHANGED << mem, sb, lock, fsleep, wloc, spur, wkind, crlist, 
+                              nhelp, started, cpulen, tcrd, mycpu, slot, func, 
+                              rnest, cs, ncs, cnt, snap, queued, fin, bsnap, 
+                              alive, errs, pci, opx, iv, pa, hd, tl, old, cur, 
+                              nx, cbc, isrt, en, ec, wc, res, gd, fc, dc, newc, 
+                              cidef, cifl, cn, bk, regs, kk, gps, stack >>
+
+w_mb(self) == /\ pc[self] = "w_mb"
+              /\ Drained(self)
+              /\ acc' = Ev(self, "mb", "-", "-", "-", "-")
+              /\ pc' = [pc EXCEPT ![self] = "w_ld"]
+              /\ UNCHANGED << mem, sb, lock, fsleep, wloc, spur, wkind, crlist, 
+                              nhelp, started, cpulen, tcrd, mycpu, slot, func, 
+                              rnest, cs, ncs, cnt, snap, queued, fin, bsnap, 
+                              alive, uaf, errs, pci, opx, iv, pa, hd, tl, old, 
+                              cur, nx, cbc, isrt, en, ec, wc, res, gd, fc, dc, 
+                              newc, cidef, cifl, cn, bk, regs, kk, gps, stack >>
+
+w_ld(self) == /\ pc[self] = "w_ld"
+              /\ uaf' = (uaf \/ Dead((FutexOf(CrOf[self]))))
+              /\ acc' = Ev(self, "ld", (FutexOf(CrOf[self])), "-", "-", Rd(self, (FutexOf(CrOf[self]))))
+              /\ IF Rd(self, FutexOf(CrOf[self])) # -1
+                    THEN /\ pc' = [pc EXCEPT ![self] = "w_dec"]
+                    ELSE /\ pc' = [pc EXCEPT ![self] = "w_fwait"]
+              /\ UNCHANGED << mem, sb, lock, fsleep, wloc, spur, wkind, crlist, 
+                              nhelp, started, cpulen, tcrd, mycpu, slot, func, 
+                              rnest, cs, ncs, cnt, snap, queued, fin, bsnap, 
+                              alive, errs, pci, opx, iv, pa, hd, tl, old, cur, 
+                              nx, cbc, isrt, en, ec, wc, res, gd, fc, dc, newc, 
+                              cidef, cifl, cn, bk, regs, kk, gps, stack >>
+
+w_fwait(self) == /\ pc[self] = "w_fwait"
+                 /\ Drained(self)
+                 /\ uaf' = (uaf \/ Dead(FutexOf(CrOf[self])))
+                 /\ IF mem[FutexOf(CrOf[self])] = -1
+                       THEN /\ fsleep' = (fsleep \cup {self})
+                            /\ wloc' = [wloc EXCEPT ![self] = FutexOf(CrOf[self])]
+                            /\ acc' = Ev(self, "fwait", FutexOf(CrOf[self]), -1, "-", "SLEEP")
+                            /\ pc' = [pc EXCEPT ![self] = "w_fwoke"]
+                       ELSE /\ acc' = Ev(self, "fwait", FutexOf(CrOf[self]), -1, "-", "EAGAIN")
+                            /\ pc' = [pc EXCEPT ![self] = "w_dec"]
+                            /\ UNCHANGED << fsleep, wloc >>
+                 /\ UNCHANGED << mem, sb, lock, spur, wkind, crlist, nhelp, 
+                                 started, cpulen, tcrd, mycpu, slot, func, 
+                                 rnest, cs, ncs, cnt, snap, queued, fin, bsnap, 
+                                 alive, errs, pci, opx, iv, pa, hd, tl, old, 
+                                 cur, nx, cbc, isrt, en, ec, wc, res, gd, fc, 
+                                 dc, newc, cidef, cifl, cn, bk, regs, kk, gps, 
+                                 stack >>
+
+w_fwoke(self) == /\ pc[self] = "w_fwoke"
+                 /\ self \notin fsleep
+                 /\ acc' = Ev(self, "fwoke", FutexOf(CrOf[self]), "-", "-", wkind[self])
+                 /\ wkind' = [wkind EXCEPT ![self] = "WAKE"]
+                 /\ pc' = [pc EXCEPT ![self] = "w_ld"]
+                 /\ UNCHANGED << mem, sb, lock, fsleep, wloc, spur, crlist, 
+                                 nhelp, started, cpulen, tcrd, mycpu, slot, 
+                                 func, rnest, cs, ncs, cnt, snap, queued, fin, 
+                                 bsnap, alive, uaf, errs, pci, opx, iv, pa, hd, 
+                                 tl, old, cur, nx, cbc, isrt, en, ec, wc, res, 
+                                 gd, fc, dc, newc, cidef, cifl, cn, bk, regs, 
+                                 kk, gps, stack >>
+
+w_dec(self) == /\ pc[self] = "w_dec"
+               /\ Drained(self)
+               /\ acc' = Ev(self, "dec", (FutexOf(CrOf[self])), 1, "-", (mem[FutexOf(CrOf[self])] - 1))
+               /\ uaf' = (uaf \/ Dead((FutexOf(CrOf[self]))))
+               /\ mem' = [mem EXCEPT ![(FutexOf(CrOf[self]))] = mem[FutexOf(CrOf[self])] - 1]
+               /\ pc' = [pc EXCEPT ![self] = "w_mb2"]
+               /\ UNCHANGED << sb, lock, fsleep, wloc, spur, wkind, crlist, 
+                               nhelp, started, cpulen, tcrd, mycpu, slot, func, 
+                               rnest, cs, ncs, cnt, snap, queued, fin, bsnap, 
+                               alive, errs, pci, opx, iv, pa, hd, tl, old, cur, 
+                               nx, cbc, isrt, en, ec, wc, res, gd, fc, dc, 
+                               newc, cidef, cifl, cn, bk, regs, kk, gps, stack >>
+
+w_mb2(self) == /\ pc[self] = "w_mb2"
+               /\ Drained(self)
+               /\ acc' = Ev(self, "mb", "-", "-", "-", "-")
+               /\ pc' = [pc EXCEPT ![self] = "h_top"]
+               /\ UNCHANGED << mem, sb, lock, fsleep, wloc, spur, wkind, 
+                               crlist, nhelp, started, cpulen, tcrd, mycpu, 
+                               slot, func, rnest, cs, ncs, cnt, snap, queued, 
+                               fin, bsnap, alive, uaf, errs, pci, opx, iv, pa, 
+                               hd, tl, old, cur, nx, cbc, isrt, en, ec, wc, 
+                               res, gd, fc, dc, newc, cidef, cifl, cn, bk, 
+                               regs, kk, gps, stack >>
+
+o_mb(self) == /\ pc[self] = "o_mb"
+              /\ Drained(self)
+              /\ acc' = Ev(self, "mb", "-", "-", "-", "-")
+              /\ pc' = [pc EXCEPT ![self] = "o_st"]
+              /\ UNCHANGED << mem, sb, lock, fsleep, wloc, spur, wkind, crlist, 
+                              nhelp, started, cpulen, tcrd, mycpu, slot, func, 
+                              rnest, cs, ncs, cnt, snap, queued, fin, bsnap, 
+                              alive, uaf, errs, pci, opx, iv, pa, hd, tl, old, 
+                              cur, nx, cbc, isrt, en, ec, wc, res, gd, fc, dc, 
+                              newc, cidef, cifl, cn, bk, regs, kk, gps, stack >>
+
+o_st(self) == /\ pc[self] = "o_st"
+              /\ IF TSO
+                    THEN /\ Len(sb[self]) < SBMax
+                         /\ sb' = [sb EXCEPT ![self] = Append(sb[self], <<(FutexOf(CrOf[self])), 0>>)]
+                         /\ mem' = mem
+                    ELSE /\ mem' = [mem EXCEPT ![(FutexOf(CrOf[self]))] = 0]
+                         /\ sb' = sb
+              /\ uaf' = (uaf \/ Dead((FutexOf(CrOf[self]))))
+              /\ acc' = Ev(self, "st", (FutexOf(CrOf[self])), 0, "-", "-")
+              /\ pc' = [pc EXCEPT ![self] = "o_or"]
+              /\ UNCHANGED << lock, fsleep, wloc, spur, wkind, crlist, nhelp, 
+                              started, cpulen, tcrd, mycpu, slot, func, rnest, 
+                              cs, ncs, cnt, snap, queued, fin, bsnap, alive, 
+                              errs, pci, opx, iv, pa, hd, tl, old, cur, nx, 
+                              cbc, isrt, en, ec, wc, res, gd, fc, dc, newc, 
+                              cidef, cifl, cn, bk, regs, kk, gps, stack >>
+
+o_or(self) == /\ pc[self] = "o_or"
+              /\ Drained(self)
+              /\ acc' = Ev(self, "or", (FlagsOf(CrOf[self])), STOPPED, "-", (SetB(mem[FlagsOf(CrOf[self])], STOPPED)))
+              /\ uaf' = (uaf \/ Dead((FlagsOf(CrOf[self]))))
+              /\ mem' = [mem EXCEPT ![(FlagsOf(CrOf[self]))] = SetB(mem[FlagsOf(CrOf[self])], STOPPED)]
+              /\ pc' = [pc EXCEPT ![self] = "h_exit"]
+              /\ UNCHANGED << sb, lock, fsleep, wloc, spur, wkind, crlist, 
+                              nhelp, started, cpulen, tcrd, mycpu, slot, func, 
+                              rnest, cs, ncs, cnt, snap, queued, fin, bsnap, 
+                              alive, errs, pci, opx, iv, pa, hd, tl, old, cur, 
+                              nx, cbc, isrt, en, ec, wc, res, gd, fc, dc, newc, 
+                              cidef, cifl, cn, bk, regs, kk, gps, stack >>
+
+h_exit(self) == /\ pc[self] = "h_exit"
+                /\ Drained(self)
+                /\ acc' = Ev(self, "exit", "-", "-", "-", "-")
+                /\ pc' = [pc EXCEPT ![self] = "Done"]
+                /\ UNCHANGED << mem, sb, lock, fsleep, wloc, spur, wkind, 
+                                crlist, nhelp, started, cpulen, tcrd, mycpu, 
+                                slot, func, rnest, cs, ncs, cnt, snap, queued, 
+                                fin, bsnap, alive, uaf, errs, pci, opx, iv, pa, 
+                                hd, tl, old, cur, nx, cbc, isrt, en, ec, wc, 
+                                res, gd, fc, dc, newc, cidef, cifl, cn, bk, 
+                                regs, kk, gps, stack >>
+
+helper(self) == h_idle(self) \/ h_flags(self) \/ h_dec0(self)
+                   \/ h_mb0(self) \/ h_top(self) \/ p_or(self)
+                   \/ p_wait(self) \/ p_and(self) \/ s_e1(self)
+                   \/ s_e2(self) \/ m_gp(self) \/ s_xh(self) \/ s_lt(self)
+                   \/ s_mb(self) \/ s_xt(self) \/ h_gp(self) \/ it_ld(self)
+                   \/ it_re(self) \/ it_rr(self) \/ it_end(self)
+                   \/ it_inv(self) \/ it_nxt(self) \/ h_sub(self)
+                   \/ h_stop(self) \/ h_e1(self) \/ h_e2(self)
+                   \/ w_mb(self) \/ w_ld(self) \/ w_fwait(self)
+                   \/ w_fwoke(self) \/ w_dec(self) \/ w_mb2(self)
+                   \/ o_mb(self) \/ o_st(self) \/ o_or(self)
+                   \/ h_exit(self)
+
+t_top(self) == /\ pc[self] = "t_top"
+               /\ IF pci[self] <= Len(Prog[self])
+                     THEN /\ opx' = [opx EXCEPT ![self] = Prog[self][pci[self]]]
+                          /\ IF opx'[self].op = "rlock"
+                                THEN /\ IF rnest[self] = 0
+                                           THEN /\ cs' = [cs EXCEPT ![self] = ncs[self] + 1]
+                                                /\ ncs' = [ncs EXCEPT ![self] = ncs[self] + 1]
+                                           ELSE /\ TRUE
+                                                /\ UNCHANGED << cs, ncs >>
+                                     /\ rnest' = [rnest EXCEPT ![self] = rnest[self] + 1]
+                                     /\ pci' = [pci EXCEPT ![self] = pci[self] + 1]
+                                     /\ acc' = Ev(self, "rlock", "-", "-", "-", rnest'[self])
+                                     /\ pc' = [pc EXCEPT ![self] = "t_top"]
+                                     /\ UNCHANGED << tcrd, mycpu, snap, bsnap, 
+                                                     alive, en, res, fc, cidef, 
+                                                     cifl, cn, bk, stack >>
+                                ELSE /\ IF opx'[self].op = "runlock"
+                                           THEN /\ rnest' = [rnest EXCEPT ![self] = rnest[self] - 1]
+                                                /\ pci' = [pci EXCEPT ![self] = pci[self] + 1]
+                                                /\ IF rnest'[self] = 0
+                                                      THEN /\ cs' = [cs EXCEPT ![self] = 0]
+                                                      ELSE /\ TRUE
+                                                           /\ cs' = cs
+                                                /\ acc' = Ev(self, "runlock", "-", "-", "-", rnest'[self])
+                                                /\ pc' = [pc EXCEPT ![self] = "t_top"]
+                                                /\ UNCHANGED << tcrd, mycpu, 
+                                                                snap, bsnap, 
+                                                                alive, en, res, 
+                                                                fc, cidef, 
+                                                                cifl, cn, bk, 
+                                                                stack >>
+                                           ELSE /\ IF opx'[self].op = "cpu"
+                                                      THEN /\ mycpu' = [mycpu EXCEPT ![self] = opx'[self].c]
+                                                           /\ pci' = [pci EXCEPT ![self] = pci[self] + 1]
+                                                           /\ pc' = [pc EXCEPT ![self] = "t_top"]
+                                                           /\ UNCHANGED << acc, 
+                                                                           tcrd, 
+                                                                           snap, 
+                                                                           bsnap, 
+                                                                           alive, 
+                                                                           en, 
+                                                                           res, 
+                                                                           fc, 
+                                                                           cidef, 
+                                                                           cifl, 
+                                                                           cn, 
+                                                                           bk, 
+                                                                           stack >>
+                                                      ELSE /\ IF opx'[self].op = "call"
+                                                                 THEN /\ cn' = [cn EXCEPT ![self] = opx'[self].n]
+                                                                      /\ snap' = [snap EXCEPT ![opx'[self].n] = cs]
+                                                                      /\ UNCHANGED << bsnap, 
+                                                                                      alive, 
+                                                                                      en, 
+                                                                                      fc, 
+                                                                                      cidef, 
+                                                                                      cifl, 
+                                                                                      bk >>
+                                                                 ELSE /\ IF opx'[self].op = "barrier"
+                                                                            THEN /\ bk' = [bk EXCEPT ![self] = KName(self, pci[self])]
+                                                                                 /\ alive' = [alive EXCEPT ![KName(self, pci[self])] = "yes"]
+                                                                                 /\ bsnap' = [bsnap EXCEPT ![self] = queued]
+                                                                                 /\ UNCHANGED << en, 
+                                                                                                 fc, 
+                                                                                                 cidef, 
+                                                                                                 cifl >>
+                                                                            ELSE /\ IF opx'[self].op = "free"
+                                                                                       THEN /\ fc' = [fc EXCEPT ![self] = slot[opx'[self].x]]
+                                                                                            /\ UNCHANGED << en, 
+                                                                                                            cidef, 
+                                                                                                            cifl >>
+                                                                                       ELSE /\ IF opx'[self].op = "setcpu"
+                                                                                                  THEN /\ en' = [en EXCEPT ![self] = IF opx'[self].x = NULL THEN NULL ELSE slot[opx'[self].x]]
+                                                                                                       /\ UNCHANGED << cidef, 
+                                                                                                                       cifl >>
+                                                                                                  ELSE /\ IF opx'[self].op = "create"
+                                                                                                             THEN /\ cidef' = [cidef EXCEPT ![self] = FALSE]
+                                                                                                                  /\ cifl' = [cifl EXCEPT ![self] = opx'[self].f]
+                                                                                                             ELSE /\ TRUE
+                                                                                                                  /\ UNCHANGED << cidef, 
+                                                                                                                                  cifl >>
+                                                                                                       /\ en' = en
+                                                                                            /\ fc' = fc
+                                                                                 /\ UNCHANGED << bsnap, 
+                                                                                                 alive, 
+                                                                                                 bk >>
+                                                                      /\ UNCHANGED << snap, 
+                                                                                      cn >>
+                                                           /\ res' = [res EXCEPT ![self] = "-"]
+                                                           /\ acc' = Ev(self, "call", IF opx'[self].op = "call" THEN opx'[self].n ELSE IF opx'[self].op \in {"free", "setcpu", "setthr"} /\ opx'[self].x # NULL THEN slot[opx'[self].x] ELSE "-",
+                                                                        opx'[self].op, "-", "-")
+                                                           /\ IF opx'[self].op = "call"
+                                                                 THEN /\ stack' = [stack EXCEPT ![self] = << [ procedure |->  "call_rcu",
+                                                                                                               pc        |->  "t_ret" ] >>
+                                                                                                           \o stack[self]]
+                                                                      /\ pc' = [pc EXCEPT ![self] = "cr_lock"]
+                                                                      /\ tcrd' = tcrd
+                                                                 ELSE /\ IF opx'[self].op = "sync"
+                                                                            THEN /\ stack' = [stack EXCEPT ![self] = << [ procedure |->  "synchronize_rcu",
+                                                                                                                          pc        |->  "t_ret" ] >>
+                                                                                                                      \o stack[self]]
+                                                                                 /\ pc' = [pc EXCEPT ![self] = "gp_b"]
+                                                                                 /\ tcrd' = tcrd
+                                                                            ELSE /\ IF opx'[self].op = "getdef"
+                                                                                       THEN /\ stack' = [stack EXCEPT ![self] = << [ procedure |->  "get_default",
+                                                                                                                                     pc        |->  "t_ret" ] >>
+                                                                                                                                 \o stack[self]]
+                                                                                            /\ pc' = [pc EXCEPT ![self] = "gd_ld"]
+                                                                                            /\ tcrd' = tcrd
+                                                                                       ELSE /\ IF opx'[self].op = "create"
+                                                                                                  THEN /\ pc' = [pc EXCEPT ![self] = "t_crl"]
+                                                                                                       /\ UNCHANGED << tcrd, 
+                                                                                                                       stack >>
+                                                                                                  ELSE /\ IF opx'[self].op = "setthr"
+                                                                                                             THEN /\ tcrd' = [tcrd EXCEPT ![self] = IF opx'[self].x = NULL THEN NULL ELSE slot[opx'[self].x]]
+                                                                                                                  /\ pc' = [pc EXCEPT ![self] = "t_ret"]
+                                                                                                                  /\ stack' = stack
+                                                                                                             ELSE /\ IF opx'[self].op = "setcpu"
+                                                                                                                        THEN /\ stack' = [stack EXCEPT ![self] = << [ procedure |->  "set_cpu",
+                                                                                                                                                                      pc        |->  "t_ret" ] >>
+                                                                                                                                                                  \o stack[self]]
+                                                                                                                             /\ pc' = [pc EXCEPT ![self] = "sc_lock"]
+                                                                                                                        ELSE /\ IF opx'[self].op = "free"
+                                                                                                                                   THEN /\ stack' = [stack EXCEPT ![self] = << [ procedure |->  "data_free",
+                                                                                                                                                                                 pc        |->  "t_ret" ] >>
+                                                                                                                                                                             \o stack[self]]
+                                                                                                                                        /\ pc' = [pc EXCEPT ![self] = "f_chk"]
+                                                                                                                                   ELSE /\ IF opx'[self].op = "barrier"
+                                                                                                                                              THEN /\ stack' = [stack EXCEPT ![self] = << [ procedure |->  "barrier",
+                                                                                                                                                                                            pc        |->  "t_ret" ] >>
+                                                                                                                                                                                        \o stack[self]]
+                                                                                                                                                   /\ pc' = [pc EXCEPT ![self] = "b_lock"]
+                                                                                                                                              ELSE /\ IF opx'[self].op = "pause"
+                                                                                                                                                         THEN /\ stack' = [stack EXCEPT ![self] = << [ procedure |->  "before_fork",
+                                                                                                                                                                                                       pc        |->  "t_ret" ] >>
+                                                                                                                                                                                                   \o stack[self]]
+                                                                                                                                                              /\ pc' = [pc EXCEPT ![self] = "bf_lock"]
+                                                                                                                                                         ELSE /\ stack' = [stack EXCEPT ![self] = << [ procedure |->  "after_fork_parent",
+                                                                                                                                                                                                       pc        |->  "t_ret" ] >>
+                                                                                                                                                                                                   \o stack[self]]
+                                                                                                                                                              /\ pc' = [pc EXCEPT ![self] = "af_0"]
+                                                                                                                  /\ tcrd' = tcrd
+                                                           /\ UNCHANGED << mycpu, 
+                                                                           pci >>
+                                                /\ UNCHANGED << rnest, cs >>
+                                     /\ ncs' = ncs
+                     ELSE /\ pc' = [pc EXCEPT ![self] = "t_exit"]
+                          /\ UNCHANGED << acc, tcrd, mycpu, rnest, cs, ncs, 
+                                          snap, bsnap, alive, pci, opx, en, 
+                                          res, fc, cidef, cifl, cn, bk, stack >>
+               /\ UNCHANGED << mem, sb, lock, fsleep, wloc, spur, wkind, 
+                               crlist, nhelp, started, cpulen, slot, func, cnt, 
+                               queued, fin, uaf, errs, iv, pa, hd, tl, old, 
+                               cur, nx, cbc, isrt, ec, wc, gd, dc, newc, regs, 
+                               kk, gps >>
+
+t_ret(self) == /\ pc[self] = "t_ret"
+               /\ IF opx[self].op = "call"
+                     THEN /\ queued' = (queued \cup {opx[self].n})
+                          /\ errs' = errs
+                     ELSE /\ IF opx[self].op = "barrier"
+                                THEN /\ IF bsnap[self] \ fin # {}
+                                           THEN /\ errs' = (errs \cup {"BarrierComplete"})
+                                           ELSE /\ TRUE
+                                                /\ errs' = errs
+                                ELSE /\ TRUE
+                                     /\ errs' = errs
+                          /\ UNCHANGED queued
+               /\ acc' = Ev(self, "ret", "-", "-", "-", res[self])
+               /\ pci' = [pci EXCEPT ![self] = pci[self] + 1]
+               /\ pc' = [pc EXCEPT ![self] = "t_top"]
+               /\ UNCHANGED << mem, sb, lock, fsleep, wloc, spur, wkind, 
+                               crlist, nhelp, started, cpulen, tcrd, mycpu, 
+                               slot, func, rnest, cs, ncs, cnt, snap, fin, 
+                               bsnap, alive, uaf, opx, iv, pa, hd, tl, old, 
+                               cur, nx, cbc, isrt, en, ec, wc, res, gd, fc, dc, 
+                               newc, cidef, cifl, cn, bk, regs, kk, gps, stack >>
+
+t_crl(self) == /\ pc[self] = "t_crl"
+               /\ Drained(self) /\ lock = "free"
+               /\ lock' = self
+               /\ acc' = Ev(self, "lock", CM, "-", "-", "-")
+               /\ stack' = [stack EXCEPT ![self] = << [ procedure |->  "data_init",
+                                                        pc        |->  "t_cru" ] >>
+                                                    \o stack[self]]
+               /\ pc' = [pc EXCEPT ![self] = "ci_new"]
+               /\ UNCHANGED << mem, sb, fsleep, wloc, spur, wkind, crlist, 
+                               nhelp, started, cpulen, tcrd, mycpu, slot, func, 
+                               rnest, cs, ncs, cnt, snap, queued, fin, bsnap, 
+                               alive, uaf, errs, pci, opx, iv, pa, hd, tl, old, 
+                               cur, nx, cbc, isrt, en, ec, wc, res, gd, fc, dc, 
+                               newc, cidef, cifl, cn, bk, regs, kk, gps >>
+
+t_cru(self) == /\ pc[self] = "t_cru"
+               /\ slot' = [slot EXCEPT ![opx[self].x] = newc[self]]
+               /\ res' = [res EXCEPT ![self] = newc[self]]
+               /\ Drained(self)
+               /\ lock' = "free"
+               /\ acc' = Ev(self, "unlock", CM, "-", "-", "-")
+               /\ pc' = [pc EXCEPT ![self] = "t_ret"]
+               /\ UNCHANGED << mem, sb, fsleep, wloc, spur, wkind, crlist, 
+                               nhelp, started, cpulen, tcrd, mycpu, func, 
+                               rnest, cs, ncs, cnt, snap, queued, fin, bsnap, 
+                               alive, uaf, errs, pci, opx, iv, pa, hd, tl, old, 
+                               cur, nx, cbc, isrt, en, ec, wc, gd, fc, dc, 
+                               newc, cidef, cifl, cn, bk, regs, kk, gps, stack >>
+
+t_exit(self) == /\ pc[self] = "t_exit"
+                /\ Drained(self)
+                /\ acc' = Ev(self, "exit", "-", "-", "-", "-")
+                /\ pc' = [pc EXCEPT ![self] = "Done"]
+                /\ UNCHANGED << mem, sb, lock, fsleep, wloc, spur, wkind, 
+                                crlist, nhelp, started, cpulen, tcrd, mycpu, 
+                                slot, func, rnest, cs, ncs, cnt, snap, queued, 
+                                fin, bsnap, alive, uaf, errs, pci, opx, iv, pa, 
+                                hd, tl, old, cur, nx, cbc, isrt, en, ec, wc, 
+                                res, gd, fc, dc, newc, cidef, cifl, cn, bk, 
+                                regs, kk, gps, stack >>
+
+thr(self) == t_top(self) \/ t_ret(self) \/ t_crl(self) \/ t_cru(self)
+                \/ t_exit(self)
+
+Next == (\E self \in ProcSet:  \/ synchronize_rcu(self) \/ wake(self)
+                               \/ enqueue(self) \/ data_init(self)
+                               \/ get_default(self) \/ call_rcu(self)
+                               \/ set_cpu(self) \/ data_free(self)
+                               \/ barrier_complete(self) \/ barrier(self)
+                               \/ before_fork(self)
+                               \/ after_fork_parent(self))
+           \/ (\E self \in Flushers: flusher(self))
+           \/ (\E self \in {"W:env"}: spurw(self))
+           \/ (\E self \in Helpers: helper(self))
+           \/ (\E self \in Threads: thr(self))
+
+Spec == /\ Init /\ [][Next]_vars
+        /\ \A self \in Flushers : WF_vars(flusher(self))
+        /\ \A self \in Helpers : /\ WF_vars(helper(self))
+                                 /\ WF_vars(synchronize_rcu(self))
+                                 /\ WF_vars(call_rcu(self))
+                                 /\ WF_vars(barrier_complete(self))
+                                 /\ WF_vars(wake(self))
+                                 /\ WF_vars(enqueue(self))
+                                 /\ WF_vars(data_init(self))
+                                 /\ WF_vars(get_default(self))
+        /\ \A self \in Threads : /\ WF_vars(thr(self))
+                                 /\ WF_vars(call_rcu(self))
+                                 /\ WF_vars(synchronize_rcu(self))
+                                 /\ WF_vars(get_default(self))
+                                 /\ WF_vars(set_cpu(self))
+                                 /\ WF_vars(data_free(self))
+                                 /\ WF_vars(barrier(self))
+                                 /\ WF_vars(before_fork(self))
+                                 /\ WF_vars(after_fork_parent(self))
+                                 /\ WF_vars(data_init(self))
+                                 /\ WF_vars(wake(self))
+                                 /\ WF_vars(enqueue(self))
+
 \* END TRANSLATION
 
 AllDone == \A t \in Threads : pc[t] = "Done"
@@ -601,7 +2867,7 @@ FreedOnce == "completion freed twice" \notin errs /\ "call_rcu_data freed twice"
 NoUseAfterFree == ~uaf
 Called == {n \in Nodes : snap[n] # NoSnap \/ n \in queued \/ cnt[n] > 0}
 \* a helper is at rest: never started, finished, asleep in FUTEX_WAIT, or (real-time) polling an empty queue
-HelperIdle(h) == \/ pc[h] \in {"h_idle", "Done"}
+HelperIdle(h) == \/ pc[h] = "Done" \/ (pc[h] = "h_idle" /\ ~started[h])
                  \/ (pc[h] = "w_fwoke" /\ h \in fsleep)
                  \/ (isrt[h] /\ pc[h] = "h_top" /\ mem[TailOf(CrOf[h])] = Hd(CrOf[h]) /\ ~Has(mem[FlagsOf(CrOf[h])], STOP))
 Quiescent == AllDone /\ (\A p \in Procs : sb[p] = <<>>) /\ \A h \in Helpers : HelperIdle(h)
@@ -610,10 +2876,13 @@ Queued == {n \in Nodes : n \in queued}
 NoLoss == Quiescent => \A n \in Queued : cnt[n] = 1 /\ n \in fin
 \* deadlock freedom with an explicit notion of termination (flushers never terminate, helpers stay parked)
 DeadlockFree == AllDone \/ ENABLED Next
+\* the same through TLC's own deadlock check (cheaper than ENABLED): termination is an explicit stuttering step
+DNext == Next \/ (AllDone /\ UNCHANGED vars)
+DSpec == Init /\ [][DNext]_vars
 SBBound == \A t \in Procs : Len(sb[t]) <= SBMax
 \* liveness (no state constraint): every queued callback is eventually invoked, every rcu_barrier() returns
 FairSpec == Spec
 EventuallyInvoked == \A n \in Nodes : (n \in queued) ~> (n \in fin)
-BarrierReturns == \A t \in Threads : (pc[t] = "t_disp" /\ opx[t].op = "barrier") ~> (pc[t] = "t_ret")
+BarrierReturns == \A t \in Threads : (pc[t] = "b_lock") ~> (pc[t] = "t_ret")
 AllReturn == <>(AllDone)
 =============================================================================
